@@ -2689,2078 +2689,2162 @@ pub fn p561() {
     let _ = a.apply(&b);
 }
 
-pub fn p565() {
-    let a: re::math::mat::Mat4x4<re::math::mat::RealToReal<3, re::render::World, re::render::Model>> = mk();
-    let b: re::math::mat::Mat4x4<re::math::mat::RealToReal<3, re::render::Model, re::render::Model>> = mk();
-    let _r: re::math::mat::Mat4x4<re::math::mat::RealToReal<3, re::render::Model, re::render::Model>> = a.compose(&b);
-}
-
-pub fn p566() {
-    let a: re::math::mat::Mat4x4<re::math::mat::RealToReal<3, re::render::World, re::render::Model>> = mk();
-    let b: re::math::mat::Mat4x4<re::math::mat::RealToReal<3, re::render::Model, re::render::Model>> = mk();
-    let _r: re::math::mat::Mat4x4<re::math::mat::RealToReal<3, re::render::Model, re::render::World>> = a.compose(&b);
-}
-
 pub fn p567() {
-    let a: re::math::mat::Mat4x4<re::math::mat::RealToReal<3, re::render::World, re::render::Model>> = mk();
-    let b: re::math::mat::Mat4x4<re::math::mat::RealToReal<3, re::render::Model, re::render::Model>> = mk();
-    let _r: re::math::mat::Mat4x4<re::math::mat::RealToReal<3, re::render::World, re::render::Model>> = a.compose(&b);
-}
-
-pub fn p568() {
-    let a: re::math::mat::Mat4x4<re::math::mat::RealToReal<3, re::render::World, re::render::Model>> = mk();
-    let b: re::math::mat::Mat4x4<re::math::mat::RealToReal<3, re::render::Model, re::render::Model>> = mk();
-    let _r: re::math::mat::Mat4x4<re::math::mat::RealToReal<3, re::render::World, re::render::World>> = a.compose(&b);
+    let a: re::math::mat::Mat4x4<re::math::mat::RealToReal<3, crate::UserTag, crate::UserTag>> = mk();
+    let b: re::math::mat::Mat4x4<re::math::mat::RealToReal<3, crate::UserTag, re::render::World>> = mk();
+    let _ = a.compose(&b);
 }
 
 pub fn p569() {
-    let a: re::math::mat::Mat4x4<re::math::mat::RealToReal<3, re::render::World, re::render::Model>> = mk();
-    let b: re::math::mat::Mat4x4<re::math::mat::RealToReal<3, re::render::Model, re::render::Model>> = mk();
-    let _ = a.compose(&b);
+    let a: re::math::mat::Mat4x4<re::math::mat::RealToReal<3, crate::UserTag, crate::UserTag>> = mk();
+    let b: re::math::mat::Mat4x4<re::math::mat::RealToReal<3, re::render::World, crate::UserTag>> = mk();
+    let _ = a.then(&b);
 }
 
-pub fn p571() {
-    let a: re::math::mat::Mat4x4<re::math::mat::RealToReal<3, re::render::World, re::render::Model>> = mk();
-    let b: re::math::mat::Mat4x4<re::math::mat::RealToReal<3, re::render::Model, ()>> = mk();
-    let _ = a.compose(&b);
+pub fn p572() {
+    let a: re::math::mat::Mat4x4<re::math::mat::RealToReal<3, crate::UserTag, crate::UserTag>> = mk();
+    let b: re::math::point::Point3<re::render::World> = mk();
+    let _ = a.apply_pt(&b);
 }
 
 pub fn p574() {
-    let a: re::math::mat::Mat4x4<re::math::mat::RealToReal<3, re::render::World, re::render::Model>> = mk();
-    let b: re::math::mat::Mat4x4<re::math::mat::RealToReal<3, re::render::Model, re::render::World>> = mk();
-    let _r: re::math::mat::Mat4x4<re::math::mat::RealToReal<3, re::render::Model, re::render::World>> = a.compose(&b);
+    let a: re::math::mat::Mat4x4<re::math::mat::RealToReal<3, crate::UserTag, crate::UserTag>> = mk();
+    let b: re::math::vec::Vec3<re::render::World> = mk();
+    let _ = a.apply(&b);
 }
 
-pub fn p575() {
-    let a: re::math::mat::Mat4x4<re::math::mat::RealToReal<3, re::render::World, re::render::Model>> = mk();
-    let b: re::math::mat::Mat4x4<re::math::mat::RealToReal<3, re::render::Model, re::render::World>> = mk();
-    let _r: re::math::mat::Mat4x4<re::math::mat::RealToReal<3, re::render::World, re::render::Model>> = a.compose(&b);
-}
-
-pub fn p576() {
-    let a: re::math::mat::Mat4x4<re::math::mat::RealToReal<3, re::render::World, re::render::Model>> = mk();
-    let b: re::math::mat::Mat4x4<re::math::mat::RealToReal<3, re::render::Model, re::render::World>> = mk();
-    let _r: re::math::mat::Mat4x4<re::math::mat::RealToReal<3, re::render::World, re::render::World>> = a.compose(&b);
-}
-
-pub fn p579() {
-    let a: re::math::mat::Mat4x4<re::math::mat::RealToReal<3, re::render::World, re::render::Model>> = mk();
-    let b: re::math::mat::Mat4x4<re::math::mat::RealToReal<3, (), re::render::Model>> = mk();
-    let _ = a.compose(&b);
+pub fn p578() {
+    let a: re::math::mat::Mat4x4<re::math::mat::RealToReal<3, crate::UserTag, re::render::World>> = mk();
+    let b: re::math::mat::Mat4x4<re::math::mat::RealToReal<3, crate::UserTag, crate::UserTag>> = mk();
+    let _ = a.then(&b);
 }
 
 pub fn p580() {
-    let a: re::math::mat::Mat4x4<re::math::mat::RealToReal<3, re::render::World, re::render::Model>> = mk();
-    let b: re::math::mat::Mat4x4<re::math::mat::RealToReal<3, (), re::render::Model>> = mk();
-    let _ = a.then(&b);
-}
-
-pub fn p581() {
-    let a: re::math::mat::Mat4x4<re::math::mat::RealToReal<3, re::render::World, re::render::Model>> = mk();
-    let b: re::math::mat::Mat4x4<re::math::mat::RealToReal<3, (), ()>> = mk();
+    let a: re::math::mat::Mat4x4<re::math::mat::RealToReal<3, crate::UserTag, re::render::World>> = mk();
+    let b: re::math::mat::Mat4x4<re::math::mat::RealToReal<3, crate::UserTag, re::render::World>> = mk();
     let _ = a.compose(&b);
 }
 
-pub fn p582() {
-    let a: re::math::mat::Mat4x4<re::math::mat::RealToReal<3, re::render::World, re::render::Model>> = mk();
-    let b: re::math::mat::Mat4x4<re::math::mat::RealToReal<3, (), ()>> = mk();
-    let _ = a.then(&b);
-}
-
-pub fn p583() {
-    let a: re::math::mat::Mat4x4<re::math::mat::RealToReal<3, re::render::World, re::render::Model>> = mk();
-    let b: re::math::mat::Mat4x4<re::math::mat::RealToReal<3, (), re::render::World>> = mk();
+pub fn p581() {
+    let a: re::math::mat::Mat4x4<re::math::mat::RealToReal<3, crate::UserTag, re::render::World>> = mk();
+    let b: re::math::mat::Mat4x4<re::math::mat::RealToReal<3, crate::UserTag, re::render::World>> = mk();
     let _ = a.then(&b);
 }
 
 pub fn p585() {
-    let a: re::math::mat::Mat4x4<re::math::mat::RealToReal<3, re::render::World, re::render::Model>> = mk();
-    let b: re::math::mat::Mat4x4<re::math::mat::RealToReal<3, re::render::World, re::render::Model>> = mk();
-    let _r: re::math::mat::Mat4x4<re::math::mat::RealToReal<3, re::render::Model, re::render::Model>> = a.compose(&b);
-}
-
-pub fn p586() {
-    let a: re::math::mat::Mat4x4<re::math::mat::RealToReal<3, re::render::World, re::render::Model>> = mk();
-    let b: re::math::mat::Mat4x4<re::math::mat::RealToReal<3, re::render::World, re::render::Model>> = mk();
-    let _r: re::math::mat::Mat4x4<re::math::mat::RealToReal<3, re::render::Model, re::render::World>> = a.compose(&b);
+    let a: re::math::mat::Mat4x4<re::math::mat::RealToReal<3, crate::UserTag, re::render::World>> = mk();
+    let b: re::math::point::Point3<re::render::World> = mk();
+    let _ = a.apply_pt(&b);
 }
 
 pub fn p587() {
-    let a: re::math::mat::Mat4x4<re::math::mat::RealToReal<3, re::render::World, re::render::Model>> = mk();
-    let b: re::math::mat::Mat4x4<re::math::mat::RealToReal<3, re::render::World, re::render::Model>> = mk();
-    let _r: re::math::mat::Mat4x4<re::math::mat::RealToReal<3, re::render::World, re::render::Model>> = a.compose(&b);
-}
-
-pub fn p588() {
-    let a: re::math::mat::Mat4x4<re::math::mat::RealToReal<3, re::render::World, re::render::Model>> = mk();
-    let b: re::math::mat::Mat4x4<re::math::mat::RealToReal<3, re::render::World, re::render::Model>> = mk();
-    let _r: re::math::mat::Mat4x4<re::math::mat::RealToReal<3, re::render::World, re::render::World>> = a.compose(&b);
-}
-
-pub fn p589() {
-    let a: re::math::mat::Mat4x4<re::math::mat::RealToReal<3, re::render::World, re::render::Model>> = mk();
-    let b: re::math::mat::Mat4x4<re::math::mat::RealToReal<3, re::render::World, re::render::Model>> = mk();
-    let _ = a.compose(&b);
-}
-
-pub fn p590() {
-    let a: re::math::mat::Mat4x4<re::math::mat::RealToReal<3, re::render::World, re::render::Model>> = mk();
-    let b: re::math::mat::Mat4x4<re::math::mat::RealToReal<3, re::render::World, re::render::Model>> = mk();
-    let _ = a.then(&b);
+    let a: re::math::mat::Mat4x4<re::math::mat::RealToReal<3, crate::UserTag, re::render::World>> = mk();
+    let b: re::math::vec::Vec3<re::render::World> = mk();
+    let _ = a.apply(&b);
 }
 
 pub fn p591() {
     let a: re::math::mat::Mat4x4<re::math::mat::RealToReal<3, re::render::World, re::render::Model>> = mk();
-    let b: re::math::mat::Mat4x4<re::math::mat::RealToReal<3, re::render::World, ()>> = mk();
-    let _ = a.compose(&b);
+    let b: re::math::mat::Mat4x4<re::math::mat::RealToReal<3, re::render::Model, re::render::Model>> = mk();
+    let _r: re::math::mat::Mat4x4<re::math::mat::RealToReal<3, re::render::Model, re::render::Model>> = a.compose(&b);
 }
 
 pub fn p592() {
     let a: re::math::mat::Mat4x4<re::math::mat::RealToReal<3, re::render::World, re::render::Model>> = mk();
-    let b: re::math::mat::Mat4x4<re::math::mat::RealToReal<3, re::render::World, ()>> = mk();
-    let _ = a.then(&b);
+    let b: re::math::mat::Mat4x4<re::math::mat::RealToReal<3, re::render::Model, re::render::Model>> = mk();
+    let _r: re::math::mat::Mat4x4<re::math::mat::RealToReal<3, re::render::Model, re::render::World>> = a.compose(&b);
 }
 
 pub fn p593() {
     let a: re::math::mat::Mat4x4<re::math::mat::RealToReal<3, re::render::World, re::render::Model>> = mk();
-    let b: re::math::mat::Mat4x4<re::math::mat::RealToReal<3, re::render::World, re::render::World>> = mk();
-    let _r: re::math::mat::Mat4x4<re::math::mat::RealToReal<3, re::render::Model, re::render::Model>> = a.compose(&b);
+    let b: re::math::mat::Mat4x4<re::math::mat::RealToReal<3, re::render::Model, re::render::Model>> = mk();
+    let _r: re::math::mat::Mat4x4<re::math::mat::RealToReal<3, re::render::World, re::render::Model>> = a.compose(&b);
 }
 
 pub fn p594() {
     let a: re::math::mat::Mat4x4<re::math::mat::RealToReal<3, re::render::World, re::render::Model>> = mk();
-    let b: re::math::mat::Mat4x4<re::math::mat::RealToReal<3, re::render::World, re::render::World>> = mk();
-    let _r: re::math::mat::Mat4x4<re::math::mat::RealToReal<3, re::render::Model, re::render::World>> = a.compose(&b);
+    let b: re::math::mat::Mat4x4<re::math::mat::RealToReal<3, re::render::Model, re::render::Model>> = mk();
+    let _r: re::math::mat::Mat4x4<re::math::mat::RealToReal<3, re::render::World, re::render::World>> = a.compose(&b);
 }
 
-pub fn p596() {
+pub fn p595() {
     let a: re::math::mat::Mat4x4<re::math::mat::RealToReal<3, re::render::World, re::render::Model>> = mk();
-    let b: re::math::mat::Mat4x4<re::math::mat::RealToReal<3, re::render::World, re::render::World>> = mk();
-    let _r: re::math::mat::Mat4x4<re::math::mat::RealToReal<3, re::render::World, re::render::World>> = a.compose(&b);
+    let b: re::math::mat::Mat4x4<re::math::mat::RealToReal<3, re::render::Model, re::render::Model>> = mk();
+    let _ = a.compose(&b);
 }
 
 pub fn p597() {
     let a: re::math::mat::Mat4x4<re::math::mat::RealToReal<3, re::render::World, re::render::Model>> = mk();
-    let b: re::math::mat::Mat4x4<re::math::mat::RealToReal<3, re::render::World, re::render::World>> = mk();
-    let _ = a.then(&b);
+    let b: re::math::mat::Mat4x4<re::math::mat::RealToReal<3, re::render::Model, ()>> = mk();
+    let _ = a.compose(&b);
 }
 
-pub fn p599() {
+pub fn p600() {
     let a: re::math::mat::Mat4x4<re::math::mat::RealToReal<3, re::render::World, re::render::Model>> = mk();
-    let b: re::math::mat::Mat4x4<re::math::mat::RealToProj<re::render::Model>> = mk();
-    let _ = a.compose(&b);
+    let b: re::math::mat::Mat4x4<re::math::mat::RealToReal<3, re::render::Model, re::render::World>> = mk();
+    let _r: re::math::mat::Mat4x4<re::math::mat::RealToReal<3, re::render::Model, re::render::World>> = a.compose(&b);
 }
 
 pub fn p601() {
     let a: re::math::mat::Mat4x4<re::math::mat::RealToReal<3, re::render::World, re::render::Model>> = mk();
-    let b: re::math::mat::Mat4x4<re::math::mat::RealToProj<()>> = mk();
-    let _ = a.compose(&b);
+    let b: re::math::mat::Mat4x4<re::math::mat::RealToReal<3, re::render::Model, re::render::World>> = mk();
+    let _r: re::math::mat::Mat4x4<re::math::mat::RealToReal<3, re::render::World, re::render::Model>> = a.compose(&b);
 }
 
 pub fn p602() {
     let a: re::math::mat::Mat4x4<re::math::mat::RealToReal<3, re::render::World, re::render::Model>> = mk();
-    let b: re::math::mat::Mat4x4<re::math::mat::RealToProj<()>> = mk();
-    let _ = a.then(&b);
-}
-
-pub fn p603() {
-    let a: re::math::mat::Mat4x4<re::math::mat::RealToReal<3, re::render::World, re::render::Model>> = mk();
-    let b: re::math::mat::Mat4x4<re::math::mat::RealToProj<re::render::World>> = mk();
-    let _ = a.compose(&b);
-}
-
-pub fn p604() {
-    let a: re::math::mat::Mat4x4<re::math::mat::RealToReal<3, re::render::World, re::render::Model>> = mk();
-    let b: re::math::mat::Mat4x4<re::math::mat::RealToProj<re::render::World>> = mk();
-    let _ = a.then(&b);
+    let b: re::math::mat::Mat4x4<re::math::mat::RealToReal<3, re::render::Model, re::render::World>> = mk();
+    let _r: re::math::mat::Mat4x4<re::math::mat::RealToReal<3, re::render::World, re::render::World>> = a.compose(&b);
 }
 
 pub fn p605() {
     let a: re::math::mat::Mat4x4<re::math::mat::RealToReal<3, re::render::World, re::render::Model>> = mk();
-    let b: re::math::point::Point2<re::render::Model> = mk();
-    let _ = a.apply_pt(&b);
+    let b: re::math::mat::Mat4x4<re::math::mat::RealToReal<3, (), re::render::Model>> = mk();
+    let _ = a.compose(&b);
 }
 
 pub fn p606() {
     let a: re::math::mat::Mat4x4<re::math::mat::RealToReal<3, re::render::World, re::render::Model>> = mk();
-    let b: re::math::point::Point2<()> = mk();
-    let _ = a.apply_pt(&b);
+    let b: re::math::mat::Mat4x4<re::math::mat::RealToReal<3, (), re::render::Model>> = mk();
+    let _ = a.then(&b);
 }
 
 pub fn p607() {
     let a: re::math::mat::Mat4x4<re::math::mat::RealToReal<3, re::render::World, re::render::Model>> = mk();
-    let b: re::math::point::Point2<re::render::World> = mk();
-    let _ = a.apply_pt(&b);
+    let b: re::math::mat::Mat4x4<re::math::mat::RealToReal<3, (), ()>> = mk();
+    let _ = a.compose(&b);
 }
 
 pub fn p608() {
     let a: re::math::mat::Mat4x4<re::math::mat::RealToReal<3, re::render::World, re::render::Model>> = mk();
-    let b: re::math::point::Point3<re::render::Model> = mk();
-    let _r: re::math::point::Point3<re::render::Model> = a.apply_pt(&b);
+    let b: re::math::mat::Mat4x4<re::math::mat::RealToReal<3, (), ()>> = mk();
+    let _ = a.then(&b);
 }
 
 pub fn p609() {
     let a: re::math::mat::Mat4x4<re::math::mat::RealToReal<3, re::render::World, re::render::Model>> = mk();
-    let b: re::math::point::Point3<re::render::Model> = mk();
-    let _r: re::math::point::Point3<()> = a.apply_pt(&b);
-}
-
-pub fn p610() {
-    let a: re::math::mat::Mat4x4<re::math::mat::RealToReal<3, re::render::World, re::render::Model>> = mk();
-    let b: re::math::point::Point3<re::render::Model> = mk();
-    let _r: re::math::point::Point3<re::render::World> = a.apply_pt(&b);
+    let b: re::math::mat::Mat4x4<re::math::mat::RealToReal<3, (), re::render::World>> = mk();
+    let _ = a.then(&b);
 }
 
 pub fn p611() {
     let a: re::math::mat::Mat4x4<re::math::mat::RealToReal<3, re::render::World, re::render::Model>> = mk();
-    let b: re::math::point::Point3<re::render::Model> = mk();
-    let _ = a.apply_pt(&b);
+    let b: re::math::mat::Mat4x4<re::math::mat::RealToReal<3, re::render::World, re::render::Model>> = mk();
+    let _r: re::math::mat::Mat4x4<re::math::mat::RealToReal<3, re::render::Model, re::render::Model>> = a.compose(&b);
 }
 
 pub fn p612() {
     let a: re::math::mat::Mat4x4<re::math::mat::RealToReal<3, re::render::World, re::render::Model>> = mk();
-    let b: re::math::point::Point3<()> = mk();
-    let _r: re::math::point::Point3<re::render::Model> = a.apply_pt(&b);
+    let b: re::math::mat::Mat4x4<re::math::mat::RealToReal<3, re::render::World, re::render::Model>> = mk();
+    let _r: re::math::mat::Mat4x4<re::math::mat::RealToReal<3, re::render::Model, re::render::World>> = a.compose(&b);
 }
 
 pub fn p613() {
     let a: re::math::mat::Mat4x4<re::math::mat::RealToReal<3, re::render::World, re::render::Model>> = mk();
-    let b: re::math::point::Point3<()> = mk();
-    let _r: re::math::point::Point3<()> = a.apply_pt(&b);
+    let b: re::math::mat::Mat4x4<re::math::mat::RealToReal<3, re::render::World, re::render::Model>> = mk();
+    let _r: re::math::mat::Mat4x4<re::math::mat::RealToReal<3, re::render::World, re::render::Model>> = a.compose(&b);
 }
 
 pub fn p614() {
     let a: re::math::mat::Mat4x4<re::math::mat::RealToReal<3, re::render::World, re::render::Model>> = mk();
-    let b: re::math::point::Point3<()> = mk();
-    let _r: re::math::point::Point3<re::render::World> = a.apply_pt(&b);
+    let b: re::math::mat::Mat4x4<re::math::mat::RealToReal<3, re::render::World, re::render::Model>> = mk();
+    let _r: re::math::mat::Mat4x4<re::math::mat::RealToReal<3, re::render::World, re::render::World>> = a.compose(&b);
 }
 
 pub fn p615() {
     let a: re::math::mat::Mat4x4<re::math::mat::RealToReal<3, re::render::World, re::render::Model>> = mk();
-    let b: re::math::point::Point3<()> = mk();
-    let _ = a.apply_pt(&b);
+    let b: re::math::mat::Mat4x4<re::math::mat::RealToReal<3, re::render::World, re::render::Model>> = mk();
+    let _ = a.compose(&b);
+}
+
+pub fn p616() {
+    let a: re::math::mat::Mat4x4<re::math::mat::RealToReal<3, re::render::World, re::render::Model>> = mk();
+    let b: re::math::mat::Mat4x4<re::math::mat::RealToReal<3, re::render::World, re::render::Model>> = mk();
+    let _ = a.then(&b);
 }
 
 pub fn p617() {
     let a: re::math::mat::Mat4x4<re::math::mat::RealToReal<3, re::render::World, re::render::Model>> = mk();
-    let b: re::math::point::Point3<re::render::World> = mk();
-    let _r: re::math::point::Point3<()> = a.apply_pt(&b);
+    let b: re::math::mat::Mat4x4<re::math::mat::RealToReal<3, re::render::World, ()>> = mk();
+    let _ = a.compose(&b);
 }
 
 pub fn p618() {
     let a: re::math::mat::Mat4x4<re::math::mat::RealToReal<3, re::render::World, re::render::Model>> = mk();
-    let b: re::math::point::Point3<re::render::World> = mk();
-    let _r: re::math::point::Point3<re::render::World> = a.apply_pt(&b);
+    let b: re::math::mat::Mat4x4<re::math::mat::RealToReal<3, re::render::World, ()>> = mk();
+    let _ = a.then(&b);
+}
+
+pub fn p619() {
+    let a: re::math::mat::Mat4x4<re::math::mat::RealToReal<3, re::render::World, re::render::Model>> = mk();
+    let b: re::math::mat::Mat4x4<re::math::mat::RealToReal<3, re::render::World, re::render::World>> = mk();
+    let _r: re::math::mat::Mat4x4<re::math::mat::RealToReal<3, re::render::Model, re::render::Model>> = a.compose(&b);
 }
 
 pub fn p620() {
     let a: re::math::mat::Mat4x4<re::math::mat::RealToReal<3, re::render::World, re::render::Model>> = mk();
-    let b: re::math::vec::Vec2<re::render::Model> = mk();
-    let _ = a.apply(&b);
-}
-
-pub fn p621() {
-    let a: re::math::mat::Mat4x4<re::math::mat::RealToReal<3, re::render::World, re::render::Model>> = mk();
-    let b: re::math::vec::Vec2<()> = mk();
-    let _ = a.apply(&b);
+    let b: re::math::mat::Mat4x4<re::math::mat::RealToReal<3, re::render::World, re::render::World>> = mk();
+    let _r: re::math::mat::Mat4x4<re::math::mat::RealToReal<3, re::render::Model, re::render::World>> = a.compose(&b);
 }
 
 pub fn p622() {
     let a: re::math::mat::Mat4x4<re::math::mat::RealToReal<3, re::render::World, re::render::Model>> = mk();
-    let b: re::math::vec::Vec2<re::render::World> = mk();
-    let _ = a.apply(&b);
+    let b: re::math::mat::Mat4x4<re::math::mat::RealToReal<3, re::render::World, re::render::World>> = mk();
+    let _r: re::math::mat::Mat4x4<re::math::mat::RealToReal<3, re::render::World, re::render::World>> = a.compose(&b);
 }
 
 pub fn p623() {
     let a: re::math::mat::Mat4x4<re::math::mat::RealToReal<3, re::render::World, re::render::Model>> = mk();
-    let b: re::math::vec::Vec3<re::render::Model> = mk();
-    let _r: re::math::vec::Vec3<re::render::Model> = a.apply(&b);
-}
-
-pub fn p624() {
-    let a: re::math::mat::Mat4x4<re::math::mat::RealToReal<3, re::render::World, re::render::Model>> = mk();
-    let b: re::math::vec::Vec3<re::render::Model> = mk();
-    let _r: re::math::vec::Vec3<()> = a.apply(&b);
+    let b: re::math::mat::Mat4x4<re::math::mat::RealToReal<3, re::render::World, re::render::World>> = mk();
+    let _ = a.then(&b);
 }
 
 pub fn p625() {
     let a: re::math::mat::Mat4x4<re::math::mat::RealToReal<3, re::render::World, re::render::Model>> = mk();
-    let b: re::math::vec::Vec3<re::render::Model> = mk();
-    let _r: re::math::vec::Vec3<re::render::World> = a.apply(&b);
-}
-
-pub fn p626() {
-    let a: re::math::mat::Mat4x4<re::math::mat::RealToReal<3, re::render::World, re::render::Model>> = mk();
-    let b: re::math::vec::Vec3<re::render::Model> = mk();
-    let _ = a.apply(&b);
+    let b: re::math::mat::Mat4x4<re::math::mat::RealToProj<re::render::Model>> = mk();
+    let _ = a.compose(&b);
 }
 
 pub fn p627() {
     let a: re::math::mat::Mat4x4<re::math::mat::RealToReal<3, re::render::World, re::render::Model>> = mk();
-    let b: re::math::vec::Vec3<()> = mk();
-    let _r: re::math::vec::Vec3<re::render::Model> = a.apply(&b);
+    let b: re::math::mat::Mat4x4<re::math::mat::RealToProj<()>> = mk();
+    let _ = a.compose(&b);
 }
 
 pub fn p628() {
     let a: re::math::mat::Mat4x4<re::math::mat::RealToReal<3, re::render::World, re::render::Model>> = mk();
-    let b: re::math::vec::Vec3<()> = mk();
-    let _r: re::math::vec::Vec3<()> = a.apply(&b);
+    let b: re::math::mat::Mat4x4<re::math::mat::RealToProj<()>> = mk();
+    let _ = a.then(&b);
 }
 
 pub fn p629() {
     let a: re::math::mat::Mat4x4<re::math::mat::RealToReal<3, re::render::World, re::render::Model>> = mk();
-    let b: re::math::vec::Vec3<()> = mk();
-    let _r: re::math::vec::Vec3<re::render::World> = a.apply(&b);
+    let b: re::math::mat::Mat4x4<re::math::mat::RealToProj<re::render::World>> = mk();
+    let _ = a.compose(&b);
 }
 
 pub fn p630() {
     let a: re::math::mat::Mat4x4<re::math::mat::RealToReal<3, re::render::World, re::render::Model>> = mk();
-    let b: re::math::vec::Vec3<()> = mk();
-    let _ = a.apply(&b);
+    let b: re::math::mat::Mat4x4<re::math::mat::RealToProj<re::render::World>> = mk();
+    let _ = a.then(&b);
+}
+
+pub fn p631() {
+    let a: re::math::mat::Mat4x4<re::math::mat::RealToReal<3, re::render::World, re::render::Model>> = mk();
+    let b: re::math::point::Point2<re::render::Model> = mk();
+    let _ = a.apply_pt(&b);
 }
 
 pub fn p632() {
     let a: re::math::mat::Mat4x4<re::math::mat::RealToReal<3, re::render::World, re::render::Model>> = mk();
+    let b: re::math::point::Point2<()> = mk();
+    let _ = a.apply_pt(&b);
+}
+
+pub fn p633() {
+    let a: re::math::mat::Mat4x4<re::math::mat::RealToReal<3, re::render::World, re::render::Model>> = mk();
+    let b: re::math::point::Point2<re::render::World> = mk();
+    let _ = a.apply_pt(&b);
+}
+
+pub fn p634() {
+    let a: re::math::mat::Mat4x4<re::math::mat::RealToReal<3, re::render::World, re::render::Model>> = mk();
+    let b: re::math::point::Point3<re::render::Model> = mk();
+    let _r: re::math::point::Point3<re::render::Model> = a.apply_pt(&b);
+}
+
+pub fn p635() {
+    let a: re::math::mat::Mat4x4<re::math::mat::RealToReal<3, re::render::World, re::render::Model>> = mk();
+    let b: re::math::point::Point3<re::render::Model> = mk();
+    let _r: re::math::point::Point3<()> = a.apply_pt(&b);
+}
+
+pub fn p636() {
+    let a: re::math::mat::Mat4x4<re::math::mat::RealToReal<3, re::render::World, re::render::Model>> = mk();
+    let b: re::math::point::Point3<re::render::Model> = mk();
+    let _r: re::math::point::Point3<re::render::World> = a.apply_pt(&b);
+}
+
+pub fn p637() {
+    let a: re::math::mat::Mat4x4<re::math::mat::RealToReal<3, re::render::World, re::render::Model>> = mk();
+    let b: re::math::point::Point3<re::render::Model> = mk();
+    let _ = a.apply_pt(&b);
+}
+
+pub fn p638() {
+    let a: re::math::mat::Mat4x4<re::math::mat::RealToReal<3, re::render::World, re::render::Model>> = mk();
+    let b: re::math::point::Point3<()> = mk();
+    let _r: re::math::point::Point3<re::render::Model> = a.apply_pt(&b);
+}
+
+pub fn p639() {
+    let a: re::math::mat::Mat4x4<re::math::mat::RealToReal<3, re::render::World, re::render::Model>> = mk();
+    let b: re::math::point::Point3<()> = mk();
+    let _r: re::math::point::Point3<()> = a.apply_pt(&b);
+}
+
+pub fn p640() {
+    let a: re::math::mat::Mat4x4<re::math::mat::RealToReal<3, re::render::World, re::render::Model>> = mk();
+    let b: re::math::point::Point3<()> = mk();
+    let _r: re::math::point::Point3<re::render::World> = a.apply_pt(&b);
+}
+
+pub fn p641() {
+    let a: re::math::mat::Mat4x4<re::math::mat::RealToReal<3, re::render::World, re::render::Model>> = mk();
+    let b: re::math::point::Point3<()> = mk();
+    let _ = a.apply_pt(&b);
+}
+
+pub fn p643() {
+    let a: re::math::mat::Mat4x4<re::math::mat::RealToReal<3, re::render::World, re::render::Model>> = mk();
+    let b: re::math::point::Point3<re::render::World> = mk();
+    let _r: re::math::point::Point3<()> = a.apply_pt(&b);
+}
+
+pub fn p644() {
+    let a: re::math::mat::Mat4x4<re::math::mat::RealToReal<3, re::render::World, re::render::Model>> = mk();
+    let b: re::math::point::Point3<re::render::World> = mk();
+    let _r: re::math::point::Point3<re::render::World> = a.apply_pt(&b);
+}
+
+pub fn p646() {
+    let a: re::math::mat::Mat4x4<re::math::mat::RealToReal<3, re::render::World, re::render::Model>> = mk();
+    let b: re::math::vec::Vec2<re::render::Model> = mk();
+    let _ = a.apply(&b);
+}
+
+pub fn p647() {
+    let a: re::math::mat::Mat4x4<re::math::mat::RealToReal<3, re::render::World, re::render::Model>> = mk();
+    let b: re::math::vec::Vec2<()> = mk();
+    let _ = a.apply(&b);
+}
+
+pub fn p648() {
+    let a: re::math::mat::Mat4x4<re::math::mat::RealToReal<3, re::render::World, re::render::Model>> = mk();
+    let b: re::math::vec::Vec2<re::render::World> = mk();
+    let _ = a.apply(&b);
+}
+
+pub fn p649() {
+    let a: re::math::mat::Mat4x4<re::math::mat::RealToReal<3, re::render::World, re::render::Model>> = mk();
+    let b: re::math::vec::Vec3<re::render::Model> = mk();
+    let _r: re::math::vec::Vec3<re::render::Model> = a.apply(&b);
+}
+
+pub fn p650() {
+    let a: re::math::mat::Mat4x4<re::math::mat::RealToReal<3, re::render::World, re::render::Model>> = mk();
+    let b: re::math::vec::Vec3<re::render::Model> = mk();
+    let _r: re::math::vec::Vec3<()> = a.apply(&b);
+}
+
+pub fn p651() {
+    let a: re::math::mat::Mat4x4<re::math::mat::RealToReal<3, re::render::World, re::render::Model>> = mk();
+    let b: re::math::vec::Vec3<re::render::Model> = mk();
+    let _r: re::math::vec::Vec3<re::render::World> = a.apply(&b);
+}
+
+pub fn p652() {
+    let a: re::math::mat::Mat4x4<re::math::mat::RealToReal<3, re::render::World, re::render::Model>> = mk();
+    let b: re::math::vec::Vec3<re::render::Model> = mk();
+    let _ = a.apply(&b);
+}
+
+pub fn p653() {
+    let a: re::math::mat::Mat4x4<re::math::mat::RealToReal<3, re::render::World, re::render::Model>> = mk();
+    let b: re::math::vec::Vec3<()> = mk();
+    let _r: re::math::vec::Vec3<re::render::Model> = a.apply(&b);
+}
+
+pub fn p654() {
+    let a: re::math::mat::Mat4x4<re::math::mat::RealToReal<3, re::render::World, re::render::Model>> = mk();
+    let b: re::math::vec::Vec3<()> = mk();
+    let _r: re::math::vec::Vec3<()> = a.apply(&b);
+}
+
+pub fn p655() {
+    let a: re::math::mat::Mat4x4<re::math::mat::RealToReal<3, re::render::World, re::render::Model>> = mk();
+    let b: re::math::vec::Vec3<()> = mk();
+    let _r: re::math::vec::Vec3<re::render::World> = a.apply(&b);
+}
+
+pub fn p656() {
+    let a: re::math::mat::Mat4x4<re::math::mat::RealToReal<3, re::render::World, re::render::Model>> = mk();
+    let b: re::math::vec::Vec3<()> = mk();
+    let _ = a.apply(&b);
+}
+
+pub fn p658() {
+    let a: re::math::mat::Mat4x4<re::math::mat::RealToReal<3, re::render::World, re::render::Model>> = mk();
     let b: re::math::vec::Vec3<re::render::World> = mk();
     let _r: re::math::vec::Vec3<()> = a.apply(&b);
 }
 
-pub fn p633() {
+pub fn p659() {
     let a: re::math::mat::Mat4x4<re::math::mat::RealToReal<3, re::render::World, re::render::Model>> = mk();
     let b: re::math::vec::Vec3<re::render::World> = mk();
     let _r: re::math::vec::Vec3<re::render::World> = a.apply(&b);
 }
 
-pub fn p638() {
-    let a: re::math::mat::Mat4x4<re::math::mat::RealToReal<3, re::render::World, ()>> = mk();
-    let b: re::math::mat::Mat4x4<re::math::mat::RealToReal<3, re::render::Model, re::render::Model>> = mk();
-    let _ = a.compose(&b);
-}
-
-pub fn p639() {
-    let a: re::math::mat::Mat4x4<re::math::mat::RealToReal<3, re::render::World, ()>> = mk();
-    let b: re::math::mat::Mat4x4<re::math::mat::RealToReal<3, re::render::Model, re::render::Model>> = mk();
-    let _ = a.then(&b);
-}
-
-pub fn p640() {
-    let a: re::math::mat::Mat4x4<re::math::mat::RealToReal<3, re::render::World, ()>> = mk();
-    let b: re::math::mat::Mat4x4<re::math::mat::RealToReal<3, re::render::Model, ()>> = mk();
-    let _ = a.compose(&b);
-}
-
-pub fn p641() {
-    let a: re::math::mat::Mat4x4<re::math::mat::RealToReal<3, re::render::World, ()>> = mk();
-    let b: re::math::mat::Mat4x4<re::math::mat::RealToReal<3, re::render::Model, ()>> = mk();
-    let _ = a.then(&b);
-}
-
-pub fn p642() {
-    let a: re::math::mat::Mat4x4<re::math::mat::RealToReal<3, re::render::World, ()>> = mk();
-    let b: re::math::mat::Mat4x4<re::math::mat::RealToReal<3, re::render::Model, re::render::World>> = mk();
-    let _ = a.then(&b);
-}
-
-pub fn p644() {
-    let a: re::math::mat::Mat4x4<re::math::mat::RealToReal<3, re::render::World, ()>> = mk();
-    let b: re::math::mat::Mat4x4<re::math::mat::RealToReal<3, (), re::render::Model>> = mk();
-    let _ = a.compose(&b);
-}
-
-pub fn p646() {
-    let a: re::math::mat::Mat4x4<re::math::mat::RealToReal<3, re::render::World, ()>> = mk();
-    let b: re::math::mat::Mat4x4<re::math::mat::RealToReal<3, (), ()>> = mk();
-    let _ = a.compose(&b);
-}
-
-pub fn p650() {
-    let a: re::math::mat::Mat4x4<re::math::mat::RealToReal<3, re::render::World, ()>> = mk();
-    let b: re::math::mat::Mat4x4<re::math::mat::RealToReal<3, re::render::World, re::render::Model>> = mk();
-    let _ = a.compose(&b);
-}
-
-pub fn p651() {
-    let a: re::math::mat::Mat4x4<re::math::mat::RealToReal<3, re::render::World, ()>> = mk();
-    let b: re::math::mat::Mat4x4<re::math::mat::RealToReal<3, re::render::World, re::render::Model>> = mk();
-    let _ = a.then(&b);
-}
-
-pub fn p652() {
-    let a: re::math::mat::Mat4x4<re::math::mat::RealToReal<3, re::render::World, ()>> = mk();
-    let b: re::math::mat::Mat4x4<re::math::mat::RealToReal<3, re::render::World, ()>> = mk();
-    let _ = a.compose(&b);
-}
-
-pub fn p653() {
-    let a: re::math::mat::Mat4x4<re::math::mat::RealToReal<3, re::render::World, ()>> = mk();
-    let b: re::math::mat::Mat4x4<re::math::mat::RealToReal<3, re::render::World, ()>> = mk();
-    let _ = a.then(&b);
-}
-
-pub fn p654() {
-    let a: re::math::mat::Mat4x4<re::math::mat::RealToReal<3, re::render::World, ()>> = mk();
-    let b: re::math::mat::Mat4x4<re::math::mat::RealToReal<3, re::render::World, re::render::World>> = mk();
-    let _ = a.then(&b);
-}
-
-pub fn p656() {
-    let a: re::math::mat::Mat4x4<re::math::mat::RealToReal<3, re::render::World, ()>> = mk();
-    let b: re::math::mat::Mat4x4<re::math::mat::RealToProj<re::render::Model>> = mk();
-    let _ = a.compose(&b);
-}
-
-pub fn p657() {
-    let a: re::math::mat::Mat4x4<re::math::mat::RealToReal<3, re::render::World, ()>> = mk();
-    let b: re::math::mat::Mat4x4<re::math::mat::RealToProj<re::render::Model>> = mk();
-    let _ = a.then(&b);
-}
-
-pub fn p658() {
-    let a: re::math::mat::Mat4x4<re::math::mat::RealToReal<3, re::render::World, ()>> = mk();
-    let b: re::math::mat::Mat4x4<re::math::mat::RealToProj<()>> = mk();
-    let _ = a.compose(&b);
-}
-
-pub fn p660() {
-    let a: re::math::mat::Mat4x4<re::math::mat::RealToReal<3, re::render::World, ()>> = mk();
-    let b: re::math::mat::Mat4x4<re::math::mat::RealToProj<re::render::World>> = mk();
-    let _ = a.compose(&b);
-}
-
-pub fn p661() {
-    let a: re::math::mat::Mat4x4<re::math::mat::RealToReal<3, re::render::World, ()>> = mk();
-    let b: re::math::mat::Mat4x4<re::math::mat::RealToProj<re::render::World>> = mk();
-    let _ = a.then(&b);
-}
-
-pub fn p662() {
-    let a: re::math::mat::Mat4x4<re::math::mat::RealToReal<3, re::render::World, ()>> = mk();
-    let b: re::math::point::Point2<re::render::Model> = mk();
-    let _ = a.apply_pt(&b);
-}
-
-pub fn p663() {
-    let a: re::math::mat::Mat4x4<re::math::mat::RealToReal<3, re::render::World, ()>> = mk();
-    let b: re::math::point::Point2<()> = mk();
-    let _ = a.apply_pt(&b);
-}
-
 pub fn p664() {
     let a: re::math::mat::Mat4x4<re::math::mat::RealToReal<3, re::render::World, ()>> = mk();
-    let b: re::math::point::Point2<re::render::World> = mk();
-    let _ = a.apply_pt(&b);
+    let b: re::math::mat::Mat4x4<re::math::mat::RealToReal<3, re::render::Model, re::render::Model>> = mk();
+    let _ = a.compose(&b);
 }
 
 pub fn p665() {
     let a: re::math::mat::Mat4x4<re::math::mat::RealToReal<3, re::render::World, ()>> = mk();
-    let b: re::math::point::Point3<re::render::Model> = mk();
-    let _r: re::math::point::Point3<re::render::Model> = a.apply_pt(&b);
+    let b: re::math::mat::Mat4x4<re::math::mat::RealToReal<3, re::render::Model, re::render::Model>> = mk();
+    let _ = a.then(&b);
 }
 
 pub fn p666() {
     let a: re::math::mat::Mat4x4<re::math::mat::RealToReal<3, re::render::World, ()>> = mk();
-    let b: re::math::point::Point3<re::render::Model> = mk();
-    let _r: re::math::point::Point3<()> = a.apply_pt(&b);
+    let b: re::math::mat::Mat4x4<re::math::mat::RealToReal<3, re::render::Model, ()>> = mk();
+    let _ = a.compose(&b);
 }
 
 pub fn p667() {
     let a: re::math::mat::Mat4x4<re::math::mat::RealToReal<3, re::render::World, ()>> = mk();
+    let b: re::math::mat::Mat4x4<re::math::mat::RealToReal<3, re::render::Model, ()>> = mk();
+    let _ = a.then(&b);
+}
+
+pub fn p668() {
+    let a: re::math::mat::Mat4x4<re::math::mat::RealToReal<3, re::render::World, ()>> = mk();
+    let b: re::math::mat::Mat4x4<re::math::mat::RealToReal<3, re::render::Model, re::render::World>> = mk();
+    let _ = a.then(&b);
+}
+
+pub fn p670() {
+    let a: re::math::mat::Mat4x4<re::math::mat::RealToReal<3, re::render::World, ()>> = mk();
+    let b: re::math::mat::Mat4x4<re::math::mat::RealToReal<3, (), re::render::Model>> = mk();
+    let _ = a.compose(&b);
+}
+
+pub fn p672() {
+    let a: re::math::mat::Mat4x4<re::math::mat::RealToReal<3, re::render::World, ()>> = mk();
+    let b: re::math::mat::Mat4x4<re::math::mat::RealToReal<3, (), ()>> = mk();
+    let _ = a.compose(&b);
+}
+
+pub fn p676() {
+    let a: re::math::mat::Mat4x4<re::math::mat::RealToReal<3, re::render::World, ()>> = mk();
+    let b: re::math::mat::Mat4x4<re::math::mat::RealToReal<3, re::render::World, re::render::Model>> = mk();
+    let _ = a.compose(&b);
+}
+
+pub fn p677() {
+    let a: re::math::mat::Mat4x4<re::math::mat::RealToReal<3, re::render::World, ()>> = mk();
+    let b: re::math::mat::Mat4x4<re::math::mat::RealToReal<3, re::render::World, re::render::Model>> = mk();
+    let _ = a.then(&b);
+}
+
+pub fn p678() {
+    let a: re::math::mat::Mat4x4<re::math::mat::RealToReal<3, re::render::World, ()>> = mk();
+    let b: re::math::mat::Mat4x4<re::math::mat::RealToReal<3, re::render::World, ()>> = mk();
+    let _ = a.compose(&b);
+}
+
+pub fn p679() {
+    let a: re::math::mat::Mat4x4<re::math::mat::RealToReal<3, re::render::World, ()>> = mk();
+    let b: re::math::mat::Mat4x4<re::math::mat::RealToReal<3, re::render::World, ()>> = mk();
+    let _ = a.then(&b);
+}
+
+pub fn p680() {
+    let a: re::math::mat::Mat4x4<re::math::mat::RealToReal<3, re::render::World, ()>> = mk();
+    let b: re::math::mat::Mat4x4<re::math::mat::RealToReal<3, re::render::World, re::render::World>> = mk();
+    let _ = a.then(&b);
+}
+
+pub fn p682() {
+    let a: re::math::mat::Mat4x4<re::math::mat::RealToReal<3, re::render::World, ()>> = mk();
+    let b: re::math::mat::Mat4x4<re::math::mat::RealToProj<re::render::Model>> = mk();
+    let _ = a.compose(&b);
+}
+
+pub fn p683() {
+    let a: re::math::mat::Mat4x4<re::math::mat::RealToReal<3, re::render::World, ()>> = mk();
+    let b: re::math::mat::Mat4x4<re::math::mat::RealToProj<re::render::Model>> = mk();
+    let _ = a.then(&b);
+}
+
+pub fn p684() {
+    let a: re::math::mat::Mat4x4<re::math::mat::RealToReal<3, re::render::World, ()>> = mk();
+    let b: re::math::mat::Mat4x4<re::math::mat::RealToProj<()>> = mk();
+    let _ = a.compose(&b);
+}
+
+pub fn p686() {
+    let a: re::math::mat::Mat4x4<re::math::mat::RealToReal<3, re::render::World, ()>> = mk();
+    let b: re::math::mat::Mat4x4<re::math::mat::RealToProj<re::render::World>> = mk();
+    let _ = a.compose(&b);
+}
+
+pub fn p687() {
+    let a: re::math::mat::Mat4x4<re::math::mat::RealToReal<3, re::render::World, ()>> = mk();
+    let b: re::math::mat::Mat4x4<re::math::mat::RealToProj<re::render::World>> = mk();
+    let _ = a.then(&b);
+}
+
+pub fn p688() {
+    let a: re::math::mat::Mat4x4<re::math::mat::RealToReal<3, re::render::World, ()>> = mk();
+    let b: re::math::point::Point2<re::render::Model> = mk();
+    let _ = a.apply_pt(&b);
+}
+
+pub fn p689() {
+    let a: re::math::mat::Mat4x4<re::math::mat::RealToReal<3, re::render::World, ()>> = mk();
+    let b: re::math::point::Point2<()> = mk();
+    let _ = a.apply_pt(&b);
+}
+
+pub fn p690() {
+    let a: re::math::mat::Mat4x4<re::math::mat::RealToReal<3, re::render::World, ()>> = mk();
+    let b: re::math::point::Point2<re::render::World> = mk();
+    let _ = a.apply_pt(&b);
+}
+
+pub fn p691() {
+    let a: re::math::mat::Mat4x4<re::math::mat::RealToReal<3, re::render::World, ()>> = mk();
+    let b: re::math::point::Point3<re::render::Model> = mk();
+    let _r: re::math::point::Point3<re::render::Model> = a.apply_pt(&b);
+}
+
+pub fn p692() {
+    let a: re::math::mat::Mat4x4<re::math::mat::RealToReal<3, re::render::World, ()>> = mk();
+    let b: re::math::point::Point3<re::render::Model> = mk();
+    let _r: re::math::point::Point3<()> = a.apply_pt(&b);
+}
+
+pub fn p693() {
+    let a: re::math::mat::Mat4x4<re::math::mat::RealToReal<3, re::render::World, ()>> = mk();
     let b: re::math::point::Point3<re::render::Model> = mk();
     let _r: re::math::point::Point3<re::render::World> = a.apply_pt(&b);
 }
 
-pub fn p668() {
+pub fn p694() {
     let a: re::math::mat::Mat4x4<re::math::mat::RealToReal<3, re::render::World, ()>> = mk();
     let b: re::math::point::Point3<re::render::Model> = mk();
     let _ = a.apply_pt(&b);
 }
 
-pub fn p669() {
+pub fn p695() {
     let a: re::math::mat::Mat4x4<re::math::mat::RealToReal<3, re::render::World, ()>> = mk();
     let b: re::math::point::Point3<()> = mk();
     let _r: re::math::point::Point3<re::render::Model> = a.apply_pt(&b);
 }
 
-pub fn p670() {
+pub fn p696() {
     let a: re::math::mat::Mat4x4<re::math::mat::RealToReal<3, re::render::World, ()>> = mk();
     let b: re::math::point::Point3<()> = mk();
     let _r: re::math::point::Point3<()> = a.apply_pt(&b);
 }
 
-pub fn p671() {
+pub fn p697() {
     let a: re::math::mat::Mat4x4<re::math::mat::RealToReal<3, re::render::World, ()>> = mk();
     let b: re::math::point::Point3<()> = mk();
     let _r: re::math::point::Point3<re::render::World> = a.apply_pt(&b);
 }
 
-pub fn p672() {
+pub fn p698() {
     let a: re::math::mat::Mat4x4<re::math::mat::RealToReal<3, re::render::World, ()>> = mk();
     let b: re::math::point::Point3<()> = mk();
     let _ = a.apply_pt(&b);
 }
 
-pub fn p673() {
+pub fn p699() {
     let a: re::math::mat::Mat4x4<re::math::mat::RealToReal<3, re::render::World, ()>> = mk();
     let b: re::math::point::Point3<re::render::World> = mk();
     let _r: re::math::point::Point3<re::render::Model> = a.apply_pt(&b);
 }
 
-pub fn p675() {
+pub fn p701() {
     let a: re::math::mat::Mat4x4<re::math::mat::RealToReal<3, re::render::World, ()>> = mk();
     let b: re::math::point::Point3<re::render::World> = mk();
     let _r: re::math::point::Point3<re::render::World> = a.apply_pt(&b);
 }
 
-pub fn p677() {
+pub fn p703() {
     let a: re::math::mat::Mat4x4<re::math::mat::RealToReal<3, re::render::World, ()>> = mk();
     let b: re::math::vec::Vec2<re::render::Model> = mk();
     let _ = a.apply(&b);
 }
 
-pub fn p678() {
+pub fn p704() {
     let a: re::math::mat::Mat4x4<re::math::mat::RealToReal<3, re::render::World, ()>> = mk();
     let b: re::math::vec::Vec2<()> = mk();
     let _ = a.apply(&b);
 }
 
-pub fn p679() {
+pub fn p705() {
     let a: re::math::mat::Mat4x4<re::math::mat::RealToReal<3, re::render::World, ()>> = mk();
     let b: re::math::vec::Vec2<re::render::World> = mk();
     let _ = a.apply(&b);
 }
 
-pub fn p680() {
+pub fn p706() {
     let a: re::math::mat::Mat4x4<re::math::mat::RealToReal<3, re::render::World, ()>> = mk();
     let b: re::math::vec::Vec3<re::render::Model> = mk();
     let _r: re::math::vec::Vec3<re::render::Model> = a.apply(&b);
 }
 
-pub fn p681() {
+pub fn p707() {
     let a: re::math::mat::Mat4x4<re::math::mat::RealToReal<3, re::render::World, ()>> = mk();
     let b: re::math::vec::Vec3<re::render::Model> = mk();
     let _r: re::math::vec::Vec3<()> = a.apply(&b);
 }
 
-pub fn p682() {
+pub fn p708() {
     let a: re::math::mat::Mat4x4<re::math::mat::RealToReal<3, re::render::World, ()>> = mk();
     let b: re::math::vec::Vec3<re::render::Model> = mk();
     let _r: re::math::vec::Vec3<re::render::World> = a.apply(&b);
 }
 
-pub fn p683() {
+pub fn p709() {
     let a: re::math::mat::Mat4x4<re::math::mat::RealToReal<3, re::render::World, ()>> = mk();
     let b: re::math::vec::Vec3<re::render::Model> = mk();
     let _ = a.apply(&b);
 }
 
-pub fn p684() {
+pub fn p710() {
     let a: re::math::mat::Mat4x4<re::math::mat::RealToReal<3, re::render::World, ()>> = mk();
     let b: re::math::vec::Vec3<()> = mk();
     let _r: re::math::vec::Vec3<re::render::Model> = a.apply(&b);
 }
 
-pub fn p685() {
+pub fn p711() {
     let a: re::math::mat::Mat4x4<re::math::mat::RealToReal<3, re::render::World, ()>> = mk();
     let b: re::math::vec::Vec3<()> = mk();
     let _r: re::math::vec::Vec3<()> = a.apply(&b);
 }
 
-pub fn p686() {
+pub fn p712() {
     let a: re::math::mat::Mat4x4<re::math::mat::RealToReal<3, re::render::World, ()>> = mk();
     let b: re::math::vec::Vec3<()> = mk();
     let _r: re::math::vec::Vec3<re::render::World> = a.apply(&b);
 }
 
-pub fn p687() {
+pub fn p713() {
     let a: re::math::mat::Mat4x4<re::math::mat::RealToReal<3, re::render::World, ()>> = mk();
     let b: re::math::vec::Vec3<()> = mk();
     let _ = a.apply(&b);
 }
 
-pub fn p688() {
+pub fn p714() {
     let a: re::math::mat::Mat4x4<re::math::mat::RealToReal<3, re::render::World, ()>> = mk();
     let b: re::math::vec::Vec3<re::render::World> = mk();
     let _r: re::math::vec::Vec3<re::render::Model> = a.apply(&b);
 }
 
-pub fn p690() {
+pub fn p716() {
     let a: re::math::mat::Mat4x4<re::math::mat::RealToReal<3, re::render::World, ()>> = mk();
     let b: re::math::vec::Vec3<re::render::World> = mk();
     let _r: re::math::vec::Vec3<re::render::World> = a.apply(&b);
 }
 
-pub fn p695() {
+pub fn p721() {
+    let a: re::math::mat::Mat4x4<re::math::mat::RealToReal<3, re::render::World, crate::UserTag>> = mk();
+    let b: re::math::mat::Mat4x4<re::math::mat::RealToReal<3, crate::UserTag, crate::UserTag>> = mk();
+    let _ = a.compose(&b);
+}
+
+pub fn p725() {
+    let a: re::math::mat::Mat4x4<re::math::mat::RealToReal<3, re::render::World, crate::UserTag>> = mk();
+    let b: re::math::mat::Mat4x4<re::math::mat::RealToReal<3, re::render::World, crate::UserTag>> = mk();
+    let _ = a.compose(&b);
+}
+
+pub fn p726() {
+    let a: re::math::mat::Mat4x4<re::math::mat::RealToReal<3, re::render::World, crate::UserTag>> = mk();
+    let b: re::math::mat::Mat4x4<re::math::mat::RealToReal<3, re::render::World, crate::UserTag>> = mk();
+    let _ = a.then(&b);
+}
+
+pub fn p727() {
+    let a: re::math::mat::Mat4x4<re::math::mat::RealToReal<3, re::render::World, crate::UserTag>> = mk();
+    let b: re::math::point::Point3<crate::UserTag> = mk();
+    let _ = a.apply_pt(&b);
+}
+
+pub fn p729() {
+    let a: re::math::mat::Mat4x4<re::math::mat::RealToReal<3, re::render::World, crate::UserTag>> = mk();
+    let b: re::math::vec::Vec3<crate::UserTag> = mk();
+    let _ = a.apply(&b);
+}
+
+pub fn p734() {
     let a: re::math::mat::Mat4x4<re::math::mat::RealToReal<3, re::render::World, re::render::World>> = mk();
     let b: re::math::mat::Mat4x4<re::math::mat::RealToReal<3, re::render::Model, re::render::Model>> = mk();
     let _r: re::math::mat::Mat4x4<re::math::mat::RealToReal<3, re::render::Model, re::render::Model>> = a.compose(&b);
 }
 
-pub fn p696() {
+pub fn p735() {
     let a: re::math::mat::Mat4x4<re::math::mat::RealToReal<3, re::render::World, re::render::World>> = mk();
     let b: re::math::mat::Mat4x4<re::math::mat::RealToReal<3, re::render::Model, re::render::Model>> = mk();
     let _r: re::math::mat::Mat4x4<re::math::mat::RealToReal<3, re::render::Model, re::render::World>> = a.compose(&b);
 }
 
-pub fn p697() {
+pub fn p736() {
     let a: re::math::mat::Mat4x4<re::math::mat::RealToReal<3, re::render::World, re::render::World>> = mk();
     let b: re::math::mat::Mat4x4<re::math::mat::RealToReal<3, re::render::Model, re::render::Model>> = mk();
     let _r: re::math::mat::Mat4x4<re::math::mat::RealToReal<3, re::render::World, re::render::Model>> = a.compose(&b);
 }
 
-pub fn p698() {
+pub fn p737() {
     let a: re::math::mat::Mat4x4<re::math::mat::RealToReal<3, re::render::World, re::render::World>> = mk();
     let b: re::math::mat::Mat4x4<re::math::mat::RealToReal<3, re::render::Model, re::render::Model>> = mk();
     let _r: re::math::mat::Mat4x4<re::math::mat::RealToReal<3, re::render::World, re::render::World>> = a.compose(&b);
 }
 
-pub fn p699() {
+pub fn p738() {
     let a: re::math::mat::Mat4x4<re::math::mat::RealToReal<3, re::render::World, re::render::World>> = mk();
     let b: re::math::mat::Mat4x4<re::math::mat::RealToReal<3, re::render::Model, re::render::Model>> = mk();
     let _ = a.compose(&b);
 }
 
-pub fn p700() {
+pub fn p739() {
     let a: re::math::mat::Mat4x4<re::math::mat::RealToReal<3, re::render::World, re::render::World>> = mk();
     let b: re::math::mat::Mat4x4<re::math::mat::RealToReal<3, re::render::Model, re::render::Model>> = mk();
     let _ = a.then(&b);
 }
 
-pub fn p701() {
+pub fn p740() {
     let a: re::math::mat::Mat4x4<re::math::mat::RealToReal<3, re::render::World, re::render::World>> = mk();
     let b: re::math::mat::Mat4x4<re::math::mat::RealToReal<3, re::render::Model, ()>> = mk();
     let _ = a.compose(&b);
 }
 
-pub fn p702() {
+pub fn p741() {
     let a: re::math::mat::Mat4x4<re::math::mat::RealToReal<3, re::render::World, re::render::World>> = mk();
     let b: re::math::mat::Mat4x4<re::math::mat::RealToReal<3, re::render::Model, ()>> = mk();
     let _ = a.then(&b);
 }
 
-pub fn p703() {
+pub fn p742() {
     let a: re::math::mat::Mat4x4<re::math::mat::RealToReal<3, re::render::World, re::render::World>> = mk();
     let b: re::math::mat::Mat4x4<re::math::mat::RealToReal<3, re::render::Model, re::render::World>> = mk();
     let _r: re::math::mat::Mat4x4<re::math::mat::RealToReal<3, re::render::Model, re::render::Model>> = a.compose(&b);
 }
 
-pub fn p705() {
+pub fn p744() {
     let a: re::math::mat::Mat4x4<re::math::mat::RealToReal<3, re::render::World, re::render::World>> = mk();
     let b: re::math::mat::Mat4x4<re::math::mat::RealToReal<3, re::render::Model, re::render::World>> = mk();
     let _r: re::math::mat::Mat4x4<re::math::mat::RealToReal<3, re::render::World, re::render::Model>> = a.compose(&b);
 }
 
-pub fn p706() {
+pub fn p745() {
     let a: re::math::mat::Mat4x4<re::math::mat::RealToReal<3, re::render::World, re::render::World>> = mk();
     let b: re::math::mat::Mat4x4<re::math::mat::RealToReal<3, re::render::Model, re::render::World>> = mk();
     let _r: re::math::mat::Mat4x4<re::math::mat::RealToReal<3, re::render::World, re::render::World>> = a.compose(&b);
 }
 
-pub fn p707() {
+pub fn p746() {
     let a: re::math::mat::Mat4x4<re::math::mat::RealToReal<3, re::render::World, re::render::World>> = mk();
     let b: re::math::mat::Mat4x4<re::math::mat::RealToReal<3, re::render::Model, re::render::World>> = mk();
     let _ = a.then(&b);
 }
 
-pub fn p709() {
+pub fn p748() {
     let a: re::math::mat::Mat4x4<re::math::mat::RealToReal<3, re::render::World, re::render::World>> = mk();
     let b: re::math::mat::Mat4x4<re::math::mat::RealToReal<3, (), re::render::Model>> = mk();
     let _ = a.compose(&b);
 }
 
-pub fn p710() {
+pub fn p749() {
     let a: re::math::mat::Mat4x4<re::math::mat::RealToReal<3, re::render::World, re::render::World>> = mk();
     let b: re::math::mat::Mat4x4<re::math::mat::RealToReal<3, (), re::render::Model>> = mk();
     let _ = a.then(&b);
 }
 
-pub fn p711() {
+pub fn p750() {
     let a: re::math::mat::Mat4x4<re::math::mat::RealToReal<3, re::render::World, re::render::World>> = mk();
     let b: re::math::mat::Mat4x4<re::math::mat::RealToReal<3, (), ()>> = mk();
     let _ = a.compose(&b);
 }
 
-pub fn p712() {
+pub fn p751() {
     let a: re::math::mat::Mat4x4<re::math::mat::RealToReal<3, re::render::World, re::render::World>> = mk();
     let b: re::math::mat::Mat4x4<re::math::mat::RealToReal<3, (), ()>> = mk();
     let _ = a.then(&b);
 }
 
-pub fn p713() {
+pub fn p752() {
     let a: re::math::mat::Mat4x4<re::math::mat::RealToReal<3, re::render::World, re::render::World>> = mk();
     let b: re::math::mat::Mat4x4<re::math::mat::RealToReal<3, (), re::render::World>> = mk();
     let _ = a.then(&b);
 }
 
-pub fn p715() {
+pub fn p754() {
     let a: re::math::mat::Mat4x4<re::math::mat::RealToReal<3, re::render::World, re::render::World>> = mk();
     let b: re::math::mat::Mat4x4<re::math::mat::RealToReal<3, re::render::World, re::render::Model>> = mk();
     let _r: re::math::mat::Mat4x4<re::math::mat::RealToReal<3, re::render::Model, re::render::Model>> = a.compose(&b);
 }
 
-pub fn p716() {
+pub fn p755() {
     let a: re::math::mat::Mat4x4<re::math::mat::RealToReal<3, re::render::World, re::render::World>> = mk();
     let b: re::math::mat::Mat4x4<re::math::mat::RealToReal<3, re::render::World, re::render::Model>> = mk();
     let _r: re::math::mat::Mat4x4<re::math::mat::RealToReal<3, re::render::Model, re::render::World>> = a.compose(&b);
 }
 
-pub fn p717() {
+pub fn p756() {
     let a: re::math::mat::Mat4x4<re::math::mat::RealToReal<3, re::render::World, re::render::World>> = mk();
     let b: re::math::mat::Mat4x4<re::math::mat::RealToReal<3, re::render::World, re::render::Model>> = mk();
     let _r: re::math::mat::Mat4x4<re::math::mat::RealToReal<3, re::render::World, re::render::Model>> = a.compose(&b);
 }
 
-pub fn p718() {
+pub fn p757() {
     let a: re::math::mat::Mat4x4<re::math::mat::RealToReal<3, re::render::World, re::render::World>> = mk();
     let b: re::math::mat::Mat4x4<re::math::mat::RealToReal<3, re::render::World, re::render::Model>> = mk();
     let _r: re::math::mat::Mat4x4<re::math::mat::RealToReal<3, re::render::World, re::render::World>> = a.compose(&b);
 }
 
-pub fn p719() {
+pub fn p758() {
     let a: re::math::mat::Mat4x4<re::math::mat::RealToReal<3, re::render::World, re::render::World>> = mk();
     let b: re::math::mat::Mat4x4<re::math::mat::RealToReal<3, re::render::World, re::render::Model>> = mk();
     let _ = a.compose(&b);
 }
 
-pub fn p721() {
+pub fn p760() {
     let a: re::math::mat::Mat4x4<re::math::mat::RealToReal<3, re::render::World, re::render::World>> = mk();
     let b: re::math::mat::Mat4x4<re::math::mat::RealToReal<3, re::render::World, ()>> = mk();
     let _ = a.compose(&b);
 }
 
-pub fn p723() {
+pub fn p762() {
     let a: re::math::mat::Mat4x4<re::math::mat::RealToReal<3, re::render::World, re::render::World>> = mk();
     let b: re::math::mat::Mat4x4<re::math::mat::RealToReal<3, re::render::World, re::render::World>> = mk();
     let _r: re::math::mat::Mat4x4<re::math::mat::RealToReal<3, re::render::Model, re::render::Model>> = a.compose(&b);
 }
 
-pub fn p724() {
+pub fn p763() {
     let a: re::math::mat::Mat4x4<re::math::mat::RealToReal<3, re::render::World, re::render::World>> = mk();
     let b: re::math::mat::Mat4x4<re::math::mat::RealToReal<3, re::render::World, re::render::World>> = mk();
     let _r: re::math::mat::Mat4x4<re::math::mat::RealToReal<3, re::render::Model, re::render::World>> = a.compose(&b);
 }
 
-pub fn p725() {
+pub fn p764() {
     let a: re::math::mat::Mat4x4<re::math::mat::RealToReal<3, re::render::World, re::render::World>> = mk();
     let b: re::math::mat::Mat4x4<re::math::mat::RealToReal<3, re::render::World, re::render::World>> = mk();
     let _r: re::math::mat::Mat4x4<re::math::mat::RealToReal<3, re::render::World, re::render::Model>> = a.compose(&b);
 }
 
-pub fn p729() {
+pub fn p768() {
     let a: re::math::mat::Mat4x4<re::math::mat::RealToReal<3, re::render::World, re::render::World>> = mk();
     let b: re::math::mat::Mat4x4<re::math::mat::RealToProj<re::render::Model>> = mk();
     let _ = a.compose(&b);
 }
 
-pub fn p730() {
+pub fn p769() {
     let a: re::math::mat::Mat4x4<re::math::mat::RealToReal<3, re::render::World, re::render::World>> = mk();
     let b: re::math::mat::Mat4x4<re::math::mat::RealToProj<re::render::Model>> = mk();
     let _ = a.then(&b);
 }
 
-pub fn p731() {
+pub fn p770() {
     let a: re::math::mat::Mat4x4<re::math::mat::RealToReal<3, re::render::World, re::render::World>> = mk();
     let b: re::math::mat::Mat4x4<re::math::mat::RealToProj<()>> = mk();
     let _ = a.compose(&b);
 }
 
-pub fn p732() {
+pub fn p771() {
     let a: re::math::mat::Mat4x4<re::math::mat::RealToReal<3, re::render::World, re::render::World>> = mk();
     let b: re::math::mat::Mat4x4<re::math::mat::RealToProj<()>> = mk();
     let _ = a.then(&b);
 }
 
-pub fn p733() {
+pub fn p772() {
     let a: re::math::mat::Mat4x4<re::math::mat::RealToReal<3, re::render::World, re::render::World>> = mk();
     let b: re::math::mat::Mat4x4<re::math::mat::RealToProj<re::render::World>> = mk();
     let _ = a.compose(&b);
 }
 
-pub fn p735() {
+pub fn p774() {
     let a: re::math::mat::Mat4x4<re::math::mat::RealToReal<3, re::render::World, re::render::World>> = mk();
     let b: re::math::point::Point2<re::render::Model> = mk();
     let _ = a.apply_pt(&b);
 }
 
-pub fn p736() {
+pub fn p775() {
     let a: re::math::mat::Mat4x4<re::math::mat::RealToReal<3, re::render::World, re::render::World>> = mk();
     let b: re::math::point::Point2<()> = mk();
     let _ = a.apply_pt(&b);
 }
 
-pub fn p737() {
+pub fn p776() {
     let a: re::math::mat::Mat4x4<re::math::mat::RealToReal<3, re::render::World, re::render::World>> = mk();
     let b: re::math::point::Point2<re::render::World> = mk();
     let _ = a.apply_pt(&b);
 }
 
-pub fn p738() {
+pub fn p777() {
     let a: re::math::mat::Mat4x4<re::math::mat::RealToReal<3, re::render::World, re::render::World>> = mk();
     let b: re::math::point::Point3<re::render::Model> = mk();
     let _r: re::math::point::Point3<re::render::Model> = a.apply_pt(&b);
 }
 
-pub fn p739() {
+pub fn p778() {
     let a: re::math::mat::Mat4x4<re::math::mat::RealToReal<3, re::render::World, re::render::World>> = mk();
     let b: re::math::point::Point3<re::render::Model> = mk();
     let _r: re::math::point::Point3<()> = a.apply_pt(&b);
 }
 
-pub fn p740() {
+pub fn p779() {
     let a: re::math::mat::Mat4x4<re::math::mat::RealToReal<3, re::render::World, re::render::World>> = mk();
     let b: re::math::point::Point3<re::render::Model> = mk();
     let _r: re::math::point::Point3<re::render::World> = a.apply_pt(&b);
 }
 
-pub fn p741() {
+pub fn p780() {
     let a: re::math::mat::Mat4x4<re::math::mat::RealToReal<3, re::render::World, re::render::World>> = mk();
     let b: re::math::point::Point3<re::render::Model> = mk();
     let _ = a.apply_pt(&b);
 }
 
-pub fn p742() {
+pub fn p781() {
     let a: re::math::mat::Mat4x4<re::math::mat::RealToReal<3, re::render::World, re::render::World>> = mk();
     let b: re::math::point::Point3<()> = mk();
     let _r: re::math::point::Point3<re::render::Model> = a.apply_pt(&b);
 }
 
-pub fn p743() {
+pub fn p782() {
     let a: re::math::mat::Mat4x4<re::math::mat::RealToReal<3, re::render::World, re::render::World>> = mk();
     let b: re::math::point::Point3<()> = mk();
     let _r: re::math::point::Point3<()> = a.apply_pt(&b);
 }
 
-pub fn p744() {
+pub fn p783() {
     let a: re::math::mat::Mat4x4<re::math::mat::RealToReal<3, re::render::World, re::render::World>> = mk();
     let b: re::math::point::Point3<()> = mk();
     let _r: re::math::point::Point3<re::render::World> = a.apply_pt(&b);
 }
 
-pub fn p745() {
+pub fn p784() {
     let a: re::math::mat::Mat4x4<re::math::mat::RealToReal<3, re::render::World, re::render::World>> = mk();
     let b: re::math::point::Point3<()> = mk();
     let _ = a.apply_pt(&b);
 }
 
-pub fn p746() {
+pub fn p785() {
     let a: re::math::mat::Mat4x4<re::math::mat::RealToReal<3, re::render::World, re::render::World>> = mk();
     let b: re::math::point::Point3<re::render::World> = mk();
     let _r: re::math::point::Point3<re::render::Model> = a.apply_pt(&b);
 }
 
-pub fn p747() {
+pub fn p786() {
     let a: re::math::mat::Mat4x4<re::math::mat::RealToReal<3, re::render::World, re::render::World>> = mk();
     let b: re::math::point::Point3<re::render::World> = mk();
     let _r: re::math::point::Point3<()> = a.apply_pt(&b);
 }
 
-pub fn p750() {
+pub fn p789() {
     let a: re::math::mat::Mat4x4<re::math::mat::RealToReal<3, re::render::World, re::render::World>> = mk();
     let b: re::math::vec::Vec2<re::render::Model> = mk();
     let _ = a.apply(&b);
 }
 
-pub fn p751() {
+pub fn p790() {
     let a: re::math::mat::Mat4x4<re::math::mat::RealToReal<3, re::render::World, re::render::World>> = mk();
     let b: re::math::vec::Vec2<()> = mk();
-    let _ = a.apply(&b);
-}
-
-pub fn p752() {
-    let a: re::math::mat::Mat4x4<re::math::mat::RealToReal<3, re::render::World, re::render::World>> = mk();
-    let b: re::math::vec::Vec2<re::render::World> = mk();
-    let _ = a.apply(&b);
-}
-
-pub fn p753() {
-    let a: re::math::mat::Mat4x4<re::math::mat::RealToReal<3, re::render::World, re::render::World>> = mk();
-    let b: re::math::vec::Vec3<re::render::Model> = mk();
-    let _r: re::math::vec::Vec3<re::render::Model> = a.apply(&b);
-}
-
-pub fn p754() {
-    let a: re::math::mat::Mat4x4<re::math::mat::RealToReal<3, re::render::World, re::render::World>> = mk();
-    let b: re::math::vec::Vec3<re::render::Model> = mk();
-    let _r: re::math::vec::Vec3<()> = a.apply(&b);
-}
-
-pub fn p755() {
-    let a: re::math::mat::Mat4x4<re::math::mat::RealToReal<3, re::render::World, re::render::World>> = mk();
-    let b: re::math::vec::Vec3<re::render::Model> = mk();
-    let _r: re::math::vec::Vec3<re::render::World> = a.apply(&b);
-}
-
-pub fn p756() {
-    let a: re::math::mat::Mat4x4<re::math::mat::RealToReal<3, re::render::World, re::render::World>> = mk();
-    let b: re::math::vec::Vec3<re::render::Model> = mk();
-    let _ = a.apply(&b);
-}
-
-pub fn p757() {
-    let a: re::math::mat::Mat4x4<re::math::mat::RealToReal<3, re::render::World, re::render::World>> = mk();
-    let b: re::math::vec::Vec3<()> = mk();
-    let _r: re::math::vec::Vec3<re::render::Model> = a.apply(&b);
-}
-
-pub fn p758() {
-    let a: re::math::mat::Mat4x4<re::math::mat::RealToReal<3, re::render::World, re::render::World>> = mk();
-    let b: re::math::vec::Vec3<()> = mk();
-    let _r: re::math::vec::Vec3<()> = a.apply(&b);
-}
-
-pub fn p759() {
-    let a: re::math::mat::Mat4x4<re::math::mat::RealToReal<3, re::render::World, re::render::World>> = mk();
-    let b: re::math::vec::Vec3<()> = mk();
-    let _r: re::math::vec::Vec3<re::render::World> = a.apply(&b);
-}
-
-pub fn p760() {
-    let a: re::math::mat::Mat4x4<re::math::mat::RealToReal<3, re::render::World, re::render::World>> = mk();
-    let b: re::math::vec::Vec3<()> = mk();
-    let _ = a.apply(&b);
-}
-
-pub fn p761() {
-    let a: re::math::mat::Mat4x4<re::math::mat::RealToReal<3, re::render::World, re::render::World>> = mk();
-    let b: re::math::vec::Vec3<re::render::World> = mk();
-    let _r: re::math::vec::Vec3<re::render::Model> = a.apply(&b);
-}
-
-pub fn p762() {
-    let a: re::math::mat::Mat4x4<re::math::mat::RealToReal<3, re::render::World, re::render::World>> = mk();
-    let b: re::math::vec::Vec3<re::render::World> = mk();
-    let _r: re::math::vec::Vec3<()> = a.apply(&b);
-}
-
-pub fn p768() {
-    let a: re::math::mat::Mat4x4<re::math::mat::RealToProj<re::render::Model>> = mk();
-    let b: re::math::mat::Mat4x4<re::math::mat::RealToReal<3, re::render::Model, re::render::Model>> = mk();
-    let _ = a.then(&b);
-}
-
-pub fn p770() {
-    let a: re::math::mat::Mat4x4<re::math::mat::RealToProj<re::render::Model>> = mk();
-    let b: re::math::mat::Mat4x4<re::math::mat::RealToReal<3, re::render::Model, ()>> = mk();
-    let _ = a.compose(&b);
-}
-
-pub fn p771() {
-    let a: re::math::mat::Mat4x4<re::math::mat::RealToProj<re::render::Model>> = mk();
-    let b: re::math::mat::Mat4x4<re::math::mat::RealToReal<3, re::render::Model, ()>> = mk();
-    let _ = a.then(&b);
-}
-
-pub fn p772() {
-    let a: re::math::mat::Mat4x4<re::math::mat::RealToProj<re::render::Model>> = mk();
-    let b: re::math::mat::Mat4x4<re::math::mat::RealToReal<3, re::render::Model, re::render::World>> = mk();
-    let _ = a.compose(&b);
-}
-
-pub fn p773() {
-    let a: re::math::mat::Mat4x4<re::math::mat::RealToProj<re::render::Model>> = mk();
-    let b: re::math::mat::Mat4x4<re::math::mat::RealToReal<3, re::render::Model, re::render::World>> = mk();
-    let _ = a.then(&b);
-}
-
-pub fn p774() {
-    let a: re::math::mat::Mat4x4<re::math::mat::RealToProj<re::render::Model>> = mk();
-    let b: re::math::mat::Mat4x4<re::math::mat::RealToReal<3, (), re::render::Model>> = mk();
-    let _ = a.then(&b);
-}
-
-pub fn p776() {
-    let a: re::math::mat::Mat4x4<re::math::mat::RealToProj<re::render::Model>> = mk();
-    let b: re::math::mat::Mat4x4<re::math::mat::RealToReal<3, (), ()>> = mk();
-    let _ = a.compose(&b);
-}
-
-pub fn p777() {
-    let a: re::math::mat::Mat4x4<re::math::mat::RealToProj<re::render::Model>> = mk();
-    let b: re::math::mat::Mat4x4<re::math::mat::RealToReal<3, (), ()>> = mk();
-    let _ = a.then(&b);
-}
-
-pub fn p778() {
-    let a: re::math::mat::Mat4x4<re::math::mat::RealToProj<re::render::Model>> = mk();
-    let b: re::math::mat::Mat4x4<re::math::mat::RealToReal<3, (), re::render::World>> = mk();
-    let _ = a.compose(&b);
-}
-
-pub fn p779() {
-    let a: re::math::mat::Mat4x4<re::math::mat::RealToProj<re::render::Model>> = mk();
-    let b: re::math::mat::Mat4x4<re::math::mat::RealToReal<3, (), re::render::World>> = mk();
-    let _ = a.then(&b);
-}
-
-pub fn p780() {
-    let a: re::math::mat::Mat4x4<re::math::mat::RealToProj<re::render::Model>> = mk();
-    let b: re::math::mat::Mat4x4<re::math::mat::RealToReal<3, re::render::World, re::render::Model>> = mk();
-    let _ = a.then(&b);
-}
-
-pub fn p782() {
-    let a: re::math::mat::Mat4x4<re::math::mat::RealToProj<re::render::Model>> = mk();
-    let b: re::math::mat::Mat4x4<re::math::mat::RealToReal<3, re::render::World, ()>> = mk();
-    let _ = a.compose(&b);
-}
-
-pub fn p783() {
-    let a: re::math::mat::Mat4x4<re::math::mat::RealToProj<re::render::Model>> = mk();
-    let b: re::math::mat::Mat4x4<re::math::mat::RealToReal<3, re::render::World, ()>> = mk();
-    let _ = a.then(&b);
-}
-
-pub fn p784() {
-    let a: re::math::mat::Mat4x4<re::math::mat::RealToProj<re::render::Model>> = mk();
-    let b: re::math::mat::Mat4x4<re::math::mat::RealToReal<3, re::render::World, re::render::World>> = mk();
-    let _ = a.compose(&b);
-}
-
-pub fn p785() {
-    let a: re::math::mat::Mat4x4<re::math::mat::RealToProj<re::render::Model>> = mk();
-    let b: re::math::mat::Mat4x4<re::math::mat::RealToReal<3, re::render::World, re::render::World>> = mk();
-    let _ = a.then(&b);
-}
-
-pub fn p787() {
-    let a: re::math::mat::Mat4x4<re::math::mat::RealToProj<re::render::Model>> = mk();
-    let b: re::math::point::Point3<re::render::Model> = mk();
-    let _ = a.apply_pt(&b);
-}
-
-pub fn p788() {
-    let a: re::math::mat::Mat4x4<re::math::mat::RealToProj<re::render::Model>> = mk();
-    let b: re::math::point::Point3<()> = mk();
-    let _ = a.apply(&b);
-}
-
-pub fn p789() {
-    let a: re::math::mat::Mat4x4<re::math::mat::RealToProj<re::render::Model>> = mk();
-    let b: re::math::point::Point3<()> = mk();
-    let _ = a.apply_pt(&b);
-}
-
-pub fn p790() {
-    let a: re::math::mat::Mat4x4<re::math::mat::RealToProj<re::render::Model>> = mk();
-    let b: re::math::point::Point3<re::render::World> = mk();
     let _ = a.apply(&b);
 }
 
 pub fn p791() {
-    let a: re::math::mat::Mat4x4<re::math::mat::RealToProj<re::render::Model>> = mk();
-    let b: re::math::point::Point3<re::render::World> = mk();
-    let _ = a.apply_pt(&b);
+    let a: re::math::mat::Mat4x4<re::math::mat::RealToReal<3, re::render::World, re::render::World>> = mk();
+    let b: re::math::vec::Vec2<re::render::World> = mk();
+    let _ = a.apply(&b);
 }
 
 pub fn p792() {
-    let a: re::math::mat::Mat4x4<re::math::mat::RealToProj<re::render::Model>> = mk();
+    let a: re::math::mat::Mat4x4<re::math::mat::RealToReal<3, re::render::World, re::render::World>> = mk();
     let b: re::math::vec::Vec3<re::render::Model> = mk();
-    let _ = a.apply(&b);
+    let _r: re::math::vec::Vec3<re::render::Model> = a.apply(&b);
 }
 
 pub fn p793() {
-    let a: re::math::mat::Mat4x4<re::math::mat::RealToProj<re::render::Model>> = mk();
-    let b: re::math::vec::Vec3<()> = mk();
-    let _ = a.apply(&b);
+    let a: re::math::mat::Mat4x4<re::math::mat::RealToReal<3, re::render::World, re::render::World>> = mk();
+    let b: re::math::vec::Vec3<re::render::Model> = mk();
+    let _r: re::math::vec::Vec3<()> = a.apply(&b);
 }
 
 pub fn p794() {
-    let a: re::math::mat::Mat4x4<re::math::mat::RealToProj<re::render::Model>> = mk();
-    let b: re::math::vec::Vec3<re::render::World> = mk();
-    let _ = a.apply(&b);
+    let a: re::math::mat::Mat4x4<re::math::mat::RealToReal<3, re::render::World, re::render::World>> = mk();
+    let b: re::math::vec::Vec3<re::render::Model> = mk();
+    let _r: re::math::vec::Vec3<re::render::World> = a.apply(&b);
 }
 
 pub fn p795() {
-    let a: re::math::mat::Mat4x4<re::math::mat::RealToProj<re::render::Model>> = mk();
-    let _ = a.determinant();
+    let a: re::math::mat::Mat4x4<re::math::mat::RealToReal<3, re::render::World, re::render::World>> = mk();
+    let b: re::math::vec::Vec3<re::render::Model> = mk();
+    let _ = a.apply(&b);
 }
 
 pub fn p796() {
-    let a: re::math::mat::Mat4x4<re::math::mat::RealToProj<re::render::Model>> = mk();
-    let _ = a.inverse();
+    let a: re::math::mat::Mat4x4<re::math::mat::RealToReal<3, re::render::World, re::render::World>> = mk();
+    let b: re::math::vec::Vec3<()> = mk();
+    let _r: re::math::vec::Vec3<re::render::Model> = a.apply(&b);
 }
 
 pub fn p797() {
+    let a: re::math::mat::Mat4x4<re::math::mat::RealToReal<3, re::render::World, re::render::World>> = mk();
+    let b: re::math::vec::Vec3<()> = mk();
+    let _r: re::math::vec::Vec3<()> = a.apply(&b);
+}
+
+pub fn p798() {
+    let a: re::math::mat::Mat4x4<re::math::mat::RealToReal<3, re::render::World, re::render::World>> = mk();
+    let b: re::math::vec::Vec3<()> = mk();
+    let _r: re::math::vec::Vec3<re::render::World> = a.apply(&b);
+}
+
+pub fn p799() {
+    let a: re::math::mat::Mat4x4<re::math::mat::RealToReal<3, re::render::World, re::render::World>> = mk();
+    let b: re::math::vec::Vec3<()> = mk();
+    let _ = a.apply(&b);
+}
+
+pub fn p800() {
+    let a: re::math::mat::Mat4x4<re::math::mat::RealToReal<3, re::render::World, re::render::World>> = mk();
+    let b: re::math::vec::Vec3<re::render::World> = mk();
+    let _r: re::math::vec::Vec3<re::render::Model> = a.apply(&b);
+}
+
+pub fn p801() {
+    let a: re::math::mat::Mat4x4<re::math::mat::RealToReal<3, re::render::World, re::render::World>> = mk();
+    let b: re::math::vec::Vec3<re::render::World> = mk();
+    let _r: re::math::vec::Vec3<()> = a.apply(&b);
+}
+
+pub fn p807() {
+    let a: re::math::mat::Mat4x4<re::math::mat::RealToProj<re::render::Model>> = mk();
+    let b: re::math::mat::Mat4x4<re::math::mat::RealToReal<3, re::render::Model, re::render::Model>> = mk();
+    let _ = a.then(&b);
+}
+
+pub fn p809() {
+    let a: re::math::mat::Mat4x4<re::math::mat::RealToProj<re::render::Model>> = mk();
+    let b: re::math::mat::Mat4x4<re::math::mat::RealToReal<3, re::render::Model, ()>> = mk();
+    let _ = a.compose(&b);
+}
+
+pub fn p810() {
+    let a: re::math::mat::Mat4x4<re::math::mat::RealToProj<re::render::Model>> = mk();
+    let b: re::math::mat::Mat4x4<re::math::mat::RealToReal<3, re::render::Model, ()>> = mk();
+    let _ = a.then(&b);
+}
+
+pub fn p811() {
+    let a: re::math::mat::Mat4x4<re::math::mat::RealToProj<re::render::Model>> = mk();
+    let b: re::math::mat::Mat4x4<re::math::mat::RealToReal<3, re::render::Model, re::render::World>> = mk();
+    let _ = a.compose(&b);
+}
+
+pub fn p812() {
+    let a: re::math::mat::Mat4x4<re::math::mat::RealToProj<re::render::Model>> = mk();
+    let b: re::math::mat::Mat4x4<re::math::mat::RealToReal<3, re::render::Model, re::render::World>> = mk();
+    let _ = a.then(&b);
+}
+
+pub fn p813() {
+    let a: re::math::mat::Mat4x4<re::math::mat::RealToProj<re::render::Model>> = mk();
+    let b: re::math::mat::Mat4x4<re::math::mat::RealToReal<3, (), re::render::Model>> = mk();
+    let _ = a.then(&b);
+}
+
+pub fn p815() {
+    let a: re::math::mat::Mat4x4<re::math::mat::RealToProj<re::render::Model>> = mk();
+    let b: re::math::mat::Mat4x4<re::math::mat::RealToReal<3, (), ()>> = mk();
+    let _ = a.compose(&b);
+}
+
+pub fn p816() {
+    let a: re::math::mat::Mat4x4<re::math::mat::RealToProj<re::render::Model>> = mk();
+    let b: re::math::mat::Mat4x4<re::math::mat::RealToReal<3, (), ()>> = mk();
+    let _ = a.then(&b);
+}
+
+pub fn p817() {
+    let a: re::math::mat::Mat4x4<re::math::mat::RealToProj<re::render::Model>> = mk();
+    let b: re::math::mat::Mat4x4<re::math::mat::RealToReal<3, (), re::render::World>> = mk();
+    let _ = a.compose(&b);
+}
+
+pub fn p818() {
+    let a: re::math::mat::Mat4x4<re::math::mat::RealToProj<re::render::Model>> = mk();
+    let b: re::math::mat::Mat4x4<re::math::mat::RealToReal<3, (), re::render::World>> = mk();
+    let _ = a.then(&b);
+}
+
+pub fn p819() {
+    let a: re::math::mat::Mat4x4<re::math::mat::RealToProj<re::render::Model>> = mk();
+    let b: re::math::mat::Mat4x4<re::math::mat::RealToReal<3, re::render::World, re::render::Model>> = mk();
+    let _ = a.then(&b);
+}
+
+pub fn p821() {
+    let a: re::math::mat::Mat4x4<re::math::mat::RealToProj<re::render::Model>> = mk();
+    let b: re::math::mat::Mat4x4<re::math::mat::RealToReal<3, re::render::World, ()>> = mk();
+    let _ = a.compose(&b);
+}
+
+pub fn p822() {
+    let a: re::math::mat::Mat4x4<re::math::mat::RealToProj<re::render::Model>> = mk();
+    let b: re::math::mat::Mat4x4<re::math::mat::RealToReal<3, re::render::World, ()>> = mk();
+    let _ = a.then(&b);
+}
+
+pub fn p823() {
+    let a: re::math::mat::Mat4x4<re::math::mat::RealToProj<re::render::Model>> = mk();
+    let b: re::math::mat::Mat4x4<re::math::mat::RealToReal<3, re::render::World, re::render::World>> = mk();
+    let _ = a.compose(&b);
+}
+
+pub fn p824() {
+    let a: re::math::mat::Mat4x4<re::math::mat::RealToProj<re::render::Model>> = mk();
+    let b: re::math::mat::Mat4x4<re::math::mat::RealToReal<3, re::render::World, re::render::World>> = mk();
+    let _ = a.then(&b);
+}
+
+pub fn p826() {
+    let a: re::math::mat::Mat4x4<re::math::mat::RealToProj<re::render::Model>> = mk();
+    let b: re::math::point::Point3<re::render::Model> = mk();
+    let _ = a.apply_pt(&b);
+}
+
+pub fn p827() {
+    let a: re::math::mat::Mat4x4<re::math::mat::RealToProj<re::render::Model>> = mk();
+    let b: re::math::point::Point3<()> = mk();
+    let _ = a.apply(&b);
+}
+
+pub fn p828() {
+    let a: re::math::mat::Mat4x4<re::math::mat::RealToProj<re::render::Model>> = mk();
+    let b: re::math::point::Point3<()> = mk();
+    let _ = a.apply_pt(&b);
+}
+
+pub fn p829() {
+    let a: re::math::mat::Mat4x4<re::math::mat::RealToProj<re::render::Model>> = mk();
+    let b: re::math::point::Point3<re::render::World> = mk();
+    let _ = a.apply(&b);
+}
+
+pub fn p830() {
+    let a: re::math::mat::Mat4x4<re::math::mat::RealToProj<re::render::Model>> = mk();
+    let b: re::math::point::Point3<re::render::World> = mk();
+    let _ = a.apply_pt(&b);
+}
+
+pub fn p831() {
+    let a: re::math::mat::Mat4x4<re::math::mat::RealToProj<re::render::Model>> = mk();
+    let b: re::math::vec::Vec3<re::render::Model> = mk();
+    let _ = a.apply(&b);
+}
+
+pub fn p832() {
+    let a: re::math::mat::Mat4x4<re::math::mat::RealToProj<re::render::Model>> = mk();
+    let b: re::math::vec::Vec3<()> = mk();
+    let _ = a.apply(&b);
+}
+
+pub fn p833() {
+    let a: re::math::mat::Mat4x4<re::math::mat::RealToProj<re::render::Model>> = mk();
+    let b: re::math::vec::Vec3<re::render::World> = mk();
+    let _ = a.apply(&b);
+}
+
+pub fn p834() {
+    let a: re::math::mat::Mat4x4<re::math::mat::RealToProj<re::render::Model>> = mk();
+    let _ = a.determinant();
+}
+
+pub fn p835() {
+    let a: re::math::mat::Mat4x4<re::math::mat::RealToProj<re::render::Model>> = mk();
+    let _ = a.inverse();
+}
+
+pub fn p836() {
     let a: re::math::mat::Mat4x4<re::math::mat::RealToProj<re::render::Model>> = mk();
     let _ = a.transpose();
 }
 
-pub fn p798() {
-    let a: re::math::mat::Mat4x4<re::math::mat::RealToProj<()>> = mk();
-    let b: re::math::mat::Mat4x4<re::math::mat::RealToReal<3, re::render::Model, re::render::Model>> = mk();
-    let _ = a.compose(&b);
-}
-
-pub fn p799() {
-    let a: re::math::mat::Mat4x4<re::math::mat::RealToProj<()>> = mk();
-    let b: re::math::mat::Mat4x4<re::math::mat::RealToReal<3, re::render::Model, re::render::Model>> = mk();
-    let _ = a.then(&b);
-}
-
-pub fn p800() {
-    let a: re::math::mat::Mat4x4<re::math::mat::RealToProj<()>> = mk();
-    let b: re::math::mat::Mat4x4<re::math::mat::RealToReal<3, re::render::Model, ()>> = mk();
-    let _ = a.then(&b);
-}
-
-pub fn p802() {
-    let a: re::math::mat::Mat4x4<re::math::mat::RealToProj<()>> = mk();
-    let b: re::math::mat::Mat4x4<re::math::mat::RealToReal<3, re::render::Model, re::render::World>> = mk();
-    let _ = a.compose(&b);
-}
-
-pub fn p803() {
-    let a: re::math::mat::Mat4x4<re::math::mat::RealToProj<()>> = mk();
-    let b: re::math::mat::Mat4x4<re::math::mat::RealToReal<3, re::render::Model, re::render::World>> = mk();
-    let _ = a.then(&b);
-}
-
-pub fn p804() {
-    let a: re::math::mat::Mat4x4<re::math::mat::RealToProj<()>> = mk();
-    let b: re::math::mat::Mat4x4<re::math::mat::RealToReal<3, (), re::render::Model>> = mk();
-    let _ = a.compose(&b);
-}
-
-pub fn p805() {
-    let a: re::math::mat::Mat4x4<re::math::mat::RealToProj<()>> = mk();
-    let b: re::math::mat::Mat4x4<re::math::mat::RealToReal<3, (), re::render::Model>> = mk();
-    let _ = a.then(&b);
-}
-
-pub fn p806() {
-    let a: re::math::mat::Mat4x4<re::math::mat::RealToProj<()>> = mk();
-    let b: re::math::mat::Mat4x4<re::math::mat::RealToReal<3, (), ()>> = mk();
-    let _ = a.then(&b);
-}
-
-pub fn p808() {
-    let a: re::math::mat::Mat4x4<re::math::mat::RealToProj<()>> = mk();
-    let b: re::math::mat::Mat4x4<re::math::mat::RealToReal<3, (), re::render::World>> = mk();
-    let _ = a.compose(&b);
-}
-
-pub fn p809() {
-    let a: re::math::mat::Mat4x4<re::math::mat::RealToProj<()>> = mk();
-    let b: re::math::mat::Mat4x4<re::math::mat::RealToReal<3, (), re::render::World>> = mk();
-    let _ = a.then(&b);
-}
-
-pub fn p810() {
-    let a: re::math::mat::Mat4x4<re::math::mat::RealToProj<()>> = mk();
-    let b: re::math::mat::Mat4x4<re::math::mat::RealToReal<3, re::render::World, re::render::Model>> = mk();
-    let _ = a.compose(&b);
-}
-
-pub fn p811() {
-    let a: re::math::mat::Mat4x4<re::math::mat::RealToProj<()>> = mk();
-    let b: re::math::mat::Mat4x4<re::math::mat::RealToReal<3, re::render::World, re::render::Model>> = mk();
-    let _ = a.then(&b);
-}
-
-pub fn p812() {
-    let a: re::math::mat::Mat4x4<re::math::mat::RealToProj<()>> = mk();
-    let b: re::math::mat::Mat4x4<re::math::mat::RealToReal<3, re::render::World, ()>> = mk();
-    let _ = a.then(&b);
-}
-
-pub fn p814() {
-    let a: re::math::mat::Mat4x4<re::math::mat::RealToProj<()>> = mk();
-    let b: re::math::mat::Mat4x4<re::math::mat::RealToReal<3, re::render::World, re::render::World>> = mk();
-    let _ = a.compose(&b);
-}
-
-pub fn p815() {
-    let a: re::math::mat::Mat4x4<re::math::mat::RealToProj<()>> = mk();
-    let b: re::math::mat::Mat4x4<re::math::mat::RealToReal<3, re::render::World, re::render::World>> = mk();
-    let _ = a.then(&b);
-}
-
-pub fn p816() {
-    let a: re::math::mat::Mat4x4<re::math::mat::RealToProj<()>> = mk();
-    let b: re::math::point::Point3<re::render::Model> = mk();
-    let _ = a.apply(&b);
-}
-
-pub fn p817() {
-    let a: re::math::mat::Mat4x4<re::math::mat::RealToProj<()>> = mk();
-    let b: re::math::point::Point3<re::render::Model> = mk();
-    let _ = a.apply_pt(&b);
-}
-
-pub fn p819() {
-    let a: re::math::mat::Mat4x4<re::math::mat::RealToProj<()>> = mk();
-    let b: re::math::point::Point3<()> = mk();
-    let _ = a.apply_pt(&b);
-}
-
-pub fn p820() {
-    let a: re::math::mat::Mat4x4<re::math::mat::RealToProj<()>> = mk();
-    let b: re::math::point::Point3<re::render::World> = mk();
-    let _ = a.apply(&b);
-}
-
-pub fn p821() {
-    let a: re::math::mat::Mat4x4<re::math::mat::RealToProj<()>> = mk();
-    let b: re::math::point::Point3<re::render::World> = mk();
-    let _ = a.apply_pt(&b);
-}
-
-pub fn p822() {
-    let a: re::math::mat::Mat4x4<re::math::mat::RealToProj<()>> = mk();
-    let b: re::math::vec::Vec3<re::render::Model> = mk();
-    let _ = a.apply(&b);
-}
-
-pub fn p823() {
-    let a: re::math::mat::Mat4x4<re::math::mat::RealToProj<()>> = mk();
-    let b: re::math::vec::Vec3<()> = mk();
-    let _ = a.apply(&b);
-}
-
-pub fn p824() {
-    let a: re::math::mat::Mat4x4<re::math::mat::RealToProj<()>> = mk();
-    let b: re::math::vec::Vec3<re::render::World> = mk();
-    let _ = a.apply(&b);
-}
-
-pub fn p825() {
-    let a: re::math::mat::Mat4x4<re::math::mat::RealToProj<()>> = mk();
-    let _ = a.determinant();
-}
-
-pub fn p826() {
-    let a: re::math::mat::Mat4x4<re::math::mat::RealToProj<()>> = mk();
-    let _ = a.inverse();
-}
-
-pub fn p827() {
-    let a: re::math::mat::Mat4x4<re::math::mat::RealToProj<()>> = mk();
-    let _ = a.transpose();
-}
-
-pub fn p828() {
-    let a: re::math::mat::Mat4x4<re::math::mat::RealToProj<re::render::World>> = mk();
-    let b: re::math::mat::Mat4x4<re::math::mat::RealToReal<3, re::render::Model, re::render::Model>> = mk();
-    let _ = a.compose(&b);
-}
-
-pub fn p829() {
-    let a: re::math::mat::Mat4x4<re::math::mat::RealToProj<re::render::World>> = mk();
-    let b: re::math::mat::Mat4x4<re::math::mat::RealToReal<3, re::render::Model, re::render::Model>> = mk();
-    let _ = a.then(&b);
-}
-
-pub fn p830() {
-    let a: re::math::mat::Mat4x4<re::math::mat::RealToProj<re::render::World>> = mk();
-    let b: re::math::mat::Mat4x4<re::math::mat::RealToReal<3, re::render::Model, ()>> = mk();
-    let _ = a.compose(&b);
-}
-
-pub fn p831() {
-    let a: re::math::mat::Mat4x4<re::math::mat::RealToProj<re::render::World>> = mk();
-    let b: re::math::mat::Mat4x4<re::math::mat::RealToReal<3, re::render::Model, ()>> = mk();
-    let _ = a.then(&b);
-}
-
-pub fn p832() {
-    let a: re::math::mat::Mat4x4<re::math::mat::RealToProj<re::render::World>> = mk();
-    let b: re::math::mat::Mat4x4<re::math::mat::RealToReal<3, re::render::Model, re::render::World>> = mk();
-    let _ = a.then(&b);
-}
-
-pub fn p834() {
-    let a: re::math::mat::Mat4x4<re::math::mat::RealToProj<re::render::World>> = mk();
-    let b: re::math::mat::Mat4x4<re::math::mat::RealToReal<3, (), re::render::Model>> = mk();
-    let _ = a.compose(&b);
-}
-
-pub fn p835() {
-    let a: re::math::mat::Mat4x4<re::math::mat::RealToProj<re::render::World>> = mk();
-    let b: re::math::mat::Mat4x4<re::math::mat::RealToReal<3, (), re::render::Model>> = mk();
-    let _ = a.then(&b);
-}
-
-pub fn p836() {
-    let a: re::math::mat::Mat4x4<re::math::mat::RealToProj<re::render::World>> = mk();
-    let b: re::math::mat::Mat4x4<re::math::mat::RealToReal<3, (), ()>> = mk();
-    let _ = a.compose(&b);
-}
-
 pub fn p837() {
-    let a: re::math::mat::Mat4x4<re::math::mat::RealToProj<re::render::World>> = mk();
-    let b: re::math::mat::Mat4x4<re::math::mat::RealToReal<3, (), ()>> = mk();
-    let _ = a.then(&b);
+    let a: re::math::mat::Mat4x4<re::math::mat::RealToProj<()>> = mk();
+    let b: re::math::mat::Mat4x4<re::math::mat::RealToReal<3, re::render::Model, re::render::Model>> = mk();
+    let _ = a.compose(&b);
 }
 
 pub fn p838() {
+    let a: re::math::mat::Mat4x4<re::math::mat::RealToProj<()>> = mk();
+    let b: re::math::mat::Mat4x4<re::math::mat::RealToReal<3, re::render::Model, re::render::Model>> = mk();
+    let _ = a.then(&b);
+}
+
+pub fn p839() {
+    let a: re::math::mat::Mat4x4<re::math::mat::RealToProj<()>> = mk();
+    let b: re::math::mat::Mat4x4<re::math::mat::RealToReal<3, re::render::Model, ()>> = mk();
+    let _ = a.then(&b);
+}
+
+pub fn p841() {
+    let a: re::math::mat::Mat4x4<re::math::mat::RealToProj<()>> = mk();
+    let b: re::math::mat::Mat4x4<re::math::mat::RealToReal<3, re::render::Model, re::render::World>> = mk();
+    let _ = a.compose(&b);
+}
+
+pub fn p842() {
+    let a: re::math::mat::Mat4x4<re::math::mat::RealToProj<()>> = mk();
+    let b: re::math::mat::Mat4x4<re::math::mat::RealToReal<3, re::render::Model, re::render::World>> = mk();
+    let _ = a.then(&b);
+}
+
+pub fn p843() {
+    let a: re::math::mat::Mat4x4<re::math::mat::RealToProj<()>> = mk();
+    let b: re::math::mat::Mat4x4<re::math::mat::RealToReal<3, (), re::render::Model>> = mk();
+    let _ = a.compose(&b);
+}
+
+pub fn p844() {
+    let a: re::math::mat::Mat4x4<re::math::mat::RealToProj<()>> = mk();
+    let b: re::math::mat::Mat4x4<re::math::mat::RealToReal<3, (), re::render::Model>> = mk();
+    let _ = a.then(&b);
+}
+
+pub fn p845() {
+    let a: re::math::mat::Mat4x4<re::math::mat::RealToProj<()>> = mk();
+    let b: re::math::mat::Mat4x4<re::math::mat::RealToReal<3, (), ()>> = mk();
+    let _ = a.then(&b);
+}
+
+pub fn p847() {
+    let a: re::math::mat::Mat4x4<re::math::mat::RealToProj<()>> = mk();
+    let b: re::math::mat::Mat4x4<re::math::mat::RealToReal<3, (), re::render::World>> = mk();
+    let _ = a.compose(&b);
+}
+
+pub fn p848() {
+    let a: re::math::mat::Mat4x4<re::math::mat::RealToProj<()>> = mk();
+    let b: re::math::mat::Mat4x4<re::math::mat::RealToReal<3, (), re::render::World>> = mk();
+    let _ = a.then(&b);
+}
+
+pub fn p849() {
+    let a: re::math::mat::Mat4x4<re::math::mat::RealToProj<()>> = mk();
+    let b: re::math::mat::Mat4x4<re::math::mat::RealToReal<3, re::render::World, re::render::Model>> = mk();
+    let _ = a.compose(&b);
+}
+
+pub fn p850() {
+    let a: re::math::mat::Mat4x4<re::math::mat::RealToProj<()>> = mk();
+    let b: re::math::mat::Mat4x4<re::math::mat::RealToReal<3, re::render::World, re::render::Model>> = mk();
+    let _ = a.then(&b);
+}
+
+pub fn p851() {
+    let a: re::math::mat::Mat4x4<re::math::mat::RealToProj<()>> = mk();
+    let b: re::math::mat::Mat4x4<re::math::mat::RealToReal<3, re::render::World, ()>> = mk();
+    let _ = a.then(&b);
+}
+
+pub fn p853() {
+    let a: re::math::mat::Mat4x4<re::math::mat::RealToProj<()>> = mk();
+    let b: re::math::mat::Mat4x4<re::math::mat::RealToReal<3, re::render::World, re::render::World>> = mk();
+    let _ = a.compose(&b);
+}
+
+pub fn p854() {
+    let a: re::math::mat::Mat4x4<re::math::mat::RealToProj<()>> = mk();
+    let b: re::math::mat::Mat4x4<re::math::mat::RealToReal<3, re::render::World, re::render::World>> = mk();
+    let _ = a.then(&b);
+}
+
+pub fn p855() {
+    let a: re::math::mat::Mat4x4<re::math::mat::RealToProj<()>> = mk();
+    let b: re::math::point::Point3<re::render::Model> = mk();
+    let _ = a.apply(&b);
+}
+
+pub fn p856() {
+    let a: re::math::mat::Mat4x4<re::math::mat::RealToProj<()>> = mk();
+    let b: re::math::point::Point3<re::render::Model> = mk();
+    let _ = a.apply_pt(&b);
+}
+
+pub fn p858() {
+    let a: re::math::mat::Mat4x4<re::math::mat::RealToProj<()>> = mk();
+    let b: re::math::point::Point3<()> = mk();
+    let _ = a.apply_pt(&b);
+}
+
+pub fn p859() {
+    let a: re::math::mat::Mat4x4<re::math::mat::RealToProj<()>> = mk();
+    let b: re::math::point::Point3<re::render::World> = mk();
+    let _ = a.apply(&b);
+}
+
+pub fn p860() {
+    let a: re::math::mat::Mat4x4<re::math::mat::RealToProj<()>> = mk();
+    let b: re::math::point::Point3<re::render::World> = mk();
+    let _ = a.apply_pt(&b);
+}
+
+pub fn p861() {
+    let a: re::math::mat::Mat4x4<re::math::mat::RealToProj<()>> = mk();
+    let b: re::math::vec::Vec3<re::render::Model> = mk();
+    let _ = a.apply(&b);
+}
+
+pub fn p862() {
+    let a: re::math::mat::Mat4x4<re::math::mat::RealToProj<()>> = mk();
+    let b: re::math::vec::Vec3<()> = mk();
+    let _ = a.apply(&b);
+}
+
+pub fn p863() {
+    let a: re::math::mat::Mat4x4<re::math::mat::RealToProj<()>> = mk();
+    let b: re::math::vec::Vec3<re::render::World> = mk();
+    let _ = a.apply(&b);
+}
+
+pub fn p864() {
+    let a: re::math::mat::Mat4x4<re::math::mat::RealToProj<()>> = mk();
+    let _ = a.determinant();
+}
+
+pub fn p865() {
+    let a: re::math::mat::Mat4x4<re::math::mat::RealToProj<()>> = mk();
+    let _ = a.inverse();
+}
+
+pub fn p866() {
+    let a: re::math::mat::Mat4x4<re::math::mat::RealToProj<()>> = mk();
+    let _ = a.transpose();
+}
+
+pub fn p867() {
+    let a: re::math::mat::Mat4x4<re::math::mat::RealToProj<re::render::World>> = mk();
+    let b: re::math::mat::Mat4x4<re::math::mat::RealToReal<3, re::render::Model, re::render::Model>> = mk();
+    let _ = a.compose(&b);
+}
+
+pub fn p868() {
+    let a: re::math::mat::Mat4x4<re::math::mat::RealToProj<re::render::World>> = mk();
+    let b: re::math::mat::Mat4x4<re::math::mat::RealToReal<3, re::render::Model, re::render::Model>> = mk();
+    let _ = a.then(&b);
+}
+
+pub fn p869() {
+    let a: re::math::mat::Mat4x4<re::math::mat::RealToProj<re::render::World>> = mk();
+    let b: re::math::mat::Mat4x4<re::math::mat::RealToReal<3, re::render::Model, ()>> = mk();
+    let _ = a.compose(&b);
+}
+
+pub fn p870() {
+    let a: re::math::mat::Mat4x4<re::math::mat::RealToProj<re::render::World>> = mk();
+    let b: re::math::mat::Mat4x4<re::math::mat::RealToReal<3, re::render::Model, ()>> = mk();
+    let _ = a.then(&b);
+}
+
+pub fn p871() {
+    let a: re::math::mat::Mat4x4<re::math::mat::RealToProj<re::render::World>> = mk();
+    let b: re::math::mat::Mat4x4<re::math::mat::RealToReal<3, re::render::Model, re::render::World>> = mk();
+    let _ = a.then(&b);
+}
+
+pub fn p873() {
+    let a: re::math::mat::Mat4x4<re::math::mat::RealToProj<re::render::World>> = mk();
+    let b: re::math::mat::Mat4x4<re::math::mat::RealToReal<3, (), re::render::Model>> = mk();
+    let _ = a.compose(&b);
+}
+
+pub fn p874() {
+    let a: re::math::mat::Mat4x4<re::math::mat::RealToProj<re::render::World>> = mk();
+    let b: re::math::mat::Mat4x4<re::math::mat::RealToReal<3, (), re::render::Model>> = mk();
+    let _ = a.then(&b);
+}
+
+pub fn p875() {
+    let a: re::math::mat::Mat4x4<re::math::mat::RealToProj<re::render::World>> = mk();
+    let b: re::math::mat::Mat4x4<re::math::mat::RealToReal<3, (), ()>> = mk();
+    let _ = a.compose(&b);
+}
+
+pub fn p876() {
+    let a: re::math::mat::Mat4x4<re::math::mat::RealToProj<re::render::World>> = mk();
+    let b: re::math::mat::Mat4x4<re::math::mat::RealToReal<3, (), ()>> = mk();
+    let _ = a.then(&b);
+}
+
+pub fn p877() {
     let a: re::math::mat::Mat4x4<re::math::mat::RealToProj<re::render::World>> = mk();
     let b: re::math::mat::Mat4x4<re::math::mat::RealToReal<3, (), re::render::World>> = mk();
     let _ = a.then(&b);
 }
 
-pub fn p840() {
+pub fn p879() {
     let a: re::math::mat::Mat4x4<re::math::mat::RealToProj<re::render::World>> = mk();
     let b: re::math::mat::Mat4x4<re::math::mat::RealToReal<3, re::render::World, re::render::Model>> = mk();
     let _ = a.compose(&b);
 }
 
-pub fn p841() {
+pub fn p880() {
     let a: re::math::mat::Mat4x4<re::math::mat::RealToProj<re::render::World>> = mk();
     let b: re::math::mat::Mat4x4<re::math::mat::RealToReal<3, re::render::World, re::render::Model>> = mk();
     let _ = a.then(&b);
 }
 
-pub fn p842() {
+pub fn p881() {
     let a: re::math::mat::Mat4x4<re::math::mat::RealToProj<re::render::World>> = mk();
     let b: re::math::mat::Mat4x4<re::math::mat::RealToReal<3, re::render::World, ()>> = mk();
     let _ = a.compose(&b);
 }
 
-pub fn p843() {
+pub fn p882() {
     let a: re::math::mat::Mat4x4<re::math::mat::RealToProj<re::render::World>> = mk();
     let b: re::math::mat::Mat4x4<re::math::mat::RealToReal<3, re::render::World, ()>> = mk();
     let _ = a.then(&b);
 }
 
-pub fn p844() {
+pub fn p883() {
     let a: re::math::mat::Mat4x4<re::math::mat::RealToProj<re::render::World>> = mk();
     let b: re::math::mat::Mat4x4<re::math::mat::RealToReal<3, re::render::World, re::render::World>> = mk();
     let _ = a.then(&b);
 }
 
-pub fn p846() {
+pub fn p885() {
     let a: re::math::mat::Mat4x4<re::math::mat::RealToProj<re::render::World>> = mk();
     let b: re::math::point::Point3<re::render::Model> = mk();
     let _ = a.apply(&b);
 }
 
-pub fn p847() {
+pub fn p886() {
     let a: re::math::mat::Mat4x4<re::math::mat::RealToProj<re::render::World>> = mk();
     let b: re::math::point::Point3<re::render::Model> = mk();
     let _ = a.apply_pt(&b);
 }
 
-pub fn p848() {
+pub fn p887() {
     let a: re::math::mat::Mat4x4<re::math::mat::RealToProj<re::render::World>> = mk();
     let b: re::math::point::Point3<()> = mk();
     let _ = a.apply(&b);
 }
 
-pub fn p849() {
+pub fn p888() {
     let a: re::math::mat::Mat4x4<re::math::mat::RealToProj<re::render::World>> = mk();
     let b: re::math::point::Point3<()> = mk();
     let _ = a.apply_pt(&b);
 }
 
-pub fn p851() {
+pub fn p890() {
     let a: re::math::mat::Mat4x4<re::math::mat::RealToProj<re::render::World>> = mk();
     let b: re::math::point::Point3<re::render::World> = mk();
     let _ = a.apply_pt(&b);
 }
 
-pub fn p852() {
+pub fn p891() {
     let a: re::math::mat::Mat4x4<re::math::mat::RealToProj<re::render::World>> = mk();
     let b: re::math::vec::Vec3<re::render::Model> = mk();
     let _ = a.apply(&b);
 }
 
-pub fn p853() {
+pub fn p892() {
     let a: re::math::mat::Mat4x4<re::math::mat::RealToProj<re::render::World>> = mk();
     let b: re::math::vec::Vec3<()> = mk();
     let _ = a.apply(&b);
 }
 
-pub fn p854() {
+pub fn p893() {
     let a: re::math::mat::Mat4x4<re::math::mat::RealToProj<re::render::World>> = mk();
     let b: re::math::vec::Vec3<re::render::World> = mk();
     let _ = a.apply(&b);
 }
 
-pub fn p855() {
+pub fn p894() {
     let a: re::math::mat::Mat4x4<re::math::mat::RealToProj<re::render::World>> = mk();
     let _ = a.determinant();
 }
 
-pub fn p856() {
+pub fn p895() {
     let a: re::math::mat::Mat4x4<re::math::mat::RealToProj<re::render::World>> = mk();
     let _ = a.inverse();
 }
 
-pub fn p857() {
+pub fn p896() {
     let a: re::math::mat::Mat4x4<re::math::mat::RealToProj<re::render::World>> = mk();
     let _ = a.transpose();
 }
 
-pub fn p865() {
-    let a: re::math::point::Point2<re::render::Model> = mk();
-    let b: re::math::point::Point2<re::render::Model> = mk();
-    let _ = a + b;
-}
-
-pub fn p868() {
-    let a: re::math::point::Point2<re::render::Model> = mk();
-    let b: re::math::point::Point2<()> = mk();
-    let _ = a + b;
-}
-
-pub fn p869() {
-    let a: re::math::point::Point2<re::render::Model> = mk();
-    let b: re::math::point::Point2<()> = mk();
-    let _ = re::math::Lerp::lerp(&a, &b, 0.5);
-}
-
-pub fn p870() {
-    let a: re::math::point::Point2<re::render::Model> = mk();
-    let b: re::math::point::Point2<()> = mk();
-    let _ = a - b;
-}
-
-pub fn p871() {
-    let a: re::math::point::Point2<re::render::Model> = mk();
-    let b: re::math::point::Point2<re::render::World> = mk();
-    let _ = a + b;
-}
-
-pub fn p872() {
-    let a: re::math::point::Point2<re::render::Model> = mk();
-    let b: re::math::point::Point2<re::render::World> = mk();
-    let _ = re::math::Lerp::lerp(&a, &b, 0.5);
-}
-
-pub fn p873() {
-    let a: re::math::point::Point2<re::render::Model> = mk();
-    let b: re::math::point::Point2<re::render::World> = mk();
-    let _ = a - b;
-}
-
-pub fn p874() {
-    let a: re::math::point::Point2<re::render::Model> = mk();
-    let b: re::math::point::Point3<re::render::Model> = mk();
-    let _ = a + b;
-}
-
-pub fn p875() {
-    let a: re::math::point::Point2<re::render::Model> = mk();
-    let b: re::math::point::Point3<re::render::Model> = mk();
-    let _ = re::math::Lerp::lerp(&a, &b, 0.5);
-}
-
-pub fn p876() {
-    let a: re::math::point::Point2<re::render::Model> = mk();
-    let b: re::math::point::Point3<re::render::Model> = mk();
-    let _ = a - b;
-}
-
-pub fn p877() {
-    let a: re::math::point::Point2<re::render::Model> = mk();
-    let b: re::math::point::Point3<()> = mk();
-    let _ = a + b;
-}
-
-pub fn p878() {
-    let a: re::math::point::Point2<re::render::Model> = mk();
-    let b: re::math::point::Point3<()> = mk();
-    let _ = re::math::Lerp::lerp(&a, &b, 0.5);
-}
-
-pub fn p879() {
-    let a: re::math::point::Point2<re::render::Model> = mk();
-    let b: re::math::point::Point3<()> = mk();
-    let _ = a - b;
-}
-
-pub fn p880() {
-    let a: re::math::point::Point2<re::render::Model> = mk();
-    let b: re::math::point::Point3<re::render::World> = mk();
-    let _ = a + b;
-}
-
-pub fn p881() {
-    let a: re::math::point::Point2<re::render::Model> = mk();
-    let b: re::math::point::Point3<re::render::World> = mk();
-    let _ = re::math::Lerp::lerp(&a, &b, 0.5);
-}
-
-pub fn p882() {
-    let a: re::math::point::Point2<re::render::Model> = mk();
-    let b: re::math::point::Point3<re::render::World> = mk();
-    let _ = a - b;
-}
-
-pub fn p884() {
-    let a: re::math::point::Point2<re::render::Model> = mk();
-    let b: re::math::vec::Vec2<()> = mk();
-    let _ = a + b;
-}
-
-pub fn p885() {
-    let a: re::math::point::Point2<re::render::Model> = mk();
-    let b: re::math::vec::Vec2<re::render::World> = mk();
-    let _ = a + b;
-}
-
-pub fn p886() {
-    let a: re::math::point::Point2<re::render::Model> = mk();
-    let b: re::math::vec::Vec3<re::render::Model> = mk();
-    let _ = a + b;
-}
-
-pub fn p887() {
-    let a: re::math::point::Point2<re::render::Model> = mk();
-    let b: re::math::vec::Vec3<()> = mk();
-    let _ = a + b;
-}
-
-pub fn p888() {
-    let a: re::math::point::Point2<re::render::Model> = mk();
-    let b: re::math::vec::Vec3<re::render::World> = mk();
-    let _ = a + b;
-}
-
-pub fn p889() {
-    let a: re::math::point::Point2<()> = mk();
-    let b: re::math::point::Point2<re::render::Model> = mk();
-    let _ = a + b;
-}
-
-pub fn p890() {
-    let a: re::math::point::Point2<()> = mk();
-    let b: re::math::point::Point2<re::render::Model> = mk();
-    let _ = re::math::Lerp::lerp(&a, &b, 0.5);
-}
-
-pub fn p891() {
-    let a: re::math::point::Point2<()> = mk();
-    let b: re::math::point::Point2<re::render::Model> = mk();
-    let _ = a - b;
-}
-
-pub fn p892() {
-    let a: re::math::point::Point2<()> = mk();
-    let b: re::math::point::Point2<()> = mk();
-    let _ = a + b;
-}
-
-pub fn p895() {
-    let a: re::math::point::Point2<()> = mk();
-    let b: re::math::point::Point2<re::render::World> = mk();
-    let _ = a + b;
-}
-
-pub fn p896() {
-    let a: re::math::point::Point2<()> = mk();
-    let b: re::math::point::Point2<re::render::World> = mk();
-    let _ = re::math::Lerp::lerp(&a, &b, 0.5);
-}
-
-pub fn p897() {
-    let a: re::math::point::Point2<()> = mk();
-    let b: re::math::point::Point2<re::render::World> = mk();
-    let _ = a - b;
-}
-
-pub fn p898() {
-    let a: re::math::point::Point2<()> = mk();
-    let b: re::math::point::Point3<re::render::Model> = mk();
-    let _ = a + b;
-}
-
-pub fn p899() {
-    let a: re::math::point::Point2<()> = mk();
-    let b: re::math::point::Point3<re::render::Model> = mk();
-    let _ = re::math::Lerp::lerp(&a, &b, 0.5);
-}
-
-pub fn p900() {
-    let a: re::math::point::Point2<()> = mk();
-    let b: re::math::point::Point3<re::render::Model> = mk();
-    let _ = a - b;
-}
-
-pub fn p901() {
-    let a: re::math::point::Point2<()> = mk();
-    let b: re::math::point::Point3<()> = mk();
-    let _ = a + b;
-}
-
-pub fn p902() {
-    let a: re::math::point::Point2<()> = mk();
-    let b: re::math::point::Point3<()> = mk();
-    let _ = re::math::Lerp::lerp(&a, &b, 0.5);
-}
-
-pub fn p903() {
-    let a: re::math::point::Point2<()> = mk();
-    let b: re::math::point::Point3<()> = mk();
-    let _ = a - b;
-}
-
 pub fn p904() {
-    let a: re::math::point::Point2<()> = mk();
-    let b: re::math::point::Point3<re::render::World> = mk();
+    let a: re::math::point::Point2<re::render::Model> = mk();
+    let b: re::math::point::Point2<re::render::Model> = mk();
     let _ = a + b;
-}
-
-pub fn p905() {
-    let a: re::math::point::Point2<()> = mk();
-    let b: re::math::point::Point3<re::render::World> = mk();
-    let _ = re::math::Lerp::lerp(&a, &b, 0.5);
-}
-
-pub fn p906() {
-    let a: re::math::point::Point2<()> = mk();
-    let b: re::math::point::Point3<re::render::World> = mk();
-    let _ = a - b;
 }
 
 pub fn p907() {
-    let a: re::math::point::Point2<()> = mk();
-    let b: re::math::vec::Vec2<re::render::Model> = mk();
+    let a: re::math::point::Point2<re::render::Model> = mk();
+    let b: re::math::point::Point2<()> = mk();
     let _ = a + b;
+}
+
+pub fn p908() {
+    let a: re::math::point::Point2<re::render::Model> = mk();
+    let b: re::math::point::Point2<()> = mk();
+    let _ = re::math::Lerp::lerp(&a, &b, 0.5);
 }
 
 pub fn p909() {
-    let a: re::math::point::Point2<()> = mk();
-    let b: re::math::vec::Vec2<re::render::World> = mk();
-    let _ = a + b;
+    let a: re::math::point::Point2<re::render::Model> = mk();
+    let b: re::math::point::Point2<()> = mk();
+    let _ = a - b;
 }
 
 pub fn p910() {
-    let a: re::math::point::Point2<()> = mk();
-    let b: re::math::vec::Vec3<re::render::Model> = mk();
+    let a: re::math::point::Point2<re::render::Model> = mk();
+    let b: re::math::point::Point2<re::render::World> = mk();
     let _ = a + b;
 }
 
 pub fn p911() {
+    let a: re::math::point::Point2<re::render::Model> = mk();
+    let b: re::math::point::Point2<re::render::World> = mk();
+    let _ = re::math::Lerp::lerp(&a, &b, 0.5);
+}
+
+pub fn p912() {
+    let a: re::math::point::Point2<re::render::Model> = mk();
+    let b: re::math::point::Point2<re::render::World> = mk();
+    let _ = a - b;
+}
+
+pub fn p913() {
+    let a: re::math::point::Point2<re::render::Model> = mk();
+    let b: re::math::point::Point3<re::render::Model> = mk();
+    let _ = a + b;
+}
+
+pub fn p914() {
+    let a: re::math::point::Point2<re::render::Model> = mk();
+    let b: re::math::point::Point3<re::render::Model> = mk();
+    let _ = re::math::Lerp::lerp(&a, &b, 0.5);
+}
+
+pub fn p915() {
+    let a: re::math::point::Point2<re::render::Model> = mk();
+    let b: re::math::point::Point3<re::render::Model> = mk();
+    let _ = a - b;
+}
+
+pub fn p916() {
+    let a: re::math::point::Point2<re::render::Model> = mk();
+    let b: re::math::point::Point3<()> = mk();
+    let _ = a + b;
+}
+
+pub fn p917() {
+    let a: re::math::point::Point2<re::render::Model> = mk();
+    let b: re::math::point::Point3<()> = mk();
+    let _ = re::math::Lerp::lerp(&a, &b, 0.5);
+}
+
+pub fn p918() {
+    let a: re::math::point::Point2<re::render::Model> = mk();
+    let b: re::math::point::Point3<()> = mk();
+    let _ = a - b;
+}
+
+pub fn p919() {
+    let a: re::math::point::Point2<re::render::Model> = mk();
+    let b: re::math::point::Point3<re::render::World> = mk();
+    let _ = a + b;
+}
+
+pub fn p920() {
+    let a: re::math::point::Point2<re::render::Model> = mk();
+    let b: re::math::point::Point3<re::render::World> = mk();
+    let _ = re::math::Lerp::lerp(&a, &b, 0.5);
+}
+
+pub fn p921() {
+    let a: re::math::point::Point2<re::render::Model> = mk();
+    let b: re::math::point::Point3<re::render::World> = mk();
+    let _ = a - b;
+}
+
+pub fn p923() {
+    let a: re::math::point::Point2<re::render::Model> = mk();
+    let b: re::math::vec::Vec2<()> = mk();
+    let _ = a + b;
+}
+
+pub fn p924() {
+    let a: re::math::point::Point2<re::render::Model> = mk();
+    let b: re::math::vec::Vec2<re::render::World> = mk();
+    let _ = a + b;
+}
+
+pub fn p925() {
+    let a: re::math::point::Point2<re::render::Model> = mk();
+    let b: re::math::vec::Vec3<re::render::Model> = mk();
+    let _ = a + b;
+}
+
+pub fn p926() {
+    let a: re::math::point::Point2<re::render::Model> = mk();
+    let b: re::math::vec::Vec3<()> = mk();
+    let _ = a + b;
+}
+
+pub fn p927() {
+    let a: re::math::point::Point2<re::render::Model> = mk();
+    let b: re::math::vec::Vec3<re::render::World> = mk();
+    let _ = a + b;
+}
+
+pub fn p928() {
+    let a: re::math::point::Point2<()> = mk();
+    let b: re::math::point::Point2<re::render::Model> = mk();
+    let _ = a + b;
+}
+
+pub fn p929() {
+    let a: re::math::point::Point2<()> = mk();
+    let b: re::math::point::Point2<re::render::Model> = mk();
+    let _ = re::math::Lerp::lerp(&a, &b, 0.5);
+}
+
+pub fn p930() {
+    let a: re::math::point::Point2<()> = mk();
+    let b: re::math::point::Point2<re::render::Model> = mk();
+    let _ = a - b;
+}
+
+pub fn p931() {
+    let a: re::math::point::Point2<()> = mk();
+    let b: re::math::point::Point2<()> = mk();
+    let _ = a + b;
+}
+
+pub fn p934() {
+    let a: re::math::point::Point2<()> = mk();
+    let b: re::math::point::Point2<re::render::World> = mk();
+    let _ = a + b;
+}
+
+pub fn p935() {
+    let a: re::math::point::Point2<()> = mk();
+    let b: re::math::point::Point2<re::render::World> = mk();
+    let _ = re::math::Lerp::lerp(&a, &b, 0.5);
+}
+
+pub fn p936() {
+    let a: re::math::point::Point2<()> = mk();
+    let b: re::math::point::Point2<re::render::World> = mk();
+    let _ = a - b;
+}
+
+pub fn p937() {
+    let a: re::math::point::Point2<()> = mk();
+    let b: re::math::point::Point3<re::render::Model> = mk();
+    let _ = a + b;
+}
+
+pub fn p938() {
+    let a: re::math::point::Point2<()> = mk();
+    let b: re::math::point::Point3<re::render::Model> = mk();
+    let _ = re::math::Lerp::lerp(&a, &b, 0.5);
+}
+
+pub fn p939() {
+    let a: re::math::point::Point2<()> = mk();
+    let b: re::math::point::Point3<re::render::Model> = mk();
+    let _ = a - b;
+}
+
+pub fn p940() {
+    let a: re::math::point::Point2<()> = mk();
+    let b: re::math::point::Point3<()> = mk();
+    let _ = a + b;
+}
+
+pub fn p941() {
+    let a: re::math::point::Point2<()> = mk();
+    let b: re::math::point::Point3<()> = mk();
+    let _ = re::math::Lerp::lerp(&a, &b, 0.5);
+}
+
+pub fn p942() {
+    let a: re::math::point::Point2<()> = mk();
+    let b: re::math::point::Point3<()> = mk();
+    let _ = a - b;
+}
+
+pub fn p943() {
+    let a: re::math::point::Point2<()> = mk();
+    let b: re::math::point::Point3<re::render::World> = mk();
+    let _ = a + b;
+}
+
+pub fn p944() {
+    let a: re::math::point::Point2<()> = mk();
+    let b: re::math::point::Point3<re::render::World> = mk();
+    let _ = re::math::Lerp::lerp(&a, &b, 0.5);
+}
+
+pub fn p945() {
+    let a: re::math::point::Point2<()> = mk();
+    let b: re::math::point::Point3<re::render::World> = mk();
+    let _ = a - b;
+}
+
+pub fn p946() {
+    let a: re::math::point::Point2<()> = mk();
+    let b: re::math::vec::Vec2<re::render::Model> = mk();
+    let _ = a + b;
+}
+
+pub fn p948() {
+    let a: re::math::point::Point2<()> = mk();
+    let b: re::math::vec::Vec2<re::render::World> = mk();
+    let _ = a + b;
+}
+
+pub fn p949() {
+    let a: re::math::point::Point2<()> = mk();
+    let b: re::math::vec::Vec3<re::render::Model> = mk();
+    let _ = a + b;
+}
+
+pub fn p950() {
     let a: re::math::point::Point2<()> = mk();
     let b: re::math::vec::Vec3<()> = mk();
     let _ = a + b;
 }
 
-pub fn p912() {
+pub fn p951() {
     let a: re::math::point::Point2<()> = mk();
     let b: re::math::vec::Vec3<re::render::World> = mk();
     let _ = a + b;
 }
 
-pub fn p913() {
+pub fn p952() {
     let a: re::math::point::Point2<re::render::World> = mk();
     let b: re::math::point::Point2<re::render::Model> = mk();
     let _ = a + b;
 }
 
-pub fn p914() {
+pub fn p953() {
     let a: re::math::point::Point2<re::render::World> = mk();
     let b: re::math::point::Point2<re::render::Model> = mk();
     let _ = re::math::Lerp::lerp(&a, &b, 0.5);
 }
 
-pub fn p915() {
+pub fn p954() {
     let a: re::math::point::Point2<re::render::World> = mk();
     let b: re::math::point::Point2<re::render::Model> = mk();
     let _ = a - b;
 }
 
-pub fn p916() {
+pub fn p955() {
     let a: re::math::point::Point2<re::render::World> = mk();
     let b: re::math::point::Point2<()> = mk();
     let _ = a + b;
 }
 
-pub fn p917() {
+pub fn p956() {
     let a: re::math::point::Point2<re::render::World> = mk();
     let b: re::math::point::Point2<()> = mk();
     let _ = re::math::Lerp::lerp(&a, &b, 0.5);
 }
 
-pub fn p918() {
+pub fn p957() {
     let a: re::math::point::Point2<re::render::World> = mk();
     let b: re::math::point::Point2<()> = mk();
     let _ = a - b;
 }
 
-pub fn p919() {
+pub fn p958() {
     let a: re::math::point::Point2<re::render::World> = mk();
     let b: re::math::point::Point2<re::render::World> = mk();
     let _ = a + b;
 }
 
-pub fn p922() {
+pub fn p961() {
     let a: re::math::point::Point2<re::render::World> = mk();
     let b: re::math::point::Point3<re::render::Model> = mk();
     let _ = a + b;
 }
 
-pub fn p923() {
+pub fn p962() {
     let a: re::math::point::Point2<re::render::World> = mk();
     let b: re::math::point::Point3<re::render::Model> = mk();
     let _ = re::math::Lerp::lerp(&a, &b, 0.5);
 }
 
-pub fn p924() {
+pub fn p963() {
     let a: re::math::point::Point2<re::render::World> = mk();
     let b: re::math::point::Point3<re::render::Model> = mk();
     let _ = a - b;
 }
 
-pub fn p925() {
+pub fn p964() {
     let a: re::math::point::Point2<re::render::World> = mk();
     let b: re::math::point::Point3<()> = mk();
     let _ = a + b;
 }
 
-pub fn p926() {
+pub fn p965() {
     let a: re::math::point::Point2<re::render::World> = mk();
     let b: re::math::point::Point3<()> = mk();
     let _ = re::math::Lerp::lerp(&a, &b, 0.5);
 }
 
-pub fn p927() {
+pub fn p966() {
     let a: re::math::point::Point2<re::render::World> = mk();
     let b: re::math::point::Point3<()> = mk();
     let _ = a - b;
 }
 
-pub fn p928() {
+pub fn p967() {
     let a: re::math::point::Point2<re::render::World> = mk();
     let b: re::math::point::Point3<re::render::World> = mk();
     let _ = a + b;
 }
 
-pub fn p929() {
+pub fn p968() {
     let a: re::math::point::Point2<re::render::World> = mk();
     let b: re::math::point::Point3<re::render::World> = mk();
     let _ = re::math::Lerp::lerp(&a, &b, 0.5);
 }
 
-pub fn p930() {
+pub fn p969() {
     let a: re::math::point::Point2<re::render::World> = mk();
     let b: re::math::point::Point3<re::render::World> = mk();
     let _ = a - b;
 }
 
-pub fn p931() {
+pub fn p970() {
     let a: re::math::point::Point2<re::render::World> = mk();
     let b: re::math::vec::Vec2<re::render::Model> = mk();
     let _ = a + b;
 }
 
-pub fn p932() {
+pub fn p971() {
     let a: re::math::point::Point2<re::render::World> = mk();
     let b: re::math::vec::Vec2<()> = mk();
     let _ = a + b;
 }
 
-pub fn p934() {
+pub fn p973() {
     let a: re::math::point::Point2<re::render::World> = mk();
     let b: re::math::vec::Vec3<re::render::Model> = mk();
     let _ = a + b;
 }
 
-pub fn p935() {
+pub fn p974() {
     let a: re::math::point::Point2<re::render::World> = mk();
     let b: re::math::vec::Vec3<()> = mk();
     let _ = a + b;
 }
 
-pub fn p936() {
+pub fn p975() {
     let a: re::math::point::Point2<re::render::World> = mk();
     let b: re::math::vec::Vec3<re::render::World> = mk();
     let _ = a + b;
 }
 
-pub fn p937() {
-    let a: re::math::point::Point3<re::render::Model> = mk();
-    let b: re::math::point::Point2<re::render::Model> = mk();
-    let _ = a + b;
-}
-
-pub fn p938() {
-    let a: re::math::point::Point3<re::render::Model> = mk();
-    let b: re::math::point::Point2<re::render::Model> = mk();
-    let _ = re::math::Lerp::lerp(&a, &b, 0.5);
-}
-
-pub fn p939() {
-    let a: re::math::point::Point3<re::render::Model> = mk();
-    let b: re::math::point::Point2<re::render::Model> = mk();
-    let _ = a - b;
-}
-
-pub fn p940() {
-    let a: re::math::point::Point3<re::render::Model> = mk();
-    let b: re::math::point::Point2<()> = mk();
-    let _ = a + b;
-}
-
-pub fn p941() {
-    let a: re::math::point::Point3<re::render::Model> = mk();
-    let b: re::math::point::Point2<()> = mk();
-    let _ = re::math::Lerp::lerp(&a, &b, 0.5);
-}
-
-pub fn p942() {
-    let a: re::math::point::Point3<re::render::Model> = mk();
-    let b: re::math::point::Point2<()> = mk();
-    let _ = a - b;
-}
-
-pub fn p943() {
-    let a: re::math::point::Point3<re::render::Model> = mk();
-    let b: re::math::point::Point2<re::render::World> = mk();
-    let _ = a + b;
-}
-
-pub fn p944() {
-    let a: re::math::point::Point3<re::render::Model> = mk();
-    let b: re::math::point::Point2<re::render::World> = mk();
-    let _ = re::math::Lerp::lerp(&a, &b, 0.5);
-}
-
-pub fn p945() {
-    let a: re::math::point::Point3<re::render::Model> = mk();
-    let b: re::math::point::Point2<re::render::World> = mk();
-    let _ = a - b;
-}
-
-pub fn p946() {
-    let a: re::math::point::Point3<re::render::Model> = mk();
-    let b: re::math::point::Point3<re::render::Model> = mk();
-    let _r: re::math::point::Point3<re::render::Model> = a - b;
-}
-
-pub fn p948() {
-    let a: re::math::point::Point3<re::render::Model> = mk();
-    let b: re::math::point::Point3<re::render::Model> = mk();
-    let _r: re::math::point::Point3<()> = a - b;
-}
-
-pub fn p949() {
-    let a: re::math::point::Point3<re::render::Model> = mk();
-    let b: re::math::point::Point3<re::render::Model> = mk();
-    let c: re::math::point::Point3<()> = mk();
-    let d = re::math::space::Affine::sub(&a, &b);
-    let _ = re::math::space::Affine::add(&c, &d);
-}
-
-pub fn p950() {
-    let a: re::math::point::Point3<re::render::Model> = mk();
-    let b: re::math::point::Point3<re::render::Model> = mk();
-    let _r: re::math::point::Point3<re::render::World> = a - b;
-}
-
-pub fn p951() {
-    let a: re::math::point::Point3<re::render::Model> = mk();
-    let b: re::math::point::Point3<re::render::Model> = mk();
-    let c: re::math::point::Point3<re::render::World> = mk();
-    let d = re::math::space::Affine::sub(&a, &b);
-    let _ = re::math::space::Affine::add(&c, &d);
-}
-
-pub fn p953() {
-    let a: re::math::point::Point3<re::render::Model> = mk();
-    let b: re::math::point::Point3<re::render::Model> = mk();
-    let _r: re::math::vec::Vec3<()> = a - b;
-}
-
-pub fn p954() {
-    let a: re::math::point::Point3<re::render::Model> = mk();
-    let b: re::math::point::Point3<re::render::Model> = mk();
-    let _r: re::math::vec::Vec3<re::render::World> = a - b;
-}
-
-pub fn p955() {
-    let a: re::math::point::Point3<re::render::Model> = mk();
-    let b: re::math::point::Point3<re::render::Model> = mk();
-    let _ = a + b;
-}
-
-pub fn p958() {
-    let a: re::math::point::Point3<re::render::Model> = mk();
-    let b: re::math::point::Point3<()> = mk();
-    let _r: re::math::point::Point3<re::render::Model> = a - b;
-}
-
-pub fn p959() {
-    let a: re::math::point::Point3<re::render::Model> = mk();
-    let b: re::math::point::Point3<()> = mk();
-    let c: re::math::point::Point3<re::render::Model> = mk();
-    let d = re::math::space::Affine::sub(&a, &b);
-    let _ = re::math::space::Affine::add(&c, &d);
-}
-
-pub fn p960() {
-    let a: re::math::point::Point3<re::render::Model> = mk();
-    let b: re::math::point::Point3<()> = mk();
-    let _r: re::math::point::Point3<()> = a - b;
-}
-
-pub fn p961() {
-    let a: re::math::point::Point3<re::render::Model> = mk();
-    let b: re::math::point::Point3<()> = mk();
-    let c: re::math::point::Point3<()> = mk();
-    let d = re::math::space::Affine::sub(&a, &b);
-    let _ = re::math::space::Affine::add(&c, &d);
-}
-
-pub fn p962() {
-    let a: re::math::point::Point3<re::render::Model> = mk();
-    let b: re::math::point::Point3<()> = mk();
-    let _r: re::math::point::Point3<re::render::World> = a - b;
-}
-
-pub fn p963() {
-    let a: re::math::point::Point3<re::render::Model> = mk();
-    let b: re::math::point::Point3<()> = mk();
-    let c: re::math::point::Point3<re::render::World> = mk();
-    let d = re::math::space::Affine::sub(&a, &b);
-    let _ = re::math::space::Affine::add(&c, &d);
-}
-
-pub fn p964() {
-    let a: re::math::point::Point3<re::render::Model> = mk();
-    let b: re::math::point::Point3<()> = mk();
-    let _r: re::math::vec::Vec3<re::render::Model> = a - b;
-}
-
-pub fn p965() {
-    let a: re::math::point::Point3<re::render::Model> = mk();
-    let b: re::math::point::Point3<()> = mk();
-    let _r: re::math::vec::Vec3<()> = a - b;
-}
-
-pub fn p966() {
-    let a: re::math::point::Point3<re::render::Model> = mk();
-    let b: re::math::point::Point3<()> = mk();
-    let _r: re::math::vec::Vec3<re::render::World> = a - b;
-}
-
-pub fn p967() {
-    let a: re::math::point::Point3<re::render::Model> = mk();
-    let b: re::math::point::Point3<()> = mk();
-    let _ = a + b;
-}
-
-pub fn p968() {
-    let a: re::math::point::Point3<re::render::Model> = mk();
-    let b: re::math::point::Point3<()> = mk();
-    let _ = re::math::Lerp::lerp(&a, &b, 0.5);
-}
-
-pub fn p969() {
-    let a: re::math::point::Point3<re::render::Model> = mk();
-    let b: re::math::point::Point3<()> = mk();
-    let _ = a - b;
-}
-
-pub fn p970() {
-    let a: re::math::point::Point3<re::render::Model> = mk();
-    let b: re::math::point::Point3<re::render::World> = mk();
-    let _r: re::math::point::Point3<re::render::Model> = a - b;
-}
-
-pub fn p971() {
-    let a: re::math::point::Point3<re::render::Model> = mk();
-    let b: re::math::point::Point3<re::render::World> = mk();
-    let c: re::math::point::Point3<re::render::Model> = mk();
-    let d = re::math::space::Affine::sub(&a, &b);
-    let _ = re::math::space::Affine::add(&c, &d);
-}
-
-pub fn p972() {
-    let a: re::math::point::Point3<re::render::Model> = mk();
-    let b: re::math::point::Point3<re::render::World> = mk();
-    let _r: re::math::point::Point3<()> = a - b;
-}
-
-pub fn p973() {
-    let a: re::math::point::Point3<re::render::Model> = mk();
-    let b: re::math::point::Point3<re::render::World> = mk();
-    let c: re::math::point::Point3<()> = mk();
-    let d = re::math::space::Affine::sub(&a, &b);
-    let _ = re::math::space::Affine::add(&c, &d);
-}
-
-pub fn p974() {
-    let a: re::math::point::Point3<re::render::Model> = mk();
-    let b: re::math::point::Point3<re::render::World> = mk();
-    let _r: re::math::point::Point3<re::render::World> = a - b;
-}
-
-pub fn p975() {
-    let a: re::math::point::Point3<re::render::Model> = mk();
-    let b: re::math::point::Point3<re::render::World> = mk();
-    let c: re::math::point::Point3<re::render::World> = mk();
-    let d = re::math::space::Affine::sub(&a, &b);
-    let _ = re::math::space::Affine::add(&c, &d);
-}
-
 pub fn p976() {
     let a: re::math::point::Point3<re::render::Model> = mk();
-    let b: re::math::point::Point3<re::render::World> = mk();
-    let _r: re::math::vec::Vec3<re::render::Model> = a - b;
+    let b: re::math::point::Point2<re::render::Model> = mk();
+    let _ = a + b;
 }
 
 pub fn p977() {
     let a: re::math::point::Point3<re::render::Model> = mk();
-    let b: re::math::point::Point3<re::render::World> = mk();
-    let _r: re::math::vec::Vec3<()> = a - b;
+    let b: re::math::point::Point2<re::render::Model> = mk();
+    let _ = re::math::Lerp::lerp(&a, &b, 0.5);
 }
 
 pub fn p978() {
     let a: re::math::point::Point3<re::render::Model> = mk();
-    let b: re::math::point::Point3<re::render::World> = mk();
-    let _r: re::math::vec::Vec3<re::render::World> = a - b;
+    let b: re::math::point::Point2<re::render::Model> = mk();
+    let _ = a - b;
 }
 
 pub fn p979() {
     let a: re::math::point::Point3<re::render::Model> = mk();
-    let b: re::math::point::Point3<re::render::World> = mk();
+    let b: re::math::point::Point2<()> = mk();
     let _ = a + b;
 }
 
 pub fn p980() {
     let a: re::math::point::Point3<re::render::Model> = mk();
-    let b: re::math::point::Point3<re::render::World> = mk();
+    let b: re::math::point::Point2<()> = mk();
     let _ = re::math::Lerp::lerp(&a, &b, 0.5);
 }
 
 pub fn p981() {
     let a: re::math::point::Point3<re::render::Model> = mk();
-    let b: re::math::point::Point3<re::render::World> = mk();
+    let b: re::math::point::Point2<()> = mk();
     let _ = a - b;
 }
 
 pub fn p982() {
     let a: re::math::point::Point3<re::render::Model> = mk();
-    let b: re::math::vec::Vec2<re::render::Model> = mk();
+    let b: re::math::point::Point2<re::render::World> = mk();
     let _ = a + b;
 }
 
 pub fn p983() {
     let a: re::math::point::Point3<re::render::Model> = mk();
+    let b: re::math::point::Point2<re::render::World> = mk();
+    let _ = re::math::Lerp::lerp(&a, &b, 0.5);
+}
+
+pub fn p984() {
+    let a: re::math::point::Point3<re::render::Model> = mk();
+    let b: re::math::point::Point2<re::render::World> = mk();
+    let _ = a - b;
+}
+
+pub fn p985() {
+    let a: re::math::point::Point3<re::render::Model> = mk();
+    let b: re::math::point::Point3<re::render::Model> = mk();
+    let _r: re::math::point::Point3<re::render::Model> = a - b;
+}
+
+pub fn p987() {
+    let a: re::math::point::Point3<re::render::Model> = mk();
+    let b: re::math::point::Point3<re::render::Model> = mk();
+    let _r: re::math::point::Point3<()> = a - b;
+}
+
+pub fn p988() {
+    let a: re::math::point::Point3<re::render::Model> = mk();
+    let b: re::math::point::Point3<re::render::Model> = mk();
+    let c: re::math::point::Point3<()> = mk();
+    let d = re::math::space::Affine::sub(&a, &b);
+    let _ = re::math::space::Affine::add(&c, &d);
+}
+
+pub fn p989() {
+    let a: re::math::point::Point3<re::render::Model> = mk();
+    let b: re::math::point::Point3<re::render::Model> = mk();
+    let _r: re::math::point::Point3<re::render::World> = a - b;
+}
+
+pub fn p990() {
+    let a: re::math::point::Point3<re::render::Model> = mk();
+    let b: re::math::point::Point3<re::render::Model> = mk();
+    let c: re::math::point::Point3<re::render::World> = mk();
+    let d = re::math::space::Affine::sub(&a, &b);
+    let _ = re::math::space::Affine::add(&c, &d);
+}
+
+pub fn p992() {
+    let a: re::math::point::Point3<re::render::Model> = mk();
+    let b: re::math::point::Point3<re::render::Model> = mk();
+    let _r: re::math::vec::Vec3<()> = a - b;
+}
+
+pub fn p993() {
+    let a: re::math::point::Point3<re::render::Model> = mk();
+    let b: re::math::point::Point3<re::render::Model> = mk();
+    let _r: re::math::vec::Vec3<re::render::World> = a - b;
+}
+
+pub fn p994() {
+    let a: re::math::point::Point3<re::render::Model> = mk();
+    let b: re::math::point::Point3<re::render::Model> = mk();
+    let _ = a + b;
+}
+
+pub fn p997() {
+    let a: re::math::point::Point3<re::render::Model> = mk();
+    let b: re::math::point::Point3<()> = mk();
+    let _r: re::math::point::Point3<re::render::Model> = a - b;
+}
+
+pub fn p998() {
+    let a: re::math::point::Point3<re::render::Model> = mk();
+    let b: re::math::point::Point3<()> = mk();
+    let c: re::math::point::Point3<re::render::Model> = mk();
+    let d = re::math::space::Affine::sub(&a, &b);
+    let _ = re::math::space::Affine::add(&c, &d);
+}
+
+pub fn p999() {
+    let a: re::math::point::Point3<re::render::Model> = mk();
+    let b: re::math::point::Point3<()> = mk();
+    let _r: re::math::point::Point3<()> = a - b;
+}
+
+pub fn p1000() {
+    let a: re::math::point::Point3<re::render::Model> = mk();
+    let b: re::math::point::Point3<()> = mk();
+    let c: re::math::point::Point3<()> = mk();
+    let d = re::math::space::Affine::sub(&a, &b);
+    let _ = re::math::space::Affine::add(&c, &d);
+}
+
+pub fn p1001() {
+    let a: re::math::point::Point3<re::render::Model> = mk();
+    let b: re::math::point::Point3<()> = mk();
+    let _r: re::math::point::Point3<re::render::World> = a - b;
+}
+
+pub fn p1002() {
+    let a: re::math::point::Point3<re::render::Model> = mk();
+    let b: re::math::point::Point3<()> = mk();
+    let c: re::math::point::Point3<re::render::World> = mk();
+    let d = re::math::space::Affine::sub(&a, &b);
+    let _ = re::math::space::Affine::add(&c, &d);
+}
+
+pub fn p1003() {
+    let a: re::math::point::Point3<re::render::Model> = mk();
+    let b: re::math::point::Point3<()> = mk();
+    let _r: re::math::vec::Vec3<re::render::Model> = a - b;
+}
+
+pub fn p1004() {
+    let a: re::math::point::Point3<re::render::Model> = mk();
+    let b: re::math::point::Point3<()> = mk();
+    let _r: re::math::vec::Vec3<()> = a - b;
+}
+
+pub fn p1005() {
+    let a: re::math::point::Point3<re::render::Model> = mk();
+    let b: re::math::point::Point3<()> = mk();
+    let _r: re::math::vec::Vec3<re::render::World> = a - b;
+}
+
+pub fn p1006() {
+    let a: re::math::point::Point3<re::render::Model> = mk();
+    let b: re::math::point::Point3<()> = mk();
+    let _ = a + b;
+}
+
+pub fn p1007() {
+    let a: re::math::point::Point3<re::render::Model> = mk();
+    let b: re::math::point::Point3<()> = mk();
+    let _ = re::math::Lerp::lerp(&a, &b, 0.5);
+}
+
+pub fn p1008() {
+    let a: re::math::point::Point3<re::render::Model> = mk();
+    let b: re::math::point::Point3<()> = mk();
+    let _ = a - b;
+}
+
+pub fn p1009() {
+    let a: re::math::point::Point3<re::render::Model> = mk();
+    let b: re::math::point::Point3<re::render::World> = mk();
+    let _r: re::math::point::Point3<re::render::Model> = a - b;
+}
+
+pub fn p1010() {
+    let a: re::math::point::Point3<re::render::Model> = mk();
+    let b: re::math::point::Point3<re::render::World> = mk();
+    let c: re::math::point::Point3<re::render::Model> = mk();
+    let d = re::math::space::Affine::sub(&a, &b);
+    let _ = re::math::space::Affine::add(&c, &d);
+}
+
+pub fn p1011() {
+    let a: re::math::point::Point3<re::render::Model> = mk();
+    let b: re::math::point::Point3<re::render::World> = mk();
+    let _r: re::math::point::Point3<()> = a - b;
+}
+
+pub fn p1012() {
+    let a: re::math::point::Point3<re::render::Model> = mk();
+    let b: re::math::point::Point3<re::render::World> = mk();
+    let c: re::math::point::Point3<()> = mk();
+    let d = re::math::space::Affine::sub(&a, &b);
+    let _ = re::math::space::Affine::add(&c, &d);
+}
+
+pub fn p1013() {
+    let a: re::math::point::Point3<re::render::Model> = mk();
+    let b: re::math::point::Point3<re::render::World> = mk();
+    let _r: re::math::point::Point3<re::render::World> = a - b;
+}
+
+pub fn p1014() {
+    let a: re::math::point::Point3<re::render::Model> = mk();
+    let b: re::math::point::Point3<re::render::World> = mk();
+    let c: re::math::point::Point3<re::render::World> = mk();
+    let d = re::math::space::Affine::sub(&a, &b);
+    let _ = re::math::space::Affine::add(&c, &d);
+}
+
+pub fn p1015() {
+    let a: re::math::point::Point3<re::render::Model> = mk();
+    let b: re::math::point::Point3<re::render::World> = mk();
+    let _r: re::math::vec::Vec3<re::render::Model> = a - b;
+}
+
+pub fn p1016() {
+    let a: re::math::point::Point3<re::render::Model> = mk();
+    let b: re::math::point::Point3<re::render::World> = mk();
+    let _r: re::math::vec::Vec3<()> = a - b;
+}
+
+pub fn p1017() {
+    let a: re::math::point::Point3<re::render::Model> = mk();
+    let b: re::math::point::Point3<re::render::World> = mk();
+    let _r: re::math::vec::Vec3<re::render::World> = a - b;
+}
+
+pub fn p1018() {
+    let a: re::math::point::Point3<re::render::Model> = mk();
+    let b: re::math::point::Point3<re::render::World> = mk();
+    let _ = a + b;
+}
+
+pub fn p1019() {
+    let a: re::math::point::Point3<re::render::Model> = mk();
+    let b: re::math::point::Point3<re::render::World> = mk();
+    let _ = re::math::Lerp::lerp(&a, &b, 0.5);
+}
+
+pub fn p1020() {
+    let a: re::math::point::Point3<re::render::Model> = mk();
+    let b: re::math::point::Point3<re::render::World> = mk();
+    let _ = a - b;
+}
+
+pub fn p1021() {
+    let a: re::math::point::Point3<re::render::Model> = mk();
+    let b: re::math::vec::Vec2<re::render::Model> = mk();
+    let _ = a + b;
+}
+
+pub fn p1022() {
+    let a: re::math::point::Point3<re::render::Model> = mk();
     let b: re::math::vec::Vec2<()> = mk();
     let _ = a + b;
 }
 
-pub fn p984() {
+pub fn p1023() {
     let a: re::math::point::Point3<re::render::Model> = mk();
     let b: re::math::vec::Vec2<re::render::World> = mk();
     let _ = a + b;
 }
 
-pub fn p986() {
+pub fn p1025() {
     let a: re::math::point::Point3<re::render::Model> = mk();
     let b: re::math::vec::Vec3<()> = mk();
     let _ = a + b;
 }
 
-pub fn p987() {
+pub fn p1026() {
     let a: re::math::point::Point3<re::render::Model> = mk();
     let b: re::math::vec::Vec3<re::render::World> = mk();
     let _ = a + b;
 }
 
-pub fn p988() {
+pub fn p1027() {
     use re::geom::{Tri, Vertex};
     let vs = |_: Vertex<re::math::point::Point3<re::render::Model>, ()>, _: ()| -> Vertex<re::math::point::Point3<re::render::Model>, f32> { mk() };
     let fs = |_: re::render::raster::Frag<f32>| -> Option<re::math::color::Color4> { mk() };
@@ -4771,437 +4855,437 @@ pub fn p988() {
     re::render::render(&tris, &verts, &sh, (), mk(), &mut target, &mk::<re::render::Context>());
 }
 
-pub fn p989() {
-    let a: re::math::point::Point3<()> = mk();
-    let b: re::math::point::Point2<re::render::Model> = mk();
-    let _ = a + b;
-}
-
-pub fn p990() {
-    let a: re::math::point::Point3<()> = mk();
-    let b: re::math::point::Point2<re::render::Model> = mk();
-    let _ = re::math::Lerp::lerp(&a, &b, 0.5);
-}
-
-pub fn p991() {
-    let a: re::math::point::Point3<()> = mk();
-    let b: re::math::point::Point2<re::render::Model> = mk();
-    let _ = a - b;
-}
-
-pub fn p992() {
-    let a: re::math::point::Point3<()> = mk();
-    let b: re::math::point::Point2<()> = mk();
-    let _ = a + b;
-}
-
-pub fn p993() {
-    let a: re::math::point::Point3<()> = mk();
-    let b: re::math::point::Point2<()> = mk();
-    let _ = re::math::Lerp::lerp(&a, &b, 0.5);
-}
-
-pub fn p994() {
-    let a: re::math::point::Point3<()> = mk();
-    let b: re::math::point::Point2<()> = mk();
-    let _ = a - b;
-}
-
-pub fn p995() {
-    let a: re::math::point::Point3<()> = mk();
-    let b: re::math::point::Point2<re::render::World> = mk();
-    let _ = a + b;
-}
-
-pub fn p996() {
-    let a: re::math::point::Point3<()> = mk();
-    let b: re::math::point::Point2<re::render::World> = mk();
-    let _ = re::math::Lerp::lerp(&a, &b, 0.5);
-}
-
-pub fn p997() {
-    let a: re::math::point::Point3<()> = mk();
-    let b: re::math::point::Point2<re::render::World> = mk();
-    let _ = a - b;
-}
-
-pub fn p998() {
-    let a: re::math::point::Point3<()> = mk();
-    let b: re::math::point::Point3<re::render::Model> = mk();
-    let _r: re::math::point::Point3<re::render::Model> = a - b;
-}
-
-pub fn p999() {
-    let a: re::math::point::Point3<()> = mk();
-    let b: re::math::point::Point3<re::render::Model> = mk();
-    let c: re::math::point::Point3<re::render::Model> = mk();
-    let d = re::math::space::Affine::sub(&a, &b);
-    let _ = re::math::space::Affine::add(&c, &d);
-}
-
-pub fn p1000() {
-    let a: re::math::point::Point3<()> = mk();
-    let b: re::math::point::Point3<re::render::Model> = mk();
-    let _r: re::math::point::Point3<()> = a - b;
-}
-
-pub fn p1001() {
-    let a: re::math::point::Point3<()> = mk();
-    let b: re::math::point::Point3<re::render::Model> = mk();
-    let c: re::math::point::Point3<()> = mk();
-    let d = re::math::space::Affine::sub(&a, &b);
-    let _ = re::math::space::Affine::add(&c, &d);
-}
-
-pub fn p1002() {
-    let a: re::math::point::Point3<()> = mk();
-    let b: re::math::point::Point3<re::render::Model> = mk();
-    let _r: re::math::point::Point3<re::render::World> = a - b;
-}
-
-pub fn p1003() {
-    let a: re::math::point::Point3<()> = mk();
-    let b: re::math::point::Point3<re::render::Model> = mk();
-    let c: re::math::point::Point3<re::render::World> = mk();
-    let d = re::math::space::Affine::sub(&a, &b);
-    let _ = re::math::space::Affine::add(&c, &d);
-}
-
-pub fn p1004() {
-    let a: re::math::point::Point3<()> = mk();
-    let b: re::math::point::Point3<re::render::Model> = mk();
-    let _r: re::math::vec::Vec3<re::render::Model> = a - b;
-}
-
-pub fn p1005() {
-    let a: re::math::point::Point3<()> = mk();
-    let b: re::math::point::Point3<re::render::Model> = mk();
-    let _r: re::math::vec::Vec3<()> = a - b;
-}
-
-pub fn p1006() {
-    let a: re::math::point::Point3<()> = mk();
-    let b: re::math::point::Point3<re::render::Model> = mk();
-    let _r: re::math::vec::Vec3<re::render::World> = a - b;
-}
-
-pub fn p1007() {
-    let a: re::math::point::Point3<()> = mk();
-    let b: re::math::point::Point3<re::render::Model> = mk();
-    let _ = a + b;
-}
-
-pub fn p1008() {
-    let a: re::math::point::Point3<()> = mk();
-    let b: re::math::point::Point3<re::render::Model> = mk();
-    let _ = re::math::Lerp::lerp(&a, &b, 0.5);
-}
-
-pub fn p1009() {
-    let a: re::math::point::Point3<()> = mk();
-    let b: re::math::point::Point3<re::render::Model> = mk();
-    let _ = a - b;
-}
-
-pub fn p1010() {
-    let a: re::math::point::Point3<()> = mk();
-    let b: re::math::point::Point3<()> = mk();
-    let _r: re::math::point::Point3<re::render::Model> = a - b;
-}
-
-pub fn p1011() {
-    let a: re::math::point::Point3<()> = mk();
-    let b: re::math::point::Point3<()> = mk();
-    let c: re::math::point::Point3<re::render::Model> = mk();
-    let d = re::math::space::Affine::sub(&a, &b);
-    let _ = re::math::space::Affine::add(&c, &d);
-}
-
-pub fn p1012() {
-    let a: re::math::point::Point3<()> = mk();
-    let b: re::math::point::Point3<()> = mk();
-    let _r: re::math::point::Point3<()> = a - b;
-}
-
-pub fn p1014() {
-    let a: re::math::point::Point3<()> = mk();
-    let b: re::math::point::Point3<()> = mk();
-    let _r: re::math::point::Point3<re::render::World> = a - b;
-}
-
-pub fn p1015() {
-    let a: re::math::point::Point3<()> = mk();
-    let b: re::math::point::Point3<()> = mk();
-    let c: re::math::point::Point3<re::render::World> = mk();
-    let d = re::math::space::Affine::sub(&a, &b);
-    let _ = re::math::space::Affine::add(&c, &d);
-}
-
-pub fn p1016() {
-    let a: re::math::point::Point3<()> = mk();
-    let b: re::math::point::Point3<()> = mk();
-    let _r: re::math::vec::Vec3<re::render::Model> = a - b;
-}
-
-pub fn p1018() {
-    let a: re::math::point::Point3<()> = mk();
-    let b: re::math::point::Point3<()> = mk();
-    let _r: re::math::vec::Vec3<re::render::World> = a - b;
-}
-
-pub fn p1019() {
-    let a: re::math::point::Point3<()> = mk();
-    let b: re::math::point::Point3<()> = mk();
-    let _ = a + b;
-}
-
-pub fn p1022() {
-    let a: re::math::point::Point3<()> = mk();
-    let b: re::math::point::Point3<re::render::World> = mk();
-    let _r: re::math::point::Point3<re::render::Model> = a - b;
-}
-
-pub fn p1023() {
-    let a: re::math::point::Point3<()> = mk();
-    let b: re::math::point::Point3<re::render::World> = mk();
-    let c: re::math::point::Point3<re::render::Model> = mk();
-    let d = re::math::space::Affine::sub(&a, &b);
-    let _ = re::math::space::Affine::add(&c, &d);
-}
-
-pub fn p1024() {
-    let a: re::math::point::Point3<()> = mk();
-    let b: re::math::point::Point3<re::render::World> = mk();
-    let _r: re::math::point::Point3<()> = a - b;
-}
-
-pub fn p1025() {
-    let a: re::math::point::Point3<()> = mk();
-    let b: re::math::point::Point3<re::render::World> = mk();
-    let c: re::math::point::Point3<()> = mk();
-    let d = re::math::space::Affine::sub(&a, &b);
-    let _ = re::math::space::Affine::add(&c, &d);
-}
-
-pub fn p1026() {
-    let a: re::math::point::Point3<()> = mk();
-    let b: re::math::point::Point3<re::render::World> = mk();
-    let _r: re::math::point::Point3<re::render::World> = a - b;
-}
-
-pub fn p1027() {
-    let a: re::math::point::Point3<()> = mk();
-    let b: re::math::point::Point3<re::render::World> = mk();
-    let c: re::math::point::Point3<re::render::World> = mk();
-    let d = re::math::space::Affine::sub(&a, &b);
-    let _ = re::math::space::Affine::add(&c, &d);
-}
-
 pub fn p1028() {
     let a: re::math::point::Point3<()> = mk();
-    let b: re::math::point::Point3<re::render::World> = mk();
-    let _r: re::math::vec::Vec3<re::render::Model> = a - b;
+    let b: re::math::point::Point2<re::render::Model> = mk();
+    let _ = a + b;
 }
 
 pub fn p1029() {
     let a: re::math::point::Point3<()> = mk();
-    let b: re::math::point::Point3<re::render::World> = mk();
-    let _r: re::math::vec::Vec3<()> = a - b;
+    let b: re::math::point::Point2<re::render::Model> = mk();
+    let _ = re::math::Lerp::lerp(&a, &b, 0.5);
 }
 
 pub fn p1030() {
     let a: re::math::point::Point3<()> = mk();
-    let b: re::math::point::Point3<re::render::World> = mk();
-    let _r: re::math::vec::Vec3<re::render::World> = a - b;
+    let b: re::math::point::Point2<re::render::Model> = mk();
+    let _ = a - b;
 }
 
 pub fn p1031() {
     let a: re::math::point::Point3<()> = mk();
-    let b: re::math::point::Point3<re::render::World> = mk();
+    let b: re::math::point::Point2<()> = mk();
     let _ = a + b;
 }
 
 pub fn p1032() {
     let a: re::math::point::Point3<()> = mk();
-    let b: re::math::point::Point3<re::render::World> = mk();
+    let b: re::math::point::Point2<()> = mk();
     let _ = re::math::Lerp::lerp(&a, &b, 0.5);
 }
 
 pub fn p1033() {
     let a: re::math::point::Point3<()> = mk();
-    let b: re::math::point::Point3<re::render::World> = mk();
+    let b: re::math::point::Point2<()> = mk();
     let _ = a - b;
 }
 
 pub fn p1034() {
     let a: re::math::point::Point3<()> = mk();
-    let b: re::math::vec::Vec2<re::render::Model> = mk();
+    let b: re::math::point::Point2<re::render::World> = mk();
     let _ = a + b;
 }
 
 pub fn p1035() {
     let a: re::math::point::Point3<()> = mk();
-    let b: re::math::vec::Vec2<()> = mk();
-    let _ = a + b;
+    let b: re::math::point::Point2<re::render::World> = mk();
+    let _ = re::math::Lerp::lerp(&a, &b, 0.5);
 }
 
 pub fn p1036() {
     let a: re::math::point::Point3<()> = mk();
-    let b: re::math::vec::Vec2<re::render::World> = mk();
-    let _ = a + b;
+    let b: re::math::point::Point2<re::render::World> = mk();
+    let _ = a - b;
 }
 
 pub fn p1037() {
     let a: re::math::point::Point3<()> = mk();
-    let b: re::math::vec::Vec3<re::render::Model> = mk();
-    let _ = a + b;
-}
-
-pub fn p1039() {
-    let a: re::math::point::Point3<()> = mk();
-    let b: re::math::vec::Vec3<re::render::World> = mk();
-    let _ = a + b;
-}
-
-pub fn p1040() {
-    let a: re::math::point::Point3<re::render::World> = mk();
-    let b: re::math::point::Point2<re::render::Model> = mk();
-    let _ = a + b;
-}
-
-pub fn p1041() {
-    let a: re::math::point::Point3<re::render::World> = mk();
-    let b: re::math::point::Point2<re::render::Model> = mk();
-    let _ = re::math::Lerp::lerp(&a, &b, 0.5);
-}
-
-pub fn p1042() {
-    let a: re::math::point::Point3<re::render::World> = mk();
-    let b: re::math::point::Point2<re::render::Model> = mk();
-    let _ = a - b;
-}
-
-pub fn p1043() {
-    let a: re::math::point::Point3<re::render::World> = mk();
-    let b: re::math::point::Point2<()> = mk();
-    let _ = a + b;
-}
-
-pub fn p1044() {
-    let a: re::math::point::Point3<re::render::World> = mk();
-    let b: re::math::point::Point2<()> = mk();
-    let _ = re::math::Lerp::lerp(&a, &b, 0.5);
-}
-
-pub fn p1045() {
-    let a: re::math::point::Point3<re::render::World> = mk();
-    let b: re::math::point::Point2<()> = mk();
-    let _ = a - b;
-}
-
-pub fn p1046() {
-    let a: re::math::point::Point3<re::render::World> = mk();
-    let b: re::math::point::Point2<re::render::World> = mk();
-    let _ = a + b;
-}
-
-pub fn p1047() {
-    let a: re::math::point::Point3<re::render::World> = mk();
-    let b: re::math::point::Point2<re::render::World> = mk();
-    let _ = re::math::Lerp::lerp(&a, &b, 0.5);
-}
-
-pub fn p1048() {
-    let a: re::math::point::Point3<re::render::World> = mk();
-    let b: re::math::point::Point2<re::render::World> = mk();
-    let _ = a - b;
-}
-
-pub fn p1049() {
-    let a: re::math::point::Point3<re::render::World> = mk();
     let b: re::math::point::Point3<re::render::Model> = mk();
     let _r: re::math::point::Point3<re::render::Model> = a - b;
 }
 
-pub fn p1050() {
-    let a: re::math::point::Point3<re::render::World> = mk();
+pub fn p1038() {
+    let a: re::math::point::Point3<()> = mk();
     let b: re::math::point::Point3<re::render::Model> = mk();
+    let c: re::math::point::Point3<re::render::Model> = mk();
+    let d = re::math::space::Affine::sub(&a, &b);
+    let _ = re::math::space::Affine::add(&c, &d);
+}
+
+pub fn p1039() {
+    let a: re::math::point::Point3<()> = mk();
+    let b: re::math::point::Point3<re::render::Model> = mk();
+    let _r: re::math::point::Point3<()> = a - b;
+}
+
+pub fn p1040() {
+    let a: re::math::point::Point3<()> = mk();
+    let b: re::math::point::Point3<re::render::Model> = mk();
+    let c: re::math::point::Point3<()> = mk();
+    let d = re::math::space::Affine::sub(&a, &b);
+    let _ = re::math::space::Affine::add(&c, &d);
+}
+
+pub fn p1041() {
+    let a: re::math::point::Point3<()> = mk();
+    let b: re::math::point::Point3<re::render::Model> = mk();
+    let _r: re::math::point::Point3<re::render::World> = a - b;
+}
+
+pub fn p1042() {
+    let a: re::math::point::Point3<()> = mk();
+    let b: re::math::point::Point3<re::render::Model> = mk();
+    let c: re::math::point::Point3<re::render::World> = mk();
+    let d = re::math::space::Affine::sub(&a, &b);
+    let _ = re::math::space::Affine::add(&c, &d);
+}
+
+pub fn p1043() {
+    let a: re::math::point::Point3<()> = mk();
+    let b: re::math::point::Point3<re::render::Model> = mk();
+    let _r: re::math::vec::Vec3<re::render::Model> = a - b;
+}
+
+pub fn p1044() {
+    let a: re::math::point::Point3<()> = mk();
+    let b: re::math::point::Point3<re::render::Model> = mk();
+    let _r: re::math::vec::Vec3<()> = a - b;
+}
+
+pub fn p1045() {
+    let a: re::math::point::Point3<()> = mk();
+    let b: re::math::point::Point3<re::render::Model> = mk();
+    let _r: re::math::vec::Vec3<re::render::World> = a - b;
+}
+
+pub fn p1046() {
+    let a: re::math::point::Point3<()> = mk();
+    let b: re::math::point::Point3<re::render::Model> = mk();
+    let _ = a + b;
+}
+
+pub fn p1047() {
+    let a: re::math::point::Point3<()> = mk();
+    let b: re::math::point::Point3<re::render::Model> = mk();
+    let _ = re::math::Lerp::lerp(&a, &b, 0.5);
+}
+
+pub fn p1048() {
+    let a: re::math::point::Point3<()> = mk();
+    let b: re::math::point::Point3<re::render::Model> = mk();
+    let _ = a - b;
+}
+
+pub fn p1049() {
+    let a: re::math::point::Point3<()> = mk();
+    let b: re::math::point::Point3<()> = mk();
+    let _r: re::math::point::Point3<re::render::Model> = a - b;
+}
+
+pub fn p1050() {
+    let a: re::math::point::Point3<()> = mk();
+    let b: re::math::point::Point3<()> = mk();
     let c: re::math::point::Point3<re::render::Model> = mk();
     let d = re::math::space::Affine::sub(&a, &b);
     let _ = re::math::space::Affine::add(&c, &d);
 }
 
 pub fn p1051() {
-    let a: re::math::point::Point3<re::render::World> = mk();
-    let b: re::math::point::Point3<re::render::Model> = mk();
+    let a: re::math::point::Point3<()> = mk();
+    let b: re::math::point::Point3<()> = mk();
     let _r: re::math::point::Point3<()> = a - b;
 }
 
-pub fn p1052() {
-    let a: re::math::point::Point3<re::render::World> = mk();
-    let b: re::math::point::Point3<re::render::Model> = mk();
-    let c: re::math::point::Point3<()> = mk();
-    let d = re::math::space::Affine::sub(&a, &b);
-    let _ = re::math::space::Affine::add(&c, &d);
-}
-
 pub fn p1053() {
-    let a: re::math::point::Point3<re::render::World> = mk();
-    let b: re::math::point::Point3<re::render::Model> = mk();
+    let a: re::math::point::Point3<()> = mk();
+    let b: re::math::point::Point3<()> = mk();
     let _r: re::math::point::Point3<re::render::World> = a - b;
 }
 
 pub fn p1054() {
-    let a: re::math::point::Point3<re::render::World> = mk();
-    let b: re::math::point::Point3<re::render::Model> = mk();
+    let a: re::math::point::Point3<()> = mk();
+    let b: re::math::point::Point3<()> = mk();
     let c: re::math::point::Point3<re::render::World> = mk();
     let d = re::math::space::Affine::sub(&a, &b);
     let _ = re::math::space::Affine::add(&c, &d);
 }
 
 pub fn p1055() {
+    let a: re::math::point::Point3<()> = mk();
+    let b: re::math::point::Point3<()> = mk();
+    let _r: re::math::vec::Vec3<re::render::Model> = a - b;
+}
+
+pub fn p1057() {
+    let a: re::math::point::Point3<()> = mk();
+    let b: re::math::point::Point3<()> = mk();
+    let _r: re::math::vec::Vec3<re::render::World> = a - b;
+}
+
+pub fn p1058() {
+    let a: re::math::point::Point3<()> = mk();
+    let b: re::math::point::Point3<()> = mk();
+    let _ = a + b;
+}
+
+pub fn p1061() {
+    let a: re::math::point::Point3<()> = mk();
+    let b: re::math::point::Point3<re::render::World> = mk();
+    let _r: re::math::point::Point3<re::render::Model> = a - b;
+}
+
+pub fn p1062() {
+    let a: re::math::point::Point3<()> = mk();
+    let b: re::math::point::Point3<re::render::World> = mk();
+    let c: re::math::point::Point3<re::render::Model> = mk();
+    let d = re::math::space::Affine::sub(&a, &b);
+    let _ = re::math::space::Affine::add(&c, &d);
+}
+
+pub fn p1063() {
+    let a: re::math::point::Point3<()> = mk();
+    let b: re::math::point::Point3<re::render::World> = mk();
+    let _r: re::math::point::Point3<()> = a - b;
+}
+
+pub fn p1064() {
+    let a: re::math::point::Point3<()> = mk();
+    let b: re::math::point::Point3<re::render::World> = mk();
+    let c: re::math::point::Point3<()> = mk();
+    let d = re::math::space::Affine::sub(&a, &b);
+    let _ = re::math::space::Affine::add(&c, &d);
+}
+
+pub fn p1065() {
+    let a: re::math::point::Point3<()> = mk();
+    let b: re::math::point::Point3<re::render::World> = mk();
+    let _r: re::math::point::Point3<re::render::World> = a - b;
+}
+
+pub fn p1066() {
+    let a: re::math::point::Point3<()> = mk();
+    let b: re::math::point::Point3<re::render::World> = mk();
+    let c: re::math::point::Point3<re::render::World> = mk();
+    let d = re::math::space::Affine::sub(&a, &b);
+    let _ = re::math::space::Affine::add(&c, &d);
+}
+
+pub fn p1067() {
+    let a: re::math::point::Point3<()> = mk();
+    let b: re::math::point::Point3<re::render::World> = mk();
+    let _r: re::math::vec::Vec3<re::render::Model> = a - b;
+}
+
+pub fn p1068() {
+    let a: re::math::point::Point3<()> = mk();
+    let b: re::math::point::Point3<re::render::World> = mk();
+    let _r: re::math::vec::Vec3<()> = a - b;
+}
+
+pub fn p1069() {
+    let a: re::math::point::Point3<()> = mk();
+    let b: re::math::point::Point3<re::render::World> = mk();
+    let _r: re::math::vec::Vec3<re::render::World> = a - b;
+}
+
+pub fn p1070() {
+    let a: re::math::point::Point3<()> = mk();
+    let b: re::math::point::Point3<re::render::World> = mk();
+    let _ = a + b;
+}
+
+pub fn p1071() {
+    let a: re::math::point::Point3<()> = mk();
+    let b: re::math::point::Point3<re::render::World> = mk();
+    let _ = re::math::Lerp::lerp(&a, &b, 0.5);
+}
+
+pub fn p1072() {
+    let a: re::math::point::Point3<()> = mk();
+    let b: re::math::point::Point3<re::render::World> = mk();
+    let _ = a - b;
+}
+
+pub fn p1073() {
+    let a: re::math::point::Point3<()> = mk();
+    let b: re::math::vec::Vec2<re::render::Model> = mk();
+    let _ = a + b;
+}
+
+pub fn p1074() {
+    let a: re::math::point::Point3<()> = mk();
+    let b: re::math::vec::Vec2<()> = mk();
+    let _ = a + b;
+}
+
+pub fn p1075() {
+    let a: re::math::point::Point3<()> = mk();
+    let b: re::math::vec::Vec2<re::render::World> = mk();
+    let _ = a + b;
+}
+
+pub fn p1076() {
+    let a: re::math::point::Point3<()> = mk();
+    let b: re::math::vec::Vec3<re::render::Model> = mk();
+    let _ = a + b;
+}
+
+pub fn p1078() {
+    let a: re::math::point::Point3<()> = mk();
+    let b: re::math::vec::Vec3<re::render::World> = mk();
+    let _ = a + b;
+}
+
+pub fn p1079() {
+    let a: re::math::point::Point3<re::render::World> = mk();
+    let b: re::math::point::Point2<re::render::Model> = mk();
+    let _ = a + b;
+}
+
+pub fn p1080() {
+    let a: re::math::point::Point3<re::render::World> = mk();
+    let b: re::math::point::Point2<re::render::Model> = mk();
+    let _ = re::math::Lerp::lerp(&a, &b, 0.5);
+}
+
+pub fn p1081() {
+    let a: re::math::point::Point3<re::render::World> = mk();
+    let b: re::math::point::Point2<re::render::Model> = mk();
+    let _ = a - b;
+}
+
+pub fn p1082() {
+    let a: re::math::point::Point3<re::render::World> = mk();
+    let b: re::math::point::Point2<()> = mk();
+    let _ = a + b;
+}
+
+pub fn p1083() {
+    let a: re::math::point::Point3<re::render::World> = mk();
+    let b: re::math::point::Point2<()> = mk();
+    let _ = re::math::Lerp::lerp(&a, &b, 0.5);
+}
+
+pub fn p1084() {
+    let a: re::math::point::Point3<re::render::World> = mk();
+    let b: re::math::point::Point2<()> = mk();
+    let _ = a - b;
+}
+
+pub fn p1085() {
+    let a: re::math::point::Point3<re::render::World> = mk();
+    let b: re::math::point::Point2<re::render::World> = mk();
+    let _ = a + b;
+}
+
+pub fn p1086() {
+    let a: re::math::point::Point3<re::render::World> = mk();
+    let b: re::math::point::Point2<re::render::World> = mk();
+    let _ = re::math::Lerp::lerp(&a, &b, 0.5);
+}
+
+pub fn p1087() {
+    let a: re::math::point::Point3<re::render::World> = mk();
+    let b: re::math::point::Point2<re::render::World> = mk();
+    let _ = a - b;
+}
+
+pub fn p1088() {
+    let a: re::math::point::Point3<re::render::World> = mk();
+    let b: re::math::point::Point3<re::render::Model> = mk();
+    let _r: re::math::point::Point3<re::render::Model> = a - b;
+}
+
+pub fn p1089() {
+    let a: re::math::point::Point3<re::render::World> = mk();
+    let b: re::math::point::Point3<re::render::Model> = mk();
+    let c: re::math::point::Point3<re::render::Model> = mk();
+    let d = re::math::space::Affine::sub(&a, &b);
+    let _ = re::math::space::Affine::add(&c, &d);
+}
+
+pub fn p1090() {
+    let a: re::math::point::Point3<re::render::World> = mk();
+    let b: re::math::point::Point3<re::render::Model> = mk();
+    let _r: re::math::point::Point3<()> = a - b;
+}
+
+pub fn p1091() {
+    let a: re::math::point::Point3<re::render::World> = mk();
+    let b: re::math::point::Point3<re::render::Model> = mk();
+    let c: re::math::point::Point3<()> = mk();
+    let d = re::math::space::Affine::sub(&a, &b);
+    let _ = re::math::space::Affine::add(&c, &d);
+}
+
+pub fn p1092() {
+    let a: re::math::point::Point3<re::render::World> = mk();
+    let b: re::math::point::Point3<re::render::Model> = mk();
+    let _r: re::math::point::Point3<re::render::World> = a - b;
+}
+
+pub fn p1093() {
+    let a: re::math::point::Point3<re::render::World> = mk();
+    let b: re::math::point::Point3<re::render::Model> = mk();
+    let c: re::math::point::Point3<re::render::World> = mk();
+    let d = re::math::space::Affine::sub(&a, &b);
+    let _ = re::math::space::Affine::add(&c, &d);
+}
+
+pub fn p1094() {
     let a: re::math::point::Point3<re::render::World> = mk();
     let b: re::math::point::Point3<re::render::Model> = mk();
     let _r: re::math::vec::Vec3<re::render::Model> = a - b;
 }
 
-pub fn p1056() {
+pub fn p1095() {
     let a: re::math::point::Point3<re::render::World> = mk();
     let b: re::math::point::Point3<re::render::Model> = mk();
     let _r: re::math::vec::Vec3<()> = a - b;
 }
 
-pub fn p1057() {
+pub fn p1096() {
     let a: re::math::point::Point3<re::render::World> = mk();
     let b: re::math::point::Point3<re::render::Model> = mk();
     let _r: re::math::vec::Vec3<re::render::World> = a - b;
 }
 
-pub fn p1058() {
+pub fn p1097() {
     let a: re::math::point::Point3<re::render::World> = mk();
     let b: re::math::point::Point3<re::render::Model> = mk();
     let _ = a + b;
 }
 
-pub fn p1059() {
+pub fn p1098() {
     let a: re::math::point::Point3<re::render::World> = mk();
     let b: re::math::point::Point3<re::render::Model> = mk();
     let _ = re::math::Lerp::lerp(&a, &b, 0.5);
 }
 
-pub fn p1060() {
+pub fn p1099() {
     let a: re::math::point::Point3<re::render::World> = mk();
     let b: re::math::point::Point3<re::render::Model> = mk();
     let _ = a - b;
 }
 
-pub fn p1061() {
+pub fn p1100() {
     let a: re::math::point::Point3<re::render::World> = mk();
     let b: re::math::point::Point3<()> = mk();
     let _r: re::math::point::Point3<re::render::Model> = a - b;
 }
 
-pub fn p1062() {
+pub fn p1101() {
     let a: re::math::point::Point3<re::render::World> = mk();
     let b: re::math::point::Point3<()> = mk();
     let c: re::math::point::Point3<re::render::Model> = mk();
@@ -5209,13 +5293,13 @@ pub fn p1062() {
     let _ = re::math::space::Affine::add(&c, &d);
 }
 
-pub fn p1063() {
+pub fn p1102() {
     let a: re::math::point::Point3<re::render::World> = mk();
     let b: re::math::point::Point3<()> = mk();
     let _r: re::math::point::Point3<()> = a - b;
 }
 
-pub fn p1064() {
+pub fn p1103() {
     let a: re::math::point::Point3<re::render::World> = mk();
     let b: re::math::point::Point3<()> = mk();
     let c: re::math::point::Point3<()> = mk();
@@ -5223,13 +5307,13 @@ pub fn p1064() {
     let _ = re::math::space::Affine::add(&c, &d);
 }
 
-pub fn p1065() {
+pub fn p1104() {
     let a: re::math::point::Point3<re::render::World> = mk();
     let b: re::math::point::Point3<()> = mk();
     let _r: re::math::point::Point3<re::render::World> = a - b;
 }
 
-pub fn p1066() {
+pub fn p1105() {
     let a: re::math::point::Point3<re::render::World> = mk();
     let b: re::math::point::Point3<()> = mk();
     let c: re::math::point::Point3<re::render::World> = mk();
@@ -5237,49 +5321,49 @@ pub fn p1066() {
     let _ = re::math::space::Affine::add(&c, &d);
 }
 
-pub fn p1067() {
+pub fn p1106() {
     let a: re::math::point::Point3<re::render::World> = mk();
     let b: re::math::point::Point3<()> = mk();
     let _r: re::math::vec::Vec3<re::render::Model> = a - b;
 }
 
-pub fn p1068() {
+pub fn p1107() {
     let a: re::math::point::Point3<re::render::World> = mk();
     let b: re::math::point::Point3<()> = mk();
     let _r: re::math::vec::Vec3<()> = a - b;
 }
 
-pub fn p1069() {
+pub fn p1108() {
     let a: re::math::point::Point3<re::render::World> = mk();
     let b: re::math::point::Point3<()> = mk();
     let _r: re::math::vec::Vec3<re::render::World> = a - b;
 }
 
-pub fn p1070() {
+pub fn p1109() {
     let a: re::math::point::Point3<re::render::World> = mk();
     let b: re::math::point::Point3<()> = mk();
     let _ = a + b;
 }
 
-pub fn p1071() {
+pub fn p1110() {
     let a: re::math::point::Point3<re::render::World> = mk();
     let b: re::math::point::Point3<()> = mk();
     let _ = re::math::Lerp::lerp(&a, &b, 0.5);
 }
 
-pub fn p1072() {
+pub fn p1111() {
     let a: re::math::point::Point3<re::render::World> = mk();
     let b: re::math::point::Point3<()> = mk();
     let _ = a - b;
 }
 
-pub fn p1073() {
+pub fn p1112() {
     let a: re::math::point::Point3<re::render::World> = mk();
     let b: re::math::point::Point3<re::render::World> = mk();
     let _r: re::math::point::Point3<re::render::Model> = a - b;
 }
 
-pub fn p1074() {
+pub fn p1113() {
     let a: re::math::point::Point3<re::render::World> = mk();
     let b: re::math::point::Point3<re::render::World> = mk();
     let c: re::math::point::Point3<re::render::Model> = mk();
@@ -5287,13 +5371,13 @@ pub fn p1074() {
     let _ = re::math::space::Affine::add(&c, &d);
 }
 
-pub fn p1075() {
+pub fn p1114() {
     let a: re::math::point::Point3<re::render::World> = mk();
     let b: re::math::point::Point3<re::render::World> = mk();
     let _r: re::math::point::Point3<()> = a - b;
 }
 
-pub fn p1076() {
+pub fn p1115() {
     let a: re::math::point::Point3<re::render::World> = mk();
     let b: re::math::point::Point3<re::render::World> = mk();
     let c: re::math::point::Point3<()> = mk();
@@ -5301,685 +5385,685 @@ pub fn p1076() {
     let _ = re::math::space::Affine::add(&c, &d);
 }
 
-pub fn p1077() {
+pub fn p1116() {
     let a: re::math::point::Point3<re::render::World> = mk();
     let b: re::math::point::Point3<re::render::World> = mk();
     let _r: re::math::point::Point3<re::render::World> = a - b;
 }
 
-pub fn p1079() {
+pub fn p1118() {
     let a: re::math::point::Point3<re::render::World> = mk();
     let b: re::math::point::Point3<re::render::World> = mk();
     let _r: re::math::vec::Vec3<re::render::Model> = a - b;
 }
 
-pub fn p1080() {
+pub fn p1119() {
     let a: re::math::point::Point3<re::render::World> = mk();
     let b: re::math::point::Point3<re::render::World> = mk();
     let _r: re::math::vec::Vec3<()> = a - b;
 }
 
-pub fn p1082() {
-    let a: re::math::point::Point3<re::render::World> = mk();
-    let b: re::math::point::Point3<re::render::World> = mk();
-    let _ = a + b;
-}
-
-pub fn p1085() {
-    let a: re::math::point::Point3<re::render::World> = mk();
-    let b: re::math::vec::Vec2<re::render::Model> = mk();
-    let _ = a + b;
-}
-
-pub fn p1086() {
-    let a: re::math::point::Point3<re::render::World> = mk();
-    let b: re::math::vec::Vec2<()> = mk();
-    let _ = a + b;
-}
-
-pub fn p1087() {
-    let a: re::math::point::Point3<re::render::World> = mk();
-    let b: re::math::vec::Vec2<re::render::World> = mk();
-    let _ = a + b;
-}
-
-pub fn p1088() {
-    let a: re::math::point::Point3<re::render::World> = mk();
-    let b: re::math::vec::Vec3<re::render::Model> = mk();
-    let _ = a + b;
-}
-
-pub fn p1089() {
-    let a: re::math::point::Point3<re::render::World> = mk();
-    let b: re::math::vec::Vec3<()> = mk();
-    let _ = a + b;
-}
-
-pub fn p1091() {
-    let a: re::math::vec::Vec2<re::render::Model> = mk();
-    let b: re::math::point::Point2<re::render::Model> = mk();
-    let _ = re::math::Lerp::lerp(&a, &b, 0.5);
-}
-
-pub fn p1092() {
-    let a: re::math::vec::Vec2<re::render::Model> = mk();
-    let b: re::math::point::Point2<()> = mk();
-    let _ = re::math::Lerp::lerp(&a, &b, 0.5);
-}
-
-pub fn p1093() {
-    let a: re::math::vec::Vec2<re::render::Model> = mk();
-    let b: re::math::point::Point2<re::render::World> = mk();
-    let _ = re::math::Lerp::lerp(&a, &b, 0.5);
-}
-
-pub fn p1094() {
-    let a: re::math::vec::Vec2<re::render::Model> = mk();
-    let b: re::math::point::Point3<re::render::Model> = mk();
-    let _ = re::math::Lerp::lerp(&a, &b, 0.5);
-}
-
-pub fn p1095() {
-    let a: re::math::vec::Vec2<re::render::Model> = mk();
-    let b: re::math::point::Point3<()> = mk();
-    let _ = re::math::Lerp::lerp(&a, &b, 0.5);
-}
-
-pub fn p1096() {
-    let a: re::math::vec::Vec2<re::render::Model> = mk();
-    let b: re::math::point::Point3<re::render::World> = mk();
-    let _ = re::math::Lerp::lerp(&a, &b, 0.5);
-}
-
-pub fn p1101() {
-    let a: re::math::vec::Vec2<re::render::Model> = mk();
-    let b: re::math::vec::Vec2<()> = mk();
-    let _ = a + b;
-}
-
-pub fn p1102() {
-    let a: re::math::vec::Vec2<re::render::Model> = mk();
-    let b: re::math::vec::Vec2<()> = mk();
-    let _ = a.dot(&b);
-}
-
-pub fn p1103() {
-    let a: re::math::vec::Vec2<re::render::Model> = mk();
-    let b: re::math::vec::Vec2<()> = mk();
-    let _ = re::math::Lerp::lerp(&a, &b, 0.5);
-}
-
-pub fn p1104() {
-    let a: re::math::vec::Vec2<re::render::Model> = mk();
-    let b: re::math::vec::Vec2<()> = mk();
-    let _ = a - b;
-}
-
-pub fn p1105() {
-    let a: re::math::vec::Vec2<re::render::Model> = mk();
-    let b: re::math::vec::Vec2<re::render::World> = mk();
-    let _ = a + b;
-}
-
-pub fn p1106() {
-    let a: re::math::vec::Vec2<re::render::Model> = mk();
-    let b: re::math::vec::Vec2<re::render::World> = mk();
-    let _ = a.dot(&b);
-}
-
-pub fn p1107() {
-    let a: re::math::vec::Vec2<re::render::Model> = mk();
-    let b: re::math::vec::Vec2<re::render::World> = mk();
-    let _ = re::math::Lerp::lerp(&a, &b, 0.5);
-}
-
-pub fn p1108() {
-    let a: re::math::vec::Vec2<re::render::Model> = mk();
-    let b: re::math::vec::Vec2<re::render::World> = mk();
-    let _ = a - b;
-}
-
-pub fn p1109() {
-    let a: re::math::vec::Vec2<re::render::Model> = mk();
-    let b: re::math::vec::Vec3<re::render::Model> = mk();
-    let _ = a + b;
-}
-
-pub fn p1110() {
-    let a: re::math::vec::Vec2<re::render::Model> = mk();
-    let b: re::math::vec::Vec3<re::render::Model> = mk();
-    let _ = a.dot(&b);
-}
-
-pub fn p1111() {
-    let a: re::math::vec::Vec2<re::render::Model> = mk();
-    let b: re::math::vec::Vec3<re::render::Model> = mk();
-    let _ = re::math::Lerp::lerp(&a, &b, 0.5);
-}
-
-pub fn p1112() {
-    let a: re::math::vec::Vec2<re::render::Model> = mk();
-    let b: re::math::vec::Vec3<re::render::Model> = mk();
-    let _ = a - b;
-}
-
-pub fn p1113() {
-    let a: re::math::vec::Vec2<re::render::Model> = mk();
-    let b: re::math::vec::Vec3<()> = mk();
-    let _ = a + b;
-}
-
-pub fn p1114() {
-    let a: re::math::vec::Vec2<re::render::Model> = mk();
-    let b: re::math::vec::Vec3<()> = mk();
-    let _ = a.dot(&b);
-}
-
-pub fn p1115() {
-    let a: re::math::vec::Vec2<re::render::Model> = mk();
-    let b: re::math::vec::Vec3<()> = mk();
-    let _ = re::math::Lerp::lerp(&a, &b, 0.5);
-}
-
-pub fn p1116() {
-    let a: re::math::vec::Vec2<re::render::Model> = mk();
-    let b: re::math::vec::Vec3<()> = mk();
-    let _ = a - b;
-}
-
-pub fn p1117() {
-    let a: re::math::vec::Vec2<re::render::Model> = mk();
-    let b: re::math::vec::Vec3<re::render::World> = mk();
-    let _ = a + b;
-}
-
-pub fn p1118() {
-    let a: re::math::vec::Vec2<re::render::Model> = mk();
-    let b: re::math::vec::Vec3<re::render::World> = mk();
-    let _ = a.dot(&b);
-}
-
-pub fn p1119() {
-    let a: re::math::vec::Vec2<re::render::Model> = mk();
-    let b: re::math::vec::Vec3<re::render::World> = mk();
-    let _ = re::math::Lerp::lerp(&a, &b, 0.5);
-}
-
-pub fn p1120() {
-    let a: re::math::vec::Vec2<re::render::Model> = mk();
-    let b: re::math::vec::Vec3<re::render::World> = mk();
-    let _ = a - b;
-}
-
 pub fn p1121() {
-    let a: re::math::vec::Vec2<()> = mk();
-    let b: re::math::point::Point2<re::render::Model> = mk();
-    let _ = re::math::Lerp::lerp(&a, &b, 0.5);
-}
-
-pub fn p1122() {
-    let a: re::math::vec::Vec2<()> = mk();
-    let b: re::math::point::Point2<()> = mk();
-    let _ = re::math::Lerp::lerp(&a, &b, 0.5);
-}
-
-pub fn p1123() {
-    let a: re::math::vec::Vec2<()> = mk();
-    let b: re::math::point::Point2<re::render::World> = mk();
-    let _ = re::math::Lerp::lerp(&a, &b, 0.5);
+    let a: re::math::point::Point3<re::render::World> = mk();
+    let b: re::math::point::Point3<re::render::World> = mk();
+    let _ = a + b;
 }
 
 pub fn p1124() {
-    let a: re::math::vec::Vec2<()> = mk();
-    let b: re::math::point::Point3<re::render::Model> = mk();
-    let _ = re::math::Lerp::lerp(&a, &b, 0.5);
+    let a: re::math::point::Point3<re::render::World> = mk();
+    let b: re::math::vec::Vec2<re::render::Model> = mk();
+    let _ = a + b;
 }
 
 pub fn p1125() {
-    let a: re::math::vec::Vec2<()> = mk();
-    let b: re::math::point::Point3<()> = mk();
-    let _ = re::math::Lerp::lerp(&a, &b, 0.5);
+    let a: re::math::point::Point3<re::render::World> = mk();
+    let b: re::math::vec::Vec2<()> = mk();
+    let _ = a + b;
 }
 
 pub fn p1126() {
-    let a: re::math::vec::Vec2<()> = mk();
-    let b: re::math::point::Point3<re::render::World> = mk();
-    let _ = re::math::Lerp::lerp(&a, &b, 0.5);
+    let a: re::math::point::Point3<re::render::World> = mk();
+    let b: re::math::vec::Vec2<re::render::World> = mk();
+    let _ = a + b;
 }
 
 pub fn p1127() {
-    let a: re::math::vec::Vec2<()> = mk();
-    let b: re::math::vec::Vec2<re::render::Model> = mk();
+    let a: re::math::point::Point3<re::render::World> = mk();
+    let b: re::math::vec::Vec3<re::render::Model> = mk();
     let _ = a + b;
 }
 
 pub fn p1128() {
-    let a: re::math::vec::Vec2<()> = mk();
-    let b: re::math::vec::Vec2<re::render::Model> = mk();
-    let _ = a.dot(&b);
-}
-
-pub fn p1129() {
-    let a: re::math::vec::Vec2<()> = mk();
-    let b: re::math::vec::Vec2<re::render::Model> = mk();
-    let _ = re::math::Lerp::lerp(&a, &b, 0.5);
+    let a: re::math::point::Point3<re::render::World> = mk();
+    let b: re::math::vec::Vec3<()> = mk();
+    let _ = a + b;
 }
 
 pub fn p1130() {
-    let a: re::math::vec::Vec2<()> = mk();
-    let b: re::math::vec::Vec2<re::render::Model> = mk();
-    let _ = a - b;
-}
-
-pub fn p1135() {
-    let a: re::math::vec::Vec2<()> = mk();
-    let b: re::math::vec::Vec2<re::render::World> = mk();
-    let _ = a + b;
-}
-
-pub fn p1136() {
-    let a: re::math::vec::Vec2<()> = mk();
-    let b: re::math::vec::Vec2<re::render::World> = mk();
-    let _ = a.dot(&b);
-}
-
-pub fn p1137() {
-    let a: re::math::vec::Vec2<()> = mk();
-    let b: re::math::vec::Vec2<re::render::World> = mk();
-    let _ = re::math::Lerp::lerp(&a, &b, 0.5);
-}
-
-pub fn p1138() {
-    let a: re::math::vec::Vec2<()> = mk();
-    let b: re::math::vec::Vec2<re::render::World> = mk();
-    let _ = a - b;
-}
-
-pub fn p1139() {
-    let a: re::math::vec::Vec2<()> = mk();
-    let b: re::math::vec::Vec3<re::render::Model> = mk();
-    let _ = a + b;
-}
-
-pub fn p1140() {
-    let a: re::math::vec::Vec2<()> = mk();
-    let b: re::math::vec::Vec3<re::render::Model> = mk();
-    let _ = a.dot(&b);
-}
-
-pub fn p1141() {
-    let a: re::math::vec::Vec2<()> = mk();
-    let b: re::math::vec::Vec3<re::render::Model> = mk();
-    let _ = re::math::Lerp::lerp(&a, &b, 0.5);
-}
-
-pub fn p1142() {
-    let a: re::math::vec::Vec2<()> = mk();
-    let b: re::math::vec::Vec3<re::render::Model> = mk();
-    let _ = a - b;
-}
-
-pub fn p1143() {
-    let a: re::math::vec::Vec2<()> = mk();
-    let b: re::math::vec::Vec3<()> = mk();
-    let _ = a + b;
-}
-
-pub fn p1144() {
-    let a: re::math::vec::Vec2<()> = mk();
-    let b: re::math::vec::Vec3<()> = mk();
-    let _ = a.dot(&b);
-}
-
-pub fn p1145() {
-    let a: re::math::vec::Vec2<()> = mk();
-    let b: re::math::vec::Vec3<()> = mk();
-    let _ = re::math::Lerp::lerp(&a, &b, 0.5);
-}
-
-pub fn p1146() {
-    let a: re::math::vec::Vec2<()> = mk();
-    let b: re::math::vec::Vec3<()> = mk();
-    let _ = a - b;
-}
-
-pub fn p1147() {
-    let a: re::math::vec::Vec2<()> = mk();
-    let b: re::math::vec::Vec3<re::render::World> = mk();
-    let _ = a + b;
-}
-
-pub fn p1148() {
-    let a: re::math::vec::Vec2<()> = mk();
-    let b: re::math::vec::Vec3<re::render::World> = mk();
-    let _ = a.dot(&b);
-}
-
-pub fn p1149() {
-    let a: re::math::vec::Vec2<()> = mk();
-    let b: re::math::vec::Vec3<re::render::World> = mk();
-    let _ = re::math::Lerp::lerp(&a, &b, 0.5);
-}
-
-pub fn p1150() {
-    let a: re::math::vec::Vec2<()> = mk();
-    let b: re::math::vec::Vec3<re::render::World> = mk();
-    let _ = a - b;
-}
-
-pub fn p1151() {
-    let a: re::math::vec::Vec2<re::render::World> = mk();
+    let a: re::math::vec::Vec2<re::render::Model> = mk();
     let b: re::math::point::Point2<re::render::Model> = mk();
     let _ = re::math::Lerp::lerp(&a, &b, 0.5);
 }
 
-pub fn p1152() {
-    let a: re::math::vec::Vec2<re::render::World> = mk();
+pub fn p1131() {
+    let a: re::math::vec::Vec2<re::render::Model> = mk();
     let b: re::math::point::Point2<()> = mk();
     let _ = re::math::Lerp::lerp(&a, &b, 0.5);
 }
 
-pub fn p1153() {
-    let a: re::math::vec::Vec2<re::render::World> = mk();
+pub fn p1132() {
+    let a: re::math::vec::Vec2<re::render::Model> = mk();
     let b: re::math::point::Point2<re::render::World> = mk();
     let _ = re::math::Lerp::lerp(&a, &b, 0.5);
 }
 
-pub fn p1154() {
-    let a: re::math::vec::Vec2<re::render::World> = mk();
+pub fn p1133() {
+    let a: re::math::vec::Vec2<re::render::Model> = mk();
     let b: re::math::point::Point3<re::render::Model> = mk();
+    let _ = re::math::Lerp::lerp(&a, &b, 0.5);
+}
+
+pub fn p1134() {
+    let a: re::math::vec::Vec2<re::render::Model> = mk();
+    let b: re::math::point::Point3<()> = mk();
+    let _ = re::math::Lerp::lerp(&a, &b, 0.5);
+}
+
+pub fn p1135() {
+    let a: re::math::vec::Vec2<re::render::Model> = mk();
+    let b: re::math::point::Point3<re::render::World> = mk();
+    let _ = re::math::Lerp::lerp(&a, &b, 0.5);
+}
+
+pub fn p1140() {
+    let a: re::math::vec::Vec2<re::render::Model> = mk();
+    let b: re::math::vec::Vec2<()> = mk();
+    let _ = a + b;
+}
+
+pub fn p1141() {
+    let a: re::math::vec::Vec2<re::render::Model> = mk();
+    let b: re::math::vec::Vec2<()> = mk();
+    let _ = a.dot(&b);
+}
+
+pub fn p1142() {
+    let a: re::math::vec::Vec2<re::render::Model> = mk();
+    let b: re::math::vec::Vec2<()> = mk();
+    let _ = re::math::Lerp::lerp(&a, &b, 0.5);
+}
+
+pub fn p1143() {
+    let a: re::math::vec::Vec2<re::render::Model> = mk();
+    let b: re::math::vec::Vec2<()> = mk();
+    let _ = a - b;
+}
+
+pub fn p1144() {
+    let a: re::math::vec::Vec2<re::render::Model> = mk();
+    let b: re::math::vec::Vec2<re::render::World> = mk();
+    let _ = a + b;
+}
+
+pub fn p1145() {
+    let a: re::math::vec::Vec2<re::render::Model> = mk();
+    let b: re::math::vec::Vec2<re::render::World> = mk();
+    let _ = a.dot(&b);
+}
+
+pub fn p1146() {
+    let a: re::math::vec::Vec2<re::render::Model> = mk();
+    let b: re::math::vec::Vec2<re::render::World> = mk();
+    let _ = re::math::Lerp::lerp(&a, &b, 0.5);
+}
+
+pub fn p1147() {
+    let a: re::math::vec::Vec2<re::render::Model> = mk();
+    let b: re::math::vec::Vec2<re::render::World> = mk();
+    let _ = a - b;
+}
+
+pub fn p1148() {
+    let a: re::math::vec::Vec2<re::render::Model> = mk();
+    let b: re::math::vec::Vec3<re::render::Model> = mk();
+    let _ = a + b;
+}
+
+pub fn p1149() {
+    let a: re::math::vec::Vec2<re::render::Model> = mk();
+    let b: re::math::vec::Vec3<re::render::Model> = mk();
+    let _ = a.dot(&b);
+}
+
+pub fn p1150() {
+    let a: re::math::vec::Vec2<re::render::Model> = mk();
+    let b: re::math::vec::Vec3<re::render::Model> = mk();
+    let _ = re::math::Lerp::lerp(&a, &b, 0.5);
+}
+
+pub fn p1151() {
+    let a: re::math::vec::Vec2<re::render::Model> = mk();
+    let b: re::math::vec::Vec3<re::render::Model> = mk();
+    let _ = a - b;
+}
+
+pub fn p1152() {
+    let a: re::math::vec::Vec2<re::render::Model> = mk();
+    let b: re::math::vec::Vec3<()> = mk();
+    let _ = a + b;
+}
+
+pub fn p1153() {
+    let a: re::math::vec::Vec2<re::render::Model> = mk();
+    let b: re::math::vec::Vec3<()> = mk();
+    let _ = a.dot(&b);
+}
+
+pub fn p1154() {
+    let a: re::math::vec::Vec2<re::render::Model> = mk();
+    let b: re::math::vec::Vec3<()> = mk();
     let _ = re::math::Lerp::lerp(&a, &b, 0.5);
 }
 
 pub fn p1155() {
+    let a: re::math::vec::Vec2<re::render::Model> = mk();
+    let b: re::math::vec::Vec3<()> = mk();
+    let _ = a - b;
+}
+
+pub fn p1156() {
+    let a: re::math::vec::Vec2<re::render::Model> = mk();
+    let b: re::math::vec::Vec3<re::render::World> = mk();
+    let _ = a + b;
+}
+
+pub fn p1157() {
+    let a: re::math::vec::Vec2<re::render::Model> = mk();
+    let b: re::math::vec::Vec3<re::render::World> = mk();
+    let _ = a.dot(&b);
+}
+
+pub fn p1158() {
+    let a: re::math::vec::Vec2<re::render::Model> = mk();
+    let b: re::math::vec::Vec3<re::render::World> = mk();
+    let _ = re::math::Lerp::lerp(&a, &b, 0.5);
+}
+
+pub fn p1159() {
+    let a: re::math::vec::Vec2<re::render::Model> = mk();
+    let b: re::math::vec::Vec3<re::render::World> = mk();
+    let _ = a - b;
+}
+
+pub fn p1160() {
+    let a: re::math::vec::Vec2<()> = mk();
+    let b: re::math::point::Point2<re::render::Model> = mk();
+    let _ = re::math::Lerp::lerp(&a, &b, 0.5);
+}
+
+pub fn p1161() {
+    let a: re::math::vec::Vec2<()> = mk();
+    let b: re::math::point::Point2<()> = mk();
+    let _ = re::math::Lerp::lerp(&a, &b, 0.5);
+}
+
+pub fn p1162() {
+    let a: re::math::vec::Vec2<()> = mk();
+    let b: re::math::point::Point2<re::render::World> = mk();
+    let _ = re::math::Lerp::lerp(&a, &b, 0.5);
+}
+
+pub fn p1163() {
+    let a: re::math::vec::Vec2<()> = mk();
+    let b: re::math::point::Point3<re::render::Model> = mk();
+    let _ = re::math::Lerp::lerp(&a, &b, 0.5);
+}
+
+pub fn p1164() {
+    let a: re::math::vec::Vec2<()> = mk();
+    let b: re::math::point::Point3<()> = mk();
+    let _ = re::math::Lerp::lerp(&a, &b, 0.5);
+}
+
+pub fn p1165() {
+    let a: re::math::vec::Vec2<()> = mk();
+    let b: re::math::point::Point3<re::render::World> = mk();
+    let _ = re::math::Lerp::lerp(&a, &b, 0.5);
+}
+
+pub fn p1166() {
+    let a: re::math::vec::Vec2<()> = mk();
+    let b: re::math::vec::Vec2<re::render::Model> = mk();
+    let _ = a + b;
+}
+
+pub fn p1167() {
+    let a: re::math::vec::Vec2<()> = mk();
+    let b: re::math::vec::Vec2<re::render::Model> = mk();
+    let _ = a.dot(&b);
+}
+
+pub fn p1168() {
+    let a: re::math::vec::Vec2<()> = mk();
+    let b: re::math::vec::Vec2<re::render::Model> = mk();
+    let _ = re::math::Lerp::lerp(&a, &b, 0.5);
+}
+
+pub fn p1169() {
+    let a: re::math::vec::Vec2<()> = mk();
+    let b: re::math::vec::Vec2<re::render::Model> = mk();
+    let _ = a - b;
+}
+
+pub fn p1174() {
+    let a: re::math::vec::Vec2<()> = mk();
+    let b: re::math::vec::Vec2<re::render::World> = mk();
+    let _ = a + b;
+}
+
+pub fn p1175() {
+    let a: re::math::vec::Vec2<()> = mk();
+    let b: re::math::vec::Vec2<re::render::World> = mk();
+    let _ = a.dot(&b);
+}
+
+pub fn p1176() {
+    let a: re::math::vec::Vec2<()> = mk();
+    let b: re::math::vec::Vec2<re::render::World> = mk();
+    let _ = re::math::Lerp::lerp(&a, &b, 0.5);
+}
+
+pub fn p1177() {
+    let a: re::math::vec::Vec2<()> = mk();
+    let b: re::math::vec::Vec2<re::render::World> = mk();
+    let _ = a - b;
+}
+
+pub fn p1178() {
+    let a: re::math::vec::Vec2<()> = mk();
+    let b: re::math::vec::Vec3<re::render::Model> = mk();
+    let _ = a + b;
+}
+
+pub fn p1179() {
+    let a: re::math::vec::Vec2<()> = mk();
+    let b: re::math::vec::Vec3<re::render::Model> = mk();
+    let _ = a.dot(&b);
+}
+
+pub fn p1180() {
+    let a: re::math::vec::Vec2<()> = mk();
+    let b: re::math::vec::Vec3<re::render::Model> = mk();
+    let _ = re::math::Lerp::lerp(&a, &b, 0.5);
+}
+
+pub fn p1181() {
+    let a: re::math::vec::Vec2<()> = mk();
+    let b: re::math::vec::Vec3<re::render::Model> = mk();
+    let _ = a - b;
+}
+
+pub fn p1182() {
+    let a: re::math::vec::Vec2<()> = mk();
+    let b: re::math::vec::Vec3<()> = mk();
+    let _ = a + b;
+}
+
+pub fn p1183() {
+    let a: re::math::vec::Vec2<()> = mk();
+    let b: re::math::vec::Vec3<()> = mk();
+    let _ = a.dot(&b);
+}
+
+pub fn p1184() {
+    let a: re::math::vec::Vec2<()> = mk();
+    let b: re::math::vec::Vec3<()> = mk();
+    let _ = re::math::Lerp::lerp(&a, &b, 0.5);
+}
+
+pub fn p1185() {
+    let a: re::math::vec::Vec2<()> = mk();
+    let b: re::math::vec::Vec3<()> = mk();
+    let _ = a - b;
+}
+
+pub fn p1186() {
+    let a: re::math::vec::Vec2<()> = mk();
+    let b: re::math::vec::Vec3<re::render::World> = mk();
+    let _ = a + b;
+}
+
+pub fn p1187() {
+    let a: re::math::vec::Vec2<()> = mk();
+    let b: re::math::vec::Vec3<re::render::World> = mk();
+    let _ = a.dot(&b);
+}
+
+pub fn p1188() {
+    let a: re::math::vec::Vec2<()> = mk();
+    let b: re::math::vec::Vec3<re::render::World> = mk();
+    let _ = re::math::Lerp::lerp(&a, &b, 0.5);
+}
+
+pub fn p1189() {
+    let a: re::math::vec::Vec2<()> = mk();
+    let b: re::math::vec::Vec3<re::render::World> = mk();
+    let _ = a - b;
+}
+
+pub fn p1190() {
+    let a: re::math::vec::Vec2<re::render::World> = mk();
+    let b: re::math::point::Point2<re::render::Model> = mk();
+    let _ = re::math::Lerp::lerp(&a, &b, 0.5);
+}
+
+pub fn p1191() {
+    let a: re::math::vec::Vec2<re::render::World> = mk();
+    let b: re::math::point::Point2<()> = mk();
+    let _ = re::math::Lerp::lerp(&a, &b, 0.5);
+}
+
+pub fn p1192() {
+    let a: re::math::vec::Vec2<re::render::World> = mk();
+    let b: re::math::point::Point2<re::render::World> = mk();
+    let _ = re::math::Lerp::lerp(&a, &b, 0.5);
+}
+
+pub fn p1193() {
+    let a: re::math::vec::Vec2<re::render::World> = mk();
+    let b: re::math::point::Point3<re::render::Model> = mk();
+    let _ = re::math::Lerp::lerp(&a, &b, 0.5);
+}
+
+pub fn p1194() {
     let a: re::math::vec::Vec2<re::render::World> = mk();
     let b: re::math::point::Point3<()> = mk();
     let _ = re::math::Lerp::lerp(&a, &b, 0.5);
 }
 
-pub fn p1156() {
+pub fn p1195() {
     let a: re::math::vec::Vec2<re::render::World> = mk();
     let b: re::math::point::Point3<re::render::World> = mk();
     let _ = re::math::Lerp::lerp(&a, &b, 0.5);
 }
 
-pub fn p1157() {
+pub fn p1196() {
     let a: re::math::vec::Vec2<re::render::World> = mk();
     let b: re::math::vec::Vec2<re::render::Model> = mk();
     let _ = a + b;
 }
 
-pub fn p1158() {
+pub fn p1197() {
     let a: re::math::vec::Vec2<re::render::World> = mk();
     let b: re::math::vec::Vec2<re::render::Model> = mk();
     let _ = a.dot(&b);
 }
 
-pub fn p1159() {
+pub fn p1198() {
     let a: re::math::vec::Vec2<re::render::World> = mk();
     let b: re::math::vec::Vec2<re::render::Model> = mk();
     let _ = re::math::Lerp::lerp(&a, &b, 0.5);
 }
 
-pub fn p1160() {
+pub fn p1199() {
     let a: re::math::vec::Vec2<re::render::World> = mk();
     let b: re::math::vec::Vec2<re::render::Model> = mk();
     let _ = a - b;
 }
 
-pub fn p1161() {
+pub fn p1200() {
     let a: re::math::vec::Vec2<re::render::World> = mk();
     let b: re::math::vec::Vec2<()> = mk();
     let _ = a + b;
 }
 
-pub fn p1162() {
+pub fn p1201() {
     let a: re::math::vec::Vec2<re::render::World> = mk();
     let b: re::math::vec::Vec2<()> = mk();
     let _ = a.dot(&b);
 }
 
-pub fn p1163() {
+pub fn p1202() {
     let a: re::math::vec::Vec2<re::render::World> = mk();
     let b: re::math::vec::Vec2<()> = mk();
     let _ = re::math::Lerp::lerp(&a, &b, 0.5);
 }
 
-pub fn p1164() {
+pub fn p1203() {
     let a: re::math::vec::Vec2<re::render::World> = mk();
     let b: re::math::vec::Vec2<()> = mk();
     let _ = a - b;
 }
 
-pub fn p1169() {
+pub fn p1208() {
     let a: re::math::vec::Vec2<re::render::World> = mk();
     let b: re::math::vec::Vec3<re::render::Model> = mk();
     let _ = a + b;
 }
 
-pub fn p1170() {
+pub fn p1209() {
     let a: re::math::vec::Vec2<re::render::World> = mk();
     let b: re::math::vec::Vec3<re::render::Model> = mk();
     let _ = a.dot(&b);
 }
 
-pub fn p1171() {
+pub fn p1210() {
     let a: re::math::vec::Vec2<re::render::World> = mk();
     let b: re::math::vec::Vec3<re::render::Model> = mk();
     let _ = re::math::Lerp::lerp(&a, &b, 0.5);
 }
 
-pub fn p1172() {
+pub fn p1211() {
     let a: re::math::vec::Vec2<re::render::World> = mk();
     let b: re::math::vec::Vec3<re::render::Model> = mk();
     let _ = a - b;
 }
 
-pub fn p1173() {
+pub fn p1212() {
     let a: re::math::vec::Vec2<re::render::World> = mk();
     let b: re::math::vec::Vec3<()> = mk();
     let _ = a + b;
 }
 
-pub fn p1174() {
+pub fn p1213() {
     let a: re::math::vec::Vec2<re::render::World> = mk();
     let b: re::math::vec::Vec3<()> = mk();
     let _ = a.dot(&b);
 }
 
-pub fn p1175() {
+pub fn p1214() {
     let a: re::math::vec::Vec2<re::render::World> = mk();
     let b: re::math::vec::Vec3<()> = mk();
     let _ = re::math::Lerp::lerp(&a, &b, 0.5);
 }
 
-pub fn p1176() {
+pub fn p1215() {
     let a: re::math::vec::Vec2<re::render::World> = mk();
     let b: re::math::vec::Vec3<()> = mk();
     let _ = a - b;
 }
 
-pub fn p1177() {
+pub fn p1216() {
     let a: re::math::vec::Vec2<re::render::World> = mk();
     let b: re::math::vec::Vec3<re::render::World> = mk();
     let _ = a + b;
 }
 
-pub fn p1178() {
+pub fn p1217() {
     let a: re::math::vec::Vec2<re::render::World> = mk();
     let b: re::math::vec::Vec3<re::render::World> = mk();
     let _ = a.dot(&b);
 }
 
-pub fn p1179() {
+pub fn p1218() {
     let a: re::math::vec::Vec2<re::render::World> = mk();
     let b: re::math::vec::Vec3<re::render::World> = mk();
     let _ = re::math::Lerp::lerp(&a, &b, 0.5);
 }
 
-pub fn p1180() {
+pub fn p1219() {
     let a: re::math::vec::Vec2<re::render::World> = mk();
     let b: re::math::vec::Vec3<re::render::World> = mk();
     let _ = a - b;
 }
 
-pub fn p1181() {
+pub fn p1220() {
     let a: re::math::vec::Vec3<re::render::Model> = mk();
     let b: re::math::point::Point2<re::render::Model> = mk();
     let _ = re::math::Lerp::lerp(&a, &b, 0.5);
 }
 
-pub fn p1182() {
+pub fn p1221() {
     let a: re::math::vec::Vec3<re::render::Model> = mk();
     let b: re::math::point::Point2<()> = mk();
     let _ = re::math::Lerp::lerp(&a, &b, 0.5);
 }
 
-pub fn p1183() {
+pub fn p1222() {
     let a: re::math::vec::Vec3<re::render::Model> = mk();
     let b: re::math::point::Point2<re::render::World> = mk();
     let _ = re::math::Lerp::lerp(&a, &b, 0.5);
 }
 
-pub fn p1184() {
+pub fn p1223() {
     let a: re::math::vec::Vec3<re::render::Model> = mk();
     let b: re::math::point::Point3<re::render::Model> = mk();
     let _ = re::math::Lerp::lerp(&a, &b, 0.5);
 }
 
-pub fn p1185() {
+pub fn p1224() {
     let a: re::math::vec::Vec3<re::render::Model> = mk();
     let b: re::math::point::Point3<()> = mk();
     let _ = re::math::Lerp::lerp(&a, &b, 0.5);
 }
 
-pub fn p1186() {
+pub fn p1225() {
     let a: re::math::vec::Vec3<re::render::Model> = mk();
     let b: re::math::point::Point3<re::render::World> = mk();
     let _ = re::math::Lerp::lerp(&a, &b, 0.5);
 }
 
-pub fn p1187() {
+pub fn p1226() {
     let a: re::math::vec::Vec3<re::render::Model> = mk();
     let b: re::math::vec::Vec2<re::render::Model> = mk();
     let _ = a + b;
 }
 
-pub fn p1188() {
+pub fn p1227() {
     let a: re::math::vec::Vec3<re::render::Model> = mk();
     let b: re::math::vec::Vec2<re::render::Model> = mk();
     let _ = a.dot(&b);
 }
 
-pub fn p1189() {
+pub fn p1228() {
     let a: re::math::vec::Vec3<re::render::Model> = mk();
     let b: re::math::vec::Vec2<re::render::Model> = mk();
     let _ = re::math::Lerp::lerp(&a, &b, 0.5);
 }
 
-pub fn p1190() {
+pub fn p1229() {
     let a: re::math::vec::Vec3<re::render::Model> = mk();
     let b: re::math::vec::Vec2<re::render::Model> = mk();
     let _ = a - b;
 }
 
-pub fn p1191() {
+pub fn p1230() {
     let a: re::math::vec::Vec3<re::render::Model> = mk();
     let b: re::math::vec::Vec2<()> = mk();
     let _ = a + b;
 }
 
-pub fn p1192() {
+pub fn p1231() {
     let a: re::math::vec::Vec3<re::render::Model> = mk();
     let b: re::math::vec::Vec2<()> = mk();
     let _ = a.dot(&b);
 }
 
-pub fn p1193() {
+pub fn p1232() {
     let a: re::math::vec::Vec3<re::render::Model> = mk();
     let b: re::math::vec::Vec2<()> = mk();
     let _ = re::math::Lerp::lerp(&a, &b, 0.5);
 }
 
-pub fn p1194() {
+pub fn p1233() {
     let a: re::math::vec::Vec3<re::render::Model> = mk();
     let b: re::math::vec::Vec2<()> = mk();
     let _ = a - b;
 }
 
-pub fn p1195() {
+pub fn p1234() {
     let a: re::math::vec::Vec3<re::render::Model> = mk();
     let b: re::math::vec::Vec2<re::render::World> = mk();
     let _ = a + b;
 }
 
-pub fn p1196() {
+pub fn p1235() {
     let a: re::math::vec::Vec3<re::render::Model> = mk();
     let b: re::math::vec::Vec2<re::render::World> = mk();
     let _ = a.dot(&b);
 }
 
-pub fn p1197() {
+pub fn p1236() {
     let a: re::math::vec::Vec3<re::render::Model> = mk();
     let b: re::math::vec::Vec2<re::render::World> = mk();
     let _ = re::math::Lerp::lerp(&a, &b, 0.5);
 }
 
-pub fn p1198() {
+pub fn p1237() {
     let a: re::math::vec::Vec3<re::render::Model> = mk();
     let b: re::math::vec::Vec2<re::render::World> = mk();
     let _ = a - b;
 }
 
-pub fn p1203() {
+pub fn p1242() {
     let a: re::math::vec::Vec3<re::render::Model> = mk();
     let b: re::math::vec::Vec3<()> = mk();
     let _ = a + b;
 }
 
-pub fn p1204() {
+pub fn p1243() {
     let a: re::math::vec::Vec3<re::render::Model> = mk();
     let b: re::math::vec::Vec3<()> = mk();
     let _ = a.dot(&b);
 }
 
-pub fn p1205() {
+pub fn p1244() {
     let a: re::math::vec::Vec3<re::render::Model> = mk();
     let b: re::math::vec::Vec3<()> = mk();
     let _ = re::math::Lerp::lerp(&a, &b, 0.5);
 }
 
-pub fn p1206() {
+pub fn p1245() {
     let a: re::math::vec::Vec3<re::render::Model> = mk();
     let b: re::math::vec::Vec3<()> = mk();
     let _ = a - b;
 }
 
-pub fn p1207() {
+pub fn p1246() {
     let a: re::math::vec::Vec3<re::render::Model> = mk();
     let b: re::math::vec::Vec3<re::render::World> = mk();
     let _ = a + b;
 }
 
-pub fn p1208() {
+pub fn p1247() {
     let a: re::math::vec::Vec3<re::render::Model> = mk();
     let b: re::math::vec::Vec3<re::render::World> = mk();
     let _ = a.dot(&b);
 }
 
-pub fn p1209() {
+pub fn p1248() {
     let a: re::math::vec::Vec3<re::render::Model> = mk();
     let b: re::math::vec::Vec3<re::render::World> = mk();
     let _ = re::math::Lerp::lerp(&a, &b, 0.5);
 }
 
-pub fn p1210() {
+pub fn p1249() {
     let a: re::math::vec::Vec3<re::render::Model> = mk();
     let b: re::math::vec::Vec3<re::render::World> = mk();
     let _ = a - b;
 }
 
-pub fn p1211() {
+pub fn p1250() {
     use re::geom::{Tri, Vertex};
     let vs = |_: Vertex<re::math::point::Point3<re::render::Model>, ()>, _: ()| -> Vertex<re::math::vec::Vec3<re::render::Model>, f32> { mk() };
     let fs = |_: re::render::raster::Frag<f32>| -> Option<re::math::color::Color4> { mk() };
@@ -5990,315 +6074,363 @@ pub fn p1211() {
     re::render::render(&tris, &verts, &sh, (), mk(), &mut target, &mk::<re::render::Context>());
 }
 
-pub fn p1212() {
-    let a: re::math::vec::Vec3<()> = mk();
-    let b: re::math::point::Point2<re::render::Model> = mk();
-    let _ = re::math::Lerp::lerp(&a, &b, 0.5);
-}
-
-pub fn p1213() {
-    let a: re::math::vec::Vec3<()> = mk();
-    let b: re::math::point::Point2<()> = mk();
-    let _ = re::math::Lerp::lerp(&a, &b, 0.5);
-}
-
-pub fn p1214() {
-    let a: re::math::vec::Vec3<()> = mk();
-    let b: re::math::point::Point2<re::render::World> = mk();
-    let _ = re::math::Lerp::lerp(&a, &b, 0.5);
-}
-
-pub fn p1215() {
-    let a: re::math::vec::Vec3<()> = mk();
-    let b: re::math::point::Point3<re::render::Model> = mk();
-    let _ = re::math::Lerp::lerp(&a, &b, 0.5);
-}
-
-pub fn p1216() {
-    let a: re::math::vec::Vec3<()> = mk();
-    let b: re::math::point::Point3<()> = mk();
-    let _ = re::math::Lerp::lerp(&a, &b, 0.5);
-}
-
-pub fn p1217() {
-    let a: re::math::vec::Vec3<()> = mk();
-    let b: re::math::point::Point3<re::render::World> = mk();
-    let _ = re::math::Lerp::lerp(&a, &b, 0.5);
-}
-
-pub fn p1218() {
-    let a: re::math::vec::Vec3<()> = mk();
-    let b: re::math::vec::Vec2<re::render::Model> = mk();
-    let _ = a + b;
-}
-
-pub fn p1219() {
-    let a: re::math::vec::Vec3<()> = mk();
-    let b: re::math::vec::Vec2<re::render::Model> = mk();
-    let _ = a.dot(&b);
-}
-
-pub fn p1220() {
-    let a: re::math::vec::Vec3<()> = mk();
-    let b: re::math::vec::Vec2<re::render::Model> = mk();
-    let _ = re::math::Lerp::lerp(&a, &b, 0.5);
-}
-
-pub fn p1221() {
-    let a: re::math::vec::Vec3<()> = mk();
-    let b: re::math::vec::Vec2<re::render::Model> = mk();
-    let _ = a - b;
-}
-
-pub fn p1222() {
-    let a: re::math::vec::Vec3<()> = mk();
-    let b: re::math::vec::Vec2<()> = mk();
-    let _ = a + b;
-}
-
-pub fn p1223() {
-    let a: re::math::vec::Vec3<()> = mk();
-    let b: re::math::vec::Vec2<()> = mk();
-    let _ = a.dot(&b);
-}
-
-pub fn p1224() {
-    let a: re::math::vec::Vec3<()> = mk();
-    let b: re::math::vec::Vec2<()> = mk();
-    let _ = re::math::Lerp::lerp(&a, &b, 0.5);
-}
-
-pub fn p1225() {
-    let a: re::math::vec::Vec3<()> = mk();
-    let b: re::math::vec::Vec2<()> = mk();
-    let _ = a - b;
-}
-
-pub fn p1226() {
-    let a: re::math::vec::Vec3<()> = mk();
-    let b: re::math::vec::Vec2<re::render::World> = mk();
-    let _ = a + b;
-}
-
-pub fn p1227() {
-    let a: re::math::vec::Vec3<()> = mk();
-    let b: re::math::vec::Vec2<re::render::World> = mk();
-    let _ = a.dot(&b);
-}
-
-pub fn p1228() {
-    let a: re::math::vec::Vec3<()> = mk();
-    let b: re::math::vec::Vec2<re::render::World> = mk();
-    let _ = re::math::Lerp::lerp(&a, &b, 0.5);
-}
-
-pub fn p1229() {
-    let a: re::math::vec::Vec3<()> = mk();
-    let b: re::math::vec::Vec2<re::render::World> = mk();
-    let _ = a - b;
-}
-
-pub fn p1230() {
-    let a: re::math::vec::Vec3<()> = mk();
-    let b: re::math::vec::Vec3<re::render::Model> = mk();
-    let _ = a + b;
-}
-
-pub fn p1231() {
-    let a: re::math::vec::Vec3<()> = mk();
-    let b: re::math::vec::Vec3<re::render::Model> = mk();
-    let _ = a.dot(&b);
-}
-
-pub fn p1232() {
-    let a: re::math::vec::Vec3<()> = mk();
-    let b: re::math::vec::Vec3<re::render::Model> = mk();
-    let _ = re::math::Lerp::lerp(&a, &b, 0.5);
-}
-
-pub fn p1233() {
-    let a: re::math::vec::Vec3<()> = mk();
-    let b: re::math::vec::Vec3<re::render::Model> = mk();
-    let _ = a - b;
-}
-
-pub fn p1238() {
-    let a: re::math::vec::Vec3<()> = mk();
-    let b: re::math::vec::Vec3<re::render::World> = mk();
-    let _ = a + b;
-}
-
-pub fn p1239() {
-    let a: re::math::vec::Vec3<()> = mk();
-    let b: re::math::vec::Vec3<re::render::World> = mk();
-    let _ = a.dot(&b);
-}
-
-pub fn p1240() {
-    let a: re::math::vec::Vec3<()> = mk();
-    let b: re::math::vec::Vec3<re::render::World> = mk();
-    let _ = re::math::Lerp::lerp(&a, &b, 0.5);
-}
-
-pub fn p1241() {
-    let a: re::math::vec::Vec3<()> = mk();
-    let b: re::math::vec::Vec3<re::render::World> = mk();
-    let _ = a - b;
-}
-
-pub fn p1242() {
-    let a: re::math::vec::Vec3<re::render::World> = mk();
-    let b: re::math::point::Point2<re::render::Model> = mk();
-    let _ = re::math::Lerp::lerp(&a, &b, 0.5);
-}
-
-pub fn p1243() {
-    let a: re::math::vec::Vec3<re::render::World> = mk();
-    let b: re::math::point::Point2<()> = mk();
-    let _ = re::math::Lerp::lerp(&a, &b, 0.5);
-}
-
-pub fn p1244() {
-    let a: re::math::vec::Vec3<re::render::World> = mk();
-    let b: re::math::point::Point2<re::render::World> = mk();
-    let _ = re::math::Lerp::lerp(&a, &b, 0.5);
-}
-
-pub fn p1245() {
-    let a: re::math::vec::Vec3<re::render::World> = mk();
-    let b: re::math::point::Point3<re::render::Model> = mk();
-    let _ = re::math::Lerp::lerp(&a, &b, 0.5);
-}
-
-pub fn p1246() {
-    let a: re::math::vec::Vec3<re::render::World> = mk();
-    let b: re::math::point::Point3<()> = mk();
-    let _ = re::math::Lerp::lerp(&a, &b, 0.5);
-}
-
-pub fn p1247() {
-    let a: re::math::vec::Vec3<re::render::World> = mk();
-    let b: re::math::point::Point3<re::render::World> = mk();
-    let _ = re::math::Lerp::lerp(&a, &b, 0.5);
-}
-
-pub fn p1248() {
-    let a: re::math::vec::Vec3<re::render::World> = mk();
-    let b: re::math::vec::Vec2<re::render::Model> = mk();
-    let _ = a + b;
-}
-
-pub fn p1249() {
-    let a: re::math::vec::Vec3<re::render::World> = mk();
-    let b: re::math::vec::Vec2<re::render::Model> = mk();
-    let _ = a.dot(&b);
-}
-
-pub fn p1250() {
-    let a: re::math::vec::Vec3<re::render::World> = mk();
-    let b: re::math::vec::Vec2<re::render::Model> = mk();
-    let _ = re::math::Lerp::lerp(&a, &b, 0.5);
-}
-
 pub fn p1251() {
-    let a: re::math::vec::Vec3<re::render::World> = mk();
-    let b: re::math::vec::Vec2<re::render::Model> = mk();
-    let _ = a - b;
+    let a: re::math::vec::Vec3<()> = mk();
+    let b: re::math::point::Point2<re::render::Model> = mk();
+    let _ = re::math::Lerp::lerp(&a, &b, 0.5);
 }
 
 pub fn p1252() {
-    let a: re::math::vec::Vec3<re::render::World> = mk();
-    let b: re::math::vec::Vec2<()> = mk();
-    let _ = a + b;
+    let a: re::math::vec::Vec3<()> = mk();
+    let b: re::math::point::Point2<()> = mk();
+    let _ = re::math::Lerp::lerp(&a, &b, 0.5);
 }
 
 pub fn p1253() {
-    let a: re::math::vec::Vec3<re::render::World> = mk();
-    let b: re::math::vec::Vec2<()> = mk();
-    let _ = a.dot(&b);
+    let a: re::math::vec::Vec3<()> = mk();
+    let b: re::math::point::Point2<re::render::World> = mk();
+    let _ = re::math::Lerp::lerp(&a, &b, 0.5);
 }
 
 pub fn p1254() {
-    let a: re::math::vec::Vec3<re::render::World> = mk();
-    let b: re::math::vec::Vec2<()> = mk();
+    let a: re::math::vec::Vec3<()> = mk();
+    let b: re::math::point::Point3<re::render::Model> = mk();
     let _ = re::math::Lerp::lerp(&a, &b, 0.5);
 }
 
 pub fn p1255() {
+    let a: re::math::vec::Vec3<()> = mk();
+    let b: re::math::point::Point3<()> = mk();
+    let _ = re::math::Lerp::lerp(&a, &b, 0.5);
+}
+
+pub fn p1256() {
+    let a: re::math::vec::Vec3<()> = mk();
+    let b: re::math::point::Point3<re::render::World> = mk();
+    let _ = re::math::Lerp::lerp(&a, &b, 0.5);
+}
+
+pub fn p1257() {
+    let a: re::math::vec::Vec3<()> = mk();
+    let b: re::math::vec::Vec2<re::render::Model> = mk();
+    let _ = a + b;
+}
+
+pub fn p1258() {
+    let a: re::math::vec::Vec3<()> = mk();
+    let b: re::math::vec::Vec2<re::render::Model> = mk();
+    let _ = a.dot(&b);
+}
+
+pub fn p1259() {
+    let a: re::math::vec::Vec3<()> = mk();
+    let b: re::math::vec::Vec2<re::render::Model> = mk();
+    let _ = re::math::Lerp::lerp(&a, &b, 0.5);
+}
+
+pub fn p1260() {
+    let a: re::math::vec::Vec3<()> = mk();
+    let b: re::math::vec::Vec2<re::render::Model> = mk();
+    let _ = a - b;
+}
+
+pub fn p1261() {
+    let a: re::math::vec::Vec3<()> = mk();
+    let b: re::math::vec::Vec2<()> = mk();
+    let _ = a + b;
+}
+
+pub fn p1262() {
+    let a: re::math::vec::Vec3<()> = mk();
+    let b: re::math::vec::Vec2<()> = mk();
+    let _ = a.dot(&b);
+}
+
+pub fn p1263() {
+    let a: re::math::vec::Vec3<()> = mk();
+    let b: re::math::vec::Vec2<()> = mk();
+    let _ = re::math::Lerp::lerp(&a, &b, 0.5);
+}
+
+pub fn p1264() {
+    let a: re::math::vec::Vec3<()> = mk();
+    let b: re::math::vec::Vec2<()> = mk();
+    let _ = a - b;
+}
+
+pub fn p1265() {
+    let a: re::math::vec::Vec3<()> = mk();
+    let b: re::math::vec::Vec2<re::render::World> = mk();
+    let _ = a + b;
+}
+
+pub fn p1266() {
+    let a: re::math::vec::Vec3<()> = mk();
+    let b: re::math::vec::Vec2<re::render::World> = mk();
+    let _ = a.dot(&b);
+}
+
+pub fn p1267() {
+    let a: re::math::vec::Vec3<()> = mk();
+    let b: re::math::vec::Vec2<re::render::World> = mk();
+    let _ = re::math::Lerp::lerp(&a, &b, 0.5);
+}
+
+pub fn p1268() {
+    let a: re::math::vec::Vec3<()> = mk();
+    let b: re::math::vec::Vec2<re::render::World> = mk();
+    let _ = a - b;
+}
+
+pub fn p1269() {
+    let a: re::math::vec::Vec3<()> = mk();
+    let b: re::math::vec::Vec3<re::render::Model> = mk();
+    let _ = a + b;
+}
+
+pub fn p1270() {
+    let a: re::math::vec::Vec3<()> = mk();
+    let b: re::math::vec::Vec3<re::render::Model> = mk();
+    let _ = a.dot(&b);
+}
+
+pub fn p1271() {
+    let a: re::math::vec::Vec3<()> = mk();
+    let b: re::math::vec::Vec3<re::render::Model> = mk();
+    let _ = re::math::Lerp::lerp(&a, &b, 0.5);
+}
+
+pub fn p1272() {
+    let a: re::math::vec::Vec3<()> = mk();
+    let b: re::math::vec::Vec3<re::render::Model> = mk();
+    let _ = a - b;
+}
+
+pub fn p1277() {
+    let a: re::math::vec::Vec3<()> = mk();
+    let b: re::math::vec::Vec3<re::render::World> = mk();
+    let _ = a + b;
+}
+
+pub fn p1278() {
+    let a: re::math::vec::Vec3<()> = mk();
+    let b: re::math::vec::Vec3<re::render::World> = mk();
+    let _ = a.dot(&b);
+}
+
+pub fn p1279() {
+    let a: re::math::vec::Vec3<()> = mk();
+    let b: re::math::vec::Vec3<re::render::World> = mk();
+    let _ = re::math::Lerp::lerp(&a, &b, 0.5);
+}
+
+pub fn p1280() {
+    let a: re::math::vec::Vec3<()> = mk();
+    let b: re::math::vec::Vec3<re::render::World> = mk();
+    let _ = a - b;
+}
+
+pub fn p1285() {
+    let a: re::math::vec::Vec3<crate::UserTag> = mk();
+    let b: re::math::vec::Vec3<re::render::World> = mk();
+    let _ = a + b;
+}
+
+pub fn p1286() {
+    let a: re::math::vec::Vec3<crate::UserTag> = mk();
+    let b: re::math::vec::Vec3<re::render::World> = mk();
+    let _ = a.dot(&b);
+}
+
+pub fn p1287() {
+    let a: re::math::vec::Vec3<crate::UserTag> = mk();
+    let b: re::math::vec::Vec3<re::render::World> = mk();
+    let _ = re::math::Lerp::lerp(&a, &b, 0.5);
+}
+
+pub fn p1288() {
+    let a: re::math::vec::Vec3<crate::UserTag> = mk();
+    let b: re::math::vec::Vec3<re::render::World> = mk();
+    let _ = a - b;
+}
+
+pub fn p1289() {
+    let a: re::math::vec::Vec3<re::render::World> = mk();
+    let b: re::math::point::Point2<re::render::Model> = mk();
+    let _ = re::math::Lerp::lerp(&a, &b, 0.5);
+}
+
+pub fn p1290() {
+    let a: re::math::vec::Vec3<re::render::World> = mk();
+    let b: re::math::point::Point2<()> = mk();
+    let _ = re::math::Lerp::lerp(&a, &b, 0.5);
+}
+
+pub fn p1291() {
+    let a: re::math::vec::Vec3<re::render::World> = mk();
+    let b: re::math::point::Point2<re::render::World> = mk();
+    let _ = re::math::Lerp::lerp(&a, &b, 0.5);
+}
+
+pub fn p1292() {
+    let a: re::math::vec::Vec3<re::render::World> = mk();
+    let b: re::math::point::Point3<re::render::Model> = mk();
+    let _ = re::math::Lerp::lerp(&a, &b, 0.5);
+}
+
+pub fn p1293() {
+    let a: re::math::vec::Vec3<re::render::World> = mk();
+    let b: re::math::point::Point3<()> = mk();
+    let _ = re::math::Lerp::lerp(&a, &b, 0.5);
+}
+
+pub fn p1294() {
+    let a: re::math::vec::Vec3<re::render::World> = mk();
+    let b: re::math::point::Point3<re::render::World> = mk();
+    let _ = re::math::Lerp::lerp(&a, &b, 0.5);
+}
+
+pub fn p1295() {
+    let a: re::math::vec::Vec3<re::render::World> = mk();
+    let b: re::math::vec::Vec2<re::render::Model> = mk();
+    let _ = a + b;
+}
+
+pub fn p1296() {
+    let a: re::math::vec::Vec3<re::render::World> = mk();
+    let b: re::math::vec::Vec2<re::render::Model> = mk();
+    let _ = a.dot(&b);
+}
+
+pub fn p1297() {
+    let a: re::math::vec::Vec3<re::render::World> = mk();
+    let b: re::math::vec::Vec2<re::render::Model> = mk();
+    let _ = re::math::Lerp::lerp(&a, &b, 0.5);
+}
+
+pub fn p1298() {
+    let a: re::math::vec::Vec3<re::render::World> = mk();
+    let b: re::math::vec::Vec2<re::render::Model> = mk();
+    let _ = a - b;
+}
+
+pub fn p1299() {
+    let a: re::math::vec::Vec3<re::render::World> = mk();
+    let b: re::math::vec::Vec2<()> = mk();
+    let _ = a + b;
+}
+
+pub fn p1300() {
+    let a: re::math::vec::Vec3<re::render::World> = mk();
+    let b: re::math::vec::Vec2<()> = mk();
+    let _ = a.dot(&b);
+}
+
+pub fn p1301() {
+    let a: re::math::vec::Vec3<re::render::World> = mk();
+    let b: re::math::vec::Vec2<()> = mk();
+    let _ = re::math::Lerp::lerp(&a, &b, 0.5);
+}
+
+pub fn p1302() {
     let a: re::math::vec::Vec3<re::render::World> = mk();
     let b: re::math::vec::Vec2<()> = mk();
     let _ = a - b;
 }
 
-pub fn p1256() {
+pub fn p1303() {
     let a: re::math::vec::Vec3<re::render::World> = mk();
     let b: re::math::vec::Vec2<re::render::World> = mk();
     let _ = a + b;
 }
 
-pub fn p1257() {
+pub fn p1304() {
     let a: re::math::vec::Vec3<re::render::World> = mk();
     let b: re::math::vec::Vec2<re::render::World> = mk();
     let _ = a.dot(&b);
 }
 
-pub fn p1258() {
+pub fn p1305() {
     let a: re::math::vec::Vec3<re::render::World> = mk();
     let b: re::math::vec::Vec2<re::render::World> = mk();
     let _ = re::math::Lerp::lerp(&a, &b, 0.5);
 }
 
-pub fn p1259() {
+pub fn p1306() {
     let a: re::math::vec::Vec3<re::render::World> = mk();
     let b: re::math::vec::Vec2<re::render::World> = mk();
     let _ = a - b;
 }
 
-pub fn p1260() {
+pub fn p1307() {
     let a: re::math::vec::Vec3<re::render::World> = mk();
     let b: re::math::vec::Vec3<re::render::Model> = mk();
     let _ = a + b;
 }
 
-pub fn p1261() {
+pub fn p1308() {
     let a: re::math::vec::Vec3<re::render::World> = mk();
     let b: re::math::vec::Vec3<re::render::Model> = mk();
     let _ = a.dot(&b);
 }
 
-pub fn p1262() {
+pub fn p1309() {
     let a: re::math::vec::Vec3<re::render::World> = mk();
     let b: re::math::vec::Vec3<re::render::Model> = mk();
     let _ = re::math::Lerp::lerp(&a, &b, 0.5);
 }
 
-pub fn p1263() {
+pub fn p1310() {
     let a: re::math::vec::Vec3<re::render::World> = mk();
     let b: re::math::vec::Vec3<re::render::Model> = mk();
     let _ = a - b;
 }
 
-pub fn p1264() {
+pub fn p1311() {
     let a: re::math::vec::Vec3<re::render::World> = mk();
     let b: re::math::vec::Vec3<()> = mk();
     let _ = a + b;
 }
 
-pub fn p1265() {
+pub fn p1312() {
     let a: re::math::vec::Vec3<re::render::World> = mk();
     let b: re::math::vec::Vec3<()> = mk();
     let _ = a.dot(&b);
 }
 
-pub fn p1266() {
+pub fn p1313() {
     let a: re::math::vec::Vec3<re::render::World> = mk();
     let b: re::math::vec::Vec3<()> = mk();
     let _ = re::math::Lerp::lerp(&a, &b, 0.5);
 }
 
-pub fn p1267() {
+pub fn p1314() {
     let a: re::math::vec::Vec3<re::render::World> = mk();
     let b: re::math::vec::Vec3<()> = mk();
+    let _ = a - b;
+}
+
+pub fn p1315() {
+    let a: re::math::vec::Vec3<re::render::World> = mk();
+    let b: re::math::vec::Vec3<crate::UserTag> = mk();
+    let _ = a + b;
+}
+
+pub fn p1316() {
+    let a: re::math::vec::Vec3<re::render::World> = mk();
+    let b: re::math::vec::Vec3<crate::UserTag> = mk();
+    let _ = a.dot(&b);
+}
+
+pub fn p1317() {
+    let a: re::math::vec::Vec3<re::render::World> = mk();
+    let b: re::math::vec::Vec3<crate::UserTag> = mk();
+    let _ = re::math::Lerp::lerp(&a, &b, 0.5);
+}
+
+pub fn p1318() {
+    let a: re::math::vec::Vec3<re::render::World> = mk();
+    let b: re::math::vec::Vec3<crate::UserTag> = mk();
     let _ = a - b;
 }
 
